@@ -1,5 +1,50 @@
 (* Clock2.v -- T2 for C02 (first sentence) on the STAGE-2 engine model (State2 / Engine2 / Codec2):
-   "simulated time never decreases, each event is executed exactly at its scheduled date, and no event is scheduled in the past". *)
+   "simulated time never decreases, each event is executed exactly at its scheduled date, and no event is scheduled in the past"
+   -- for every configuration in the scope below, every state satisfying the invariant Clk2, every oracle whose service,
+   inter-arrival, patience and class-change draws are >= 0 (DrawsOK), and any number of events (partial correctness: nothing is
+   said about runs in which the model returns Err / OutOfFuel).
+
+   A node's next event is the earliest of five kinds (slotted service, shift change, end of service, class change while waiting,
+   renege: decide_next_event), so the invariant has to bound from below every date these come from:
+     arrival dates; end-of-service dates of the servers (nodes with servers) -- infinite-server and slotted nodes recompute theirs from
+     the customers with an explicit guard now <= end; the next shift change, which is D k of the cyclic timetable at the node's
+     generator position k, and the next slot date; the node's cached next_class_change_date (and, behind it, the class-change date
+     of every waiting customer, which must not be below the cache); the reneging date of every waiting customer of a node with
+     servers and reneging.  The last two need to know WHERE a customer is, so the invariant also says that every customer record
+     sits in the queue of exactly the node it names (a ghost location function, a customer in transit, a ghost copy of the
+     class-change caches, and one "excused" customer whose class-change clock is being rewound or who is being given a server).
+
+   Main results
+     event_step_clk2, run_many_clk2, run_many_monotone2    Clk2 is kept by one event / any run, and now s <= now s'
+     Clk2_means                                            the invariant in the words of the property
+     clk2_b, clk2_b_sound                                  executable test of the invariant (sound)
+     ex_* (reneging + schedule + slots), dx_* (class change while waiting), px_* (priority pre-emption by rerouting, with
+     reneging), qx_* (priority restart + pre-emptive schedule resample + pre-emptive capacitated slots restart, with blocking):
+                                                           closed non-trivial states satisfying Clk2 and runs from them
+     clock_monotone_refuted_F02a / _F02b / _F02c           closed witnesses that the statement is FALSE outside the scope
+
+   Scope (executable, on the configuration):  scope c = region c && wf_times c && dyn_ok c
+     wf_times   every Schedule / Slotted timetable has offset >= 0 and positive increasing boundaries (then its dates increase)
+     dyn_ok     class change while waiting (cf_dyn) not together with slotted services            [not refuted: proof economy]
+     region     EITHER no pre-emption of any kind (Renege2.nopre: no priority pre-emption, no pre-emptive schedule, no pre-emptive
+                capacitated slot) -- then routers, capacities / blocking, reneging and jockeying, class change while waiting,
+                server priority functions, non-pre-emptive schedules with overtime and slotted services are all covered;
+                OR pre-emption without the option 'resume' anywhere (noresume), without class change while waiting, and with
+                priority pre-emption that reroutes its victims (prio_reroute) unless no node has reneging (noren) -- then priority
+                pre-emption (restart / resample / reroute), pre-emptive schedules and pre-emptive capacitated slots (restart /
+                resample / reroute) are covered, again with capacities and blocking.
+   Why each restriction:  'resume' stores time_left = end date - now of the victim; for a BLOCKED victim this is negative and the
+   clock later goes back (F-02a priority pre-emption, F-02b pre-emptive shift change: witnesses below); without capacities it is
+   not negative, but proving that needs the server-customer link at the moment of pre-emption (Servers2.v) and is left open.
+   A victim of priority pre-emption that is not rerouted goes back to waiting with the reneging date it had, which may have passed
+   (F-02c: witness below), hence prio_reroute || noren.  Class change while waiting together with pre-emption or slots: the
+   candidate of the class-change event would have to be located through the server link as well (left open, as in Servers2.v).
+
+   Method: a Hoare logic over the engine monad (Renege2.sp) for the invariant Inv loc tr ex gc cr "during the event at date t"; one
+   lemma per engine function (fixed ghosts), G-forms (the ghost class-change caches may change: find_next_class_change) and X-forms
+   (the location may change: release / accept / preempt by induction on the fuel); then update_next_event_date leaves on every
+   node a date that is >= t and <= every date the node carries (Fresh), and find_next_active_node moves the clock to the
+   minimum of these (Inv_now). *)
 From Coq Require Import ZArith List Bool Lia Permutation.
 From RecordUpdate Require Import RecordUpdate.
 From CiwV Require Import Sx Prelude Routing Sched.
@@ -22,16 +67,14 @@ Local Arguments nth_error : simpl never.
 Local Arguments gen_date : simpl never.
 Local Arguments D : simpl never.
 
-Module R := Renege2.
-Module P := Preempt2.
-Notation dle := R.dle.
-Notation sp := R.sp.
-Notation top := R.top.
-Notation Idx := R.Idx.
-Notation out := R.out.
-Notation TNone := R.TNone.
-Notation TOut := R.TOut.
-Notation TRec := R.TRec.
+Notation dle := Renege2.dle.
+Notation sp := Renege2.sp.
+Notation top := Renege2.top.
+Notation Idx := Renege2.Idx.
+Notation out := Renege2.out.
+Notation TNone := Renege2.TNone.
+Notation TOut := Renege2.TOut.
+Notation TRec := Renege2.TRec.
 
 (* invert one bind, with names chosen by the caller *)
 Ltac minv H a s1 E :=
@@ -72,6 +115,19 @@ Qed.
 Definition wf_nc (nc : ncfg) : bool :=
   match nc_srv nc with SFixed => true | SSched sc => wf_tt (sc_b sc) (sc_off sc) | SSlot sl => wf_tt (sl_b sl) (sl_off sl) end.
 Definition wf_times (c : config) : bool := forallb wf_nc (cf_nodes c).
+
+(* pre-emption options: 0 none, 1 resume, 2 restart, 3 resample, 4 reroute *)
+Definition noresume_nc (nc : ncfg) : bool :=
+  negb (nc_preempt nc =? 1) &&
+  match nc_srv nc with SFixed => true | SSched sc => negb (sc_pre sc =? 1) | SSlot sl => negb (sl_cap sl && (sl_pre sl =? 1)) end.
+Definition noresume (c : config) : bool := forallb noresume_nc (cf_nodes c).
+(* priority pre-emption, where there is any, reroutes the pre-empted customer *)
+Definition prio_reroute (c : config) : bool := forallb (fun nc => (nc_preempt nc =? 0) || (nc_preempt nc =? 4)) (cf_nodes c).
+Definition noren (c : config) : bool := forallb (fun nc => negb (nc_reneging nc)) (cf_nodes c).
+(* the regions in which the theorems are proved: no pre-emption at all, or pre-emption without 'resume', without class change while
+   waiting, and with priority pre-emption that either reroutes its victims or happens in a network without reneging *)
+Definition region (c : config) : bool :=
+  Renege2.nopre c || (negb (cf_dyn c) && noresume c && (prio_reroute c || noren c)).
 
 Definition nonneg (l : list Z) : Prop := Forall (fun x => 0 <= x) l.
 Definition DrawsOK (d : draws) : Prop := nonneg (d_svc d) /\ nonneg (d_arr d) /\ nonneg (d_ren d) /\ nonneg (d_cct d).
@@ -115,18 +171,18 @@ Section MinDates.
     dle (fst (fst r)) (fst (fst best)) /\ Forall (dle (fst (fst r))) row /\ LB r.
   Proof.
     induction row as [|d row IH]; intros j c0 best HL HB; cbn [find_min_row].
-    - split; [apply R.dle_refl|split; [constructor|exact HB]].
+    - split; [apply Renege2.dle_refl|split; [constructor|exact HB]].
     - set (best' := if date_lt d (fst (fst best)) then (d, j, c0) else best).
       assert (HB' : LB best').
       { unfold best'. destruct (date_lt d (fst (fst best))); [|exact HB]. right. cbn. specialize (HL 0%nat d eq_refl). replace (c0 + Z.of_nat 0) with c0 in HL by lia. exact HL. }
       assert (Hd : dle (fst (fst best')) d /\ dle (fst (fst best')) (fst (fst best))).
       { unfold best'. destruct (date_lt d (fst (fst best))) eqn:E; cbn [fst].
-        - split; [apply R.dle_refl|apply R.date_lt_dle; exact E].
-        - split; [apply R.date_nlt_dle; exact E|apply R.dle_refl]. }
+        - split; [apply Renege2.dle_refl|apply Renege2.date_lt_dle; exact E].
+        - split; [apply Renege2.date_nlt_dle; exact E|apply Renege2.dle_refl]. }
       destruct (IH j (c0 + 1) best') as (A & B & C).
       + intros n d0 Hn. specialize (HL (S n) d0 Hn). replace (c0 + 1 + Z.of_nat n) with (c0 + Z.of_nat (S n)) by lia. exact HL.
       + exact HB'.
-      + split; [eapply R.dle_trans; [exact A|apply Hd]|]. split; [constructor; [eapply R.dle_trans; [exact A|apply Hd]|exact B]|exact C].
+      + split; [eapply Renege2.dle_trans; [exact A|apply Hd]|]. split; [constructor; [eapply Renege2.dle_trans; [exact A|apply Hd]|exact B]|exact C].
   Qed.
   Lemma find_min_dates_spec : forall rows j0 best,
     (forall n row, nth_error rows n = Some row -> forall m d, nth_error row m = Some d -> Lc d (j0 + Z.of_nat n) (Z.of_nat m)) -> LB best ->
@@ -134,15 +190,15 @@ Section MinDates.
     dle (fst (fst r)) (fst (fst best)) /\ Forall (Forall (dle (fst (fst r)))) rows /\ LB r.
   Proof.
     induction rows as [|row rows IH]; intros j0 best HL HB; cbn [find_min_dates].
-    - split; [apply R.dle_refl|split; [constructor|exact HB]].
+    - split; [apply Renege2.dle_refl|split; [constructor|exact HB]].
     - destruct (find_min_row_spec row j0 0 best) as (A1 & B1 & C1).
       + intros n d Hn. specialize (HL 0%nat row eq_refl n d Hn). replace (j0 + Z.of_nat 0) with j0 in HL by lia. exact HL.
       + exact HB.
       + destruct (IH (j0 + 1) (find_min_row j0 0 row best)) as (A & B & C).
         * intros n row0 Hn m d Hm. specialize (HL (S n) row0 Hn m d Hm). replace (j0 + 1 + Z.of_nat n) with (j0 + Z.of_nat (S n)) by lia. exact HL.
         * exact C1.
-        * split; [eapply R.dle_trans; eauto|]. split; [|exact C]. constructor; [|exact B].
-          eapply Forall_impl; [|exact B1]. intros a Ha. eapply R.dle_trans; eauto.
+        * split; [eapply Renege2.dle_trans; eauto|]. split; [|exact C]. constructor; [|exact B].
+          eapply Forall_impl; [|exact B1]. intros a Ha. eapply Renege2.dle_trans; eauto.
   Qed.
 End MinDates.
 
@@ -157,8 +213,9 @@ Section Clock2.
   Variable t : Z.                           (* the date of the event in progress *)
   Variable nn : nat.                        (* the number of nodes *)
 
-  Hypothesis Hpre : R.nopre cf = true.
-  Hypothesis Hdyn : cf_dyn cf = false.
+  Hypothesis Hreg : region cf = true.
+  (* class change while waiting: not together with slotted services *)
+  Hypothesis Hdns : cf_dyn cf = true -> forall nc, In nc (cf_nodes cf) -> nc_slotted nc = false.
   Hypothesis Hwf : wf_times cf = true.
   (* a node with a server schedule has finitely many servers *)
   Hypothesis Hsch : forall j nc sc, nthZ (cf_nodes cf) (j - 1) = Some nc -> nc_srv nc = SSched sc -> inf_at j = false.
@@ -172,14 +229,26 @@ Section Clock2.
   (* a customer without server at a finite node with reneging: its reneging date has not passed *)
   Definition IP (x : ind) : Prop :=
     forall j z, i_node x = Some j -> ren_at j = true -> inf_at j = false -> i_ren x = XV z -> i_server x = None -> t <= z.
-  Definition IndOK (loc : Z -> option Z) (tr : R.transit) (cr : Z) (x : ind) : Prop :=
+  (* class change while waiting.  gc is a ghost: node id -> the (next_class_change_date, next_class_change_ind) that node holds;
+     ex = Some (i, j): customer i, at node j, is excused (its class-change clock is being rewound / it is being given a server) *)
+  Definition CCI (ex : option (Z * Z)) (gc : Z -> option Z * option Z) (x : ind) (j : Z) : Prop :=
+    (i_server x = None -> forall z, i_ccd x = XV z -> ex = Some (i_id x, j) \/ (t <= z /\ dle (fst (gc j)) (Some z))) /\
+    (snd (gc j) = Some (i_id x) -> i_server x = None \/ ex = Some (i_id x, j)).
+  Definition IndOK (loc : Z -> option Z) (tr : Renege2.transit) (ex : option (Z * Z)) (gc : Z -> option Z * option Z) (cr : Z) (x : ind) : Prop :=
     i_id x <= cr /\
-    (NN (i_stime x) /\ NN (i_ost x) /\ NN (i_tleft x)) /\
-    (out tr (i_id x) = false -> (exists j, i_node x = Some j /\ loc (i_id x) = Some j) /\ IP x).
+    (NN (i_stime x) /\ NN (i_ost x) /\ i_smark x <> 1) /\
+    (out tr (i_id x) = false ->
+       (exists j, i_node x = Some j /\ loc (i_id x) = Some j) /\ IP x /\
+       (cf_dyn cf = true -> forall j, i_node x = Some j -> inf_at j = false -> CCI ex gc x j)) /\
+    (forall j, ex = Some (i_id x, j) -> i_node x = Some j /\ loc (i_id x) = Some j).
 
   Definition SvOK (sv : server) : Prop := dle (Some t) (sv_next_end sv).
-  (* the dates a node carries: end-of-service dates of its servers, its next shift change / slot *)
-  Definition NodeT (nd : node) : Prop :=
+  (* the dates a node carries: end-of-service dates of its servers, its next shift change / slot, its next class change *)
+  Definition NodeT (ex : option (Z * Z)) (gc : Z -> option Z * option Z) (nd : node) : Prop :=
+    (Renege2.nopre cf = true -> n_nint nd <= 0) /\
+    (cf_dyn cf = true -> (n_nccd nd, n_ncci nd) = gc (n_id nd) /\
+       (nd_inf nd = false -> dle (Some t) (n_nccd nd) /\
+                             forall i, n_ncci nd = Some i -> In i (all_individuals nd) \/ ex = Some (i, n_id nd))) /\
     match ncf (n_id nd) with
     | None => True
     | Some nc =>
@@ -191,49 +260,68 @@ Section Clock2.
       | SSlot sl => 0 <= n_spos nd /\ t <= slotdate sl (Z.to_nat (n_spos nd))
       end
     end.
-  Definition NodeOK (loc : Z -> option Z) (tr : R.transit) (cr : Z) (nd : node) : Prop :=
+  Definition NodeOK (loc : Z -> option Z) (tr : Renege2.transit) (ex : option (Z * Z)) (gc : Z -> option Z * option Z) (cr : Z) (nd : node) : Prop :=
     nd_inf nd = inf_at (n_id nd) /\ NoDup (all_individuals nd) /\
     (forall id, In id (all_individuals nd) -> id <= cr /\ out tr id = false /\ loc id = Some (n_id nd)) /\
     (forall id, out tr id = false -> loc id = Some (n_id nd) -> In id (all_individuals nd)) /\
-    NodeT nd.
+    NodeT ex gc nd.
 
-  Definition Inv (loc : Z -> option Z) (tr : R.transit) (cr : Z) (s : sim) : Prop :=
+  Definition Inv (loc : Z -> option Z) (tr : Renege2.transit) (ex : option (Z * Z)) (gc : Z -> option Z * option Z) (cr : Z) (s : sim) : Prop :=
     now s = t /\ a_created (arr s) = cr /\ length (nodes s) = nn /\ Idx s /\ NoDup (map i_id (inds s)) /\
-    Forall (IndOK loc tr cr) (inds s) /\
-    (forall k nd, nth_error (nodes s) k = Some nd -> NodeOK loc tr cr nd) /\
+    Forall (IndOK loc tr ex gc cr) (inds s) /\
+    (forall k nd, nth_error (nodes s) k = Some nd -> NodeOK loc tr ex gc cr nd) /\
     (forall id j, loc id = Some j -> 1 <= j <= Z.of_nat nn) /\
     ArrOK (arr s) /\ DrawsOK (dr s).
 
   (* ---------- harmless updates ---------- *)
-  Lemma IndOK_irel loc tr cr x x' : IndOK loc tr cr x ->
-    i_id x' = i_id x -> i_node x' = i_node x -> i_ren x' = i_ren x -> (i_server x' = None -> i_server x = None) ->
-    NN (i_stime x') -> NN (i_ost x') -> NN (i_tleft x') -> IndOK loc tr cr x'.
+  Lemma IndOK_irel loc tr ex gc cr x x' : IndOK loc tr ex gc cr x ->
+    i_id x' = i_id x -> i_node x' = i_node x -> (i_ren x' = i_ren x \/ forall z, i_ren x' <> XV z) -> (i_server x' = None -> i_server x = None) ->
+    (cf_dyn cf = true -> i_server x = None -> i_server x' = None) ->
+    (i_ccd x' = i_ccd x \/ forall z, i_ccd x' <> XV z) ->
+    NN (i_stime x') -> NN (i_ost x') -> i_smark x' <> 1 -> IndOK loc tr ex gc cr x'.
   Proof.
-    intros (A & _ & C) E1 E2 E3 E4 N1 N2 N3. unfold IndOK. rewrite E1. split; [exact A|]. split; [auto|].
-    intros Ho. destruct (C Ho) as [(j & Hj & Hl) HP]. split; [exists j; rewrite E2; auto|].
-    intros j' z Hj' Hr Hi Hz Hs. rewrite E2 in Hj'. rewrite E3 in Hz. apply (HP j' z Hj' Hr Hi Hz). apply E4. exact Hs.
+    intros (A & _ & C & C4) E1 E2 E3 E4 E5 E6 N1 N2 N3. unfold IndOK. rewrite E1, E2. split; [exact A|]. split; [auto|]. split; [|exact C4].
+    intros Ho. destruct (C Ho) as [(j & Hj & Hl) [HP HC]]. split; [exists j; auto|]. split.
+    - intros j' z Hj' Hr Hi Hz Hs. rewrite E2 in Hj'. destruct E3 as [E3|E3]; [|exfalso; exact (E3 z Hz)]. rewrite E3 in Hz. apply (HP j' z Hj' Hr Hi Hz). apply E4. exact Hs.
+    - intros Hd j' Hj' Hi. destruct (HC Hd j' Hj' Hi) as [Ca Cb]. unfold CCI. rewrite E1. split.
+      + intros Hs z Hz. destruct E6 as [E6|E6]; [|exfalso; exact (E6 z Hz)]. rewrite E6 in Hz. apply (Ca (E4 Hs) z Hz).
+      + intros Hg. destruct (Cb Hg) as [Hs|He]; [left; apply E5; assumption|right; exact He].
+  Qed.
+  (* updates of the excused customer *)
+  Lemma IndOK_xrel loc tr ex gc cr x x' j0 : IndOK loc tr ex gc cr x -> ex = Some (i_id x, j0) ->
+    i_id x' = i_id x -> i_node x' = i_node x -> i_ren x' = i_ren x -> (i_server x' = None -> i_server x = None) ->
+    NN (i_stime x') -> NN (i_ost x') -> i_smark x' <> 1 -> IndOK loc tr ex gc cr x'.
+  Proof.
+    intros (A & _ & C & C4) Hex E1 E2 E3 E4 N1 N2 N3. unfold IndOK. rewrite E1, E2. split; [exact A|]. split; [auto|]. split; [|exact C4].
+    intros Ho. destruct (C Ho) as [(j & Hj & Hl) [HP HC]]. split; [exists j; auto|]. split.
+    - intros j' z Hj' Hr Hi Hz Hs. rewrite E2 in Hj'. rewrite E3 in Hz. apply (HP j' z Hj' Hr Hi Hz). apply E4. exact Hs.
+    - intros Hd j' Hj' Hi. destruct (C4 _ Hex) as [Hn _]. rewrite Hn in Hj'. injection Hj' as <-. unfold CCI. rewrite E1. split.
+      + intros _ z _. left. exact Hex.
+      + intros _. right. exact Hex.
   Qed.
   (* any update of the customer in transit *)
-  Lemma IndOK_orel loc tr cr x x' : IndOK loc tr cr x -> out tr (i_id x) = true -> i_id x' = i_id x ->
-    NN (i_stime x') -> NN (i_ost x') -> NN (i_tleft x') -> IndOK loc tr cr x'.
+  Lemma IndOK_orel loc tr ex gc cr x x' : IndOK loc tr ex gc cr x -> out tr (i_id x) = true -> i_id x' = i_id x -> i_node x' = i_node x ->
+    NN (i_stime x') -> NN (i_ost x') -> i_smark x' <> 1 -> IndOK loc tr ex gc cr x'.
   Proof.
-    intros (A & _ & C) Ho E1 N1 N2 N3. unfold IndOK. rewrite E1. split; [exact A|]. split; [auto|]. rewrite Ho. discriminate.
+    intros (A & _ & C & C4) Ho E1 E2 N1 N2 N3. unfold IndOK. rewrite E1, E2. split; [exact A|]. split; [auto|]. split; [rewrite Ho; discriminate|exact C4].
   Qed.
-  Lemma NodeOK_nrel loc tr cr nd nd' : NodeOK loc tr cr nd -> n_id nd' = n_id nd -> n_queues nd' = n_queues nd -> n_c nd' = n_c nd ->
-    n_spos nd' = n_spos nd -> n_next_shift nd' = n_next_shift nd ->
-    (Forall SvOK (n_servers nd) -> Forall SvOK (n_servers nd')) -> NodeOK loc tr cr nd'.
+  Lemma NodeOK_nrel loc tr ex gc cr nd nd' : NodeOK loc tr ex gc cr nd -> n_id nd' = n_id nd -> n_queues nd' = n_queues nd -> n_c nd' = n_c nd ->
+    n_spos nd' = n_spos nd -> n_next_shift nd' = n_next_shift nd -> n_nccd nd' = n_nccd nd -> n_ncci nd' = n_ncci nd -> (Renege2.nopre cf = true -> n_nint nd' <= n_nint nd) ->
+    (Forall SvOK (n_servers nd) -> Forall SvOK (n_servers nd')) -> NodeOK loc tr ex gc cr nd'.
   Proof.
-    unfold NodeOK, NodeT, all_individuals, nd_inf. intros (A & B & C & D0 & E) -> -> -> -> -> HS.
-    repeat (split; [assumption|]). destruct (ncf (n_id nd)) as [nc|]; [|exact I]. destruct E as [E1 E2]. split; [|exact E2].
-    intros Hi Hs. apply HS. apply E1; assumption.
+    unfold NodeOK, NodeT, all_individuals, nd_inf. intros (A & B & C & D0 & E0 & E1 & E) -> -> -> -> -> -> -> Hn HS.
+    repeat (split; [assumption|]). split; [intros Hp; specialize (E0 Hp); specialize (Hn Hp); lia|]. split; [exact E1|]. destruct (ncf (n_id nd)) as [nc|]; [|exact I]. destruct E as [E2 E3]. split; [|exact E3].
+    intros Hi Hs. apply HS. apply E2; assumption.
   Qed.
-  Lemma NodeOK_perm loc tr cr nd nd' : NodeOK loc tr cr nd -> n_id nd' = n_id nd -> Permutation (all_individuals nd) (all_individuals nd') ->
-    n_c nd' = n_c nd -> n_spos nd' = n_spos nd -> n_next_shift nd' = n_next_shift nd -> n_servers nd' = n_servers nd -> NodeOK loc tr cr nd'.
+  Lemma NodeOK_perm loc tr ex gc cr nd nd' : NodeOK loc tr ex gc cr nd -> n_id nd' = n_id nd -> Permutation (all_individuals nd) (all_individuals nd') ->
+    n_c nd' = n_c nd -> n_spos nd' = n_spos nd -> n_next_shift nd' = n_next_shift nd -> n_servers nd' = n_servers nd ->
+    n_nccd nd' = n_nccd nd -> n_ncci nd' = n_ncci nd -> n_nint nd' = n_nint nd -> NodeOK loc tr ex gc cr nd'.
   Proof.
-    unfold NodeOK, NodeT, nd_inf. intros (A & B & C & D0 & E) E1 P -> -> -> ->. rewrite E1. split; [exact A|]. split; [eapply Permutation_NoDup; eauto|]. split; [|split].
+    unfold NodeOK, NodeT, nd_inf. intros (A & B & C & D0 & E0 & E1 & E) Ei P -> -> -> -> -> -> ->. rewrite Ei. split; [exact A|]. split; [eapply Permutation_NoDup; eauto|]. split; [|split; [|split; [exact E0|split; [|exact E]]]].
     - intros id Hin. apply C. eapply Permutation_in; [symmetry; exact P|exact Hin].
     - intros id Ho Hl. eapply Permutation_in; [exact P|]. apply D0; assumption.
-    - exact E.
+    - intros Hd. destruct (E1 Hd) as [G1 G2]. split; [exact G1|]. intros Hi. destruct (G2 Hi) as [G3 G4]. split; [exact G3|].
+      intros i Hc. destruct (G4 i Hc) as [G5|G5]; [left; eapply Permutation_in; [exact P|exact G5]|right; exact G5].
   Qed.
 
   (* ---------- tactics for the walk ---------- *)
@@ -246,18 +334,24 @@ Section Clock2.
           | (apply Forall_del_server; exact HF) ].
   Ltac nodeok :=
     match goal with
-    | H : NodeOK ?l ?r ?c ?nd |- NodeOK ?l ?r ?c _ =>
-      solve [ apply (NodeOK_nrel l r c nd _ H); [reflexivity|reflexivity|reflexivity|reflexivity|reflexivity|srv_tac] ]
+    | H : NodeOK ?l ?r ?e ?g ?c ?nd |- NodeOK ?l ?r ?e ?g ?c _ =>
+      solve [ apply (NodeOK_nrel l r e g c nd _ H);
+              [reflexivity|reflexivity|reflexivity|reflexivity|reflexivity|reflexivity|reflexivity|first [(intros _; cbn; lia)|(intros ?Hn; congruence)]|srv_tac] ]
     end.
-  Ltac nn_tac := first [ assumption | apply NN_None | (apply NN_Some; first [lia | assumption]) ].
-  Ltac irel_tac := cbn; first [ reflexivity | nn_tac | (intro; assumption) | (intro; discriminate) ].
+  Ltac nn_tac := first [ assumption | apply NN_None | (apply NN_Some; first [lia | assumption]) | lia | discriminate ].
+  Ltac irel_tac :=
+    cbn; first [ reflexivity | nn_tac | (intro; assumption) | (intro; discriminate) | (intros _ ?H; exact H) | (intros ?Hd; congruence)
+               | (left; reflexivity) | (right; intros ? ?; discriminate) ].
   Ltac indok :=
     match goal with
-    | H : IndOK ?l ?r ?c ?x |- IndOK ?l ?r ?c _ =>
-      solve [ let H' := fresh in pose proof H as H'; destruct H' as (_ & (? & ? & ?) & _); apply (IndOK_irel l r c x _ H); irel_tac ]
-    | H : IndOK ?l ?r ?c ?x, Ho : out ?r ?i = true, Hi : i_id ?x = ?i |- IndOK ?l ?r ?c _ =>
+    | H : IndOK ?l ?r ?e ?g ?c ?x |- IndOK ?l ?r ?e ?g ?c _ =>
+      solve [ let H' := fresh in pose proof H as H'; destruct H' as (_ & (? & ? & ?) & _); apply (IndOK_irel l r e g c x _ H); irel_tac ]
+    | H : IndOK ?l ?r ?e ?g ?c ?x, Hi : i_id ?x = ?i |- IndOK ?l ?r ?e ?g ?c _ =>
       solve [ let H' := fresh in pose proof H as H'; destruct H' as (_ & (? & ? & ?) & _);
-              apply (IndOK_orel l r c x _ H); [rewrite Hi; exact Ho|reflexivity|irel_tac|irel_tac|irel_tac] ]
+              eapply (IndOK_xrel l r e g c x _ _ H); [rewrite Hi; first [reflexivity|eassumption]|irel_tac..] ]
+    | H : IndOK ?l ?r ?e ?g ?c ?x, Ho : out ?r ?i = true, Hi : i_id ?x = ?i |- IndOK ?l ?r ?e ?g ?c _ =>
+      solve [ let H' := fresh in pose proof H as H'; destruct H' as (_ & (? & ? & ?) & _);
+              apply (IndOK_orel l r e g c x _ H); [rewrite Hi; exact Ho|reflexivity|reflexivity|irel_tac|irel_tac|irel_tac] ]
     end.
   Ltac sp_intro :=
     let a := fresh "v" in let H := fresh "F" in
@@ -266,8 +360,8 @@ Section Clock2.
     try match type of H with a = _ => subst a end.
 
   Section Small.
-    Variables (loc : Z -> option Z) (tr : R.transit) (cr : Z).
-    Notation I := (Inv loc tr cr).
+    Variables (loc : Z -> option Z) (tr : Renege2.transit) (ex : option (Z * Z)) (gc : Z -> option Z * option Z) (cr : Z).
+    Notation I := (Inv loc tr ex gc cr).
     Notation spI := (sp I I).
 
     Lemma Inv_same s s' : I s -> now s' = now s -> a_created (arr s') = a_created (arr s) -> nodes s' = nodes s -> inds s' = inds s ->
@@ -282,39 +376,39 @@ Section Clock2.
                  a_next_cls (arr (f s)) = a_next_cls (arr s) /\ a_next_date (arr (f s)) = a_next_date (arr s) /\ dr (f s) = dr s) ->
       spI (modify f) top.
     Proof.
-      intros Hf s a s' HI H. apply R.modify_inv in H. subst s'. destruct (Hf s) as (E1 & E2 & E3 & E4 & E5 & E6 & E7 & E8 & E9). split; [|exact Logic.I].
+      intros Hf s a s' HI H. apply Renege2.modify_inv in H. subst s'. destruct (Hf s) as (E1 & E2 & E3 & E4 & E5 & E6 & E7 & E8 & E9). split; [|exact Logic.I].
       eapply Inv_same; eauto; [eapply ArrOK_same; [apply HI|..]; assumption|rewrite E9; apply HI].
     Qed.
     Lemma spI_tnow : spI tnow (fun a => a = t).
-    Proof. intros s a s' HI H. apply R.tnow_inv in H as [-> ->]. split; [exact HI|apply HI]. Qed.
-    Lemma spI_get_node j : spI (get_node j) (fun nd => NodeOK loc tr cr nd /\ n_id nd = j).
+    Proof. intros s a s' HI H. apply Renege2.tnow_inv in H as [-> ->]. split; [exact HI|apply HI]. Qed.
+    Lemma spI_get_node j : spI (get_node j) (fun nd => NodeOK loc tr ex gc cr nd /\ n_id nd = j).
     Proof.
-      intros s nd s' HI H. apply R.get_node_inv in H as (-> & Hj & Hn). split; [exact HI|]. destruct HI as (_ & _ & _ & HX & _ & _ & HN & _).
-      split; [|eapply R.Idx_get; eauto]. apply R.nthZ_nat in Hn as [_ Hn]. eapply HN; eauto.
+      intros s nd s' HI H. apply Renege2.get_node_inv in H as (-> & Hj & Hn). split; [exact HI|]. destruct HI as (_ & _ & _ & HX & _ & _ & HN & _).
+      split; [|eapply Renege2.Idx_get; eauto]. apply Renege2.nthZ_nat in Hn as [_ Hn]. eapply HN; eauto.
     Qed.
-    Lemma spI_get_ind i : spI (get_ind i) (fun x => IndOK loc tr cr x /\ i_id x = i).
+    Lemma spI_get_ind i : spI (get_ind i) (fun x => IndOK loc tr ex gc cr x /\ i_id x = i).
     Proof.
-      intros s x s' HI H. apply R.get_ind_inv in H as (-> & Hx). split; [exact HI|]. destruct HI as (_ & _ & _ & _ & _ & HF & _).
-      split; [|eapply R.find_ind_id; eauto]. rewrite Forall_forall in HF. apply HF. eapply R.find_ind_In; eauto.
+      intros s x s' HI H. apply Renege2.get_ind_inv in H as (-> & Hx). split; [exact HI|]. destruct HI as (_ & _ & _ & _ & _ & HF & _).
+      split; [|eapply Renege2.find_ind_id; eauto]. rewrite Forall_forall in HF. apply HF. eapply Renege2.find_ind_In; eauto.
     Qed.
-    Lemma Inv_put_node s nd : I s -> NodeOK loc tr cr nd -> I (s <| nodes := updZ (nodes s) (n_id nd - 1) nd |>).
+    Lemma Inv_put_node s nd : I s -> NodeOK loc tr ex gc cr nd -> I (s <| nodes := updZ (nodes s) (n_id nd - 1) nd |>).
     Proof.
       intros (A & B & C & D0 & E & F & G & H & K & L) Hnd. unfold Inv. cbn [now arr nodes inds dr set].
-      split; [exact A|]. split; [exact B|]. split; [rewrite R.length_updZ; exact C|]. split; [unfold Idx; cbn [nodes set]; apply R.Idx_updZ; exact D0|].
+      split; [exact A|]. split; [exact B|]. split; [rewrite Renege2.length_updZ; exact C|]. split; [unfold Idx; cbn [nodes set]; apply Renege2.Idx_updZ; exact D0|].
       split; [exact E|]. split; [exact F|]. split; [|auto].
       intros k x Hk. unfold updZ in Hk. destruct (n_id nd - 1 <? 0); [eapply G; eauto|].
-      destruct (R.nth_error_upd_cases _ _ _ _ _ Hk) as [[_ ->]|[_ Hk']]; [exact Hnd|eapply G; eauto].
+      destruct (Renege2.nth_error_upd_cases _ _ _ _ _ Hk) as [[_ ->]|[_ Hk']]; [exact Hnd|eapply G; eauto].
     Qed.
-    Lemma spI_put_node nd : NodeOK loc tr cr nd -> spI (put_node nd) top.
-    Proof. intros Hnd s a s' HI H. unfold put_node in H. apply R.modify_inv in H. subst s'. split; [apply Inv_put_node; assumption|exact Logic.I]. Qed.
-    Lemma Inv_put_ind s x : I s -> IndOK loc tr cr x -> I (s <| inds := put_ind_l x (inds s) |>).
+    Lemma spI_put_node nd : NodeOK loc tr ex gc cr nd -> spI (put_node nd) top.
+    Proof. intros Hnd s a s' HI H. unfold put_node in H. apply Renege2.modify_inv in H. subst s'. split; [apply Inv_put_node; assumption|exact Logic.I]. Qed.
+    Lemma Inv_put_ind s x : I s -> IndOK loc tr ex gc cr x -> I (s <| inds := put_ind_l x (inds s) |>).
     Proof.
       intros (A & B & C & D0 & E & F & G & H & K & L) Hx. unfold Inv. cbn [now arr nodes inds dr set].
-      repeat (split; [assumption|]). split; [apply R.NoDup_put_ind; exact E|]. split; [|auto].
-      apply R.Forall_put_ind; [exact E| |exact Hx]. intros y Hy _. rewrite Forall_forall in F. apply F. exact Hy.
+      repeat (split; [assumption|]). split; [apply Renege2.NoDup_put_ind; exact E|]. split; [|auto].
+      apply Renege2.Forall_put_ind; [exact E| |exact Hx]. intros y Hy _. rewrite Forall_forall in F. apply F. exact Hy.
     Qed.
-    Lemma spI_put_ind x : IndOK loc tr cr x -> spI (put_ind x) top.
-    Proof. intros Hx s a s' HI H. unfold put_ind in H. apply R.modify_inv in H. subst s'. split; [apply Inv_put_ind; assumption|exact Logic.I]. Qed.
+    Lemma spI_put_ind x : IndOK loc tr ex gc cr x -> spI (put_ind x) top.
+    Proof. intros Hx s a s' HI H. unfold put_ind in H. apply Renege2.modify_inv in H. subst s'. split; [apply Inv_put_ind; assumption|exact Logic.I]. Qed.
     Lemma spI_log_rec r : spI (log_rec r) top.
     Proof. apply spI_same. intros s. repeat split; reflexivity. Qed.
 
@@ -355,12 +449,12 @@ Section Clock2.
       apply Inv_dr_tail; [exact HI|]. apply HI.
     Qed.
     Lemma spI_ncfg_of j : spI (ncfg_of cf j) (fun nc => ncf j = Some nc).
-    Proof. apply R.sp_lift. Qed.
+    Proof. apply Renege2.sp_lift. Qed.
 
-    Lemma spI_upd_ind i f : (forall x, i_id x = i -> IndOK loc tr cr x -> IndOK loc tr cr (f x)) -> spI (upd_ind i f) top.
-    Proof. intros Hf. unfold upd_ind. eapply R.sp_bind; [apply spI_get_ind|]. intros x [Hx Hi]. apply spI_put_ind. apply Hf; assumption. Qed.
-    Lemma spI_upd_node j f : (forall nd, n_id nd = j -> NodeOK loc tr cr nd -> NodeOK loc tr cr (f nd)) -> spI (upd_node j f) top.
-    Proof. intros Hf. unfold upd_node. eapply R.sp_bind; [apply spI_get_node|]. intros nd [Hn Hj]. apply spI_put_node. apply Hf; assumption. Qed.
+    Lemma spI_upd_ind i f : (forall x, i_id x = i -> IndOK loc tr ex gc cr x -> IndOK loc tr ex gc cr (f x)) -> spI (upd_ind i f) top.
+    Proof. intros Hf. unfold upd_ind. eapply Renege2.sp_bind; [apply spI_get_ind|]. intros x [Hx Hi]. apply spI_put_ind. apply Hf; assumption. Qed.
+    Lemma spI_upd_node j f : (forall nd, n_id nd = j -> NodeOK loc tr ex gc cr nd -> NodeOK loc tr ex gc cr (f nd)) -> spI (upd_node j f) top.
+    Proof. intros Hf. unfold upd_node. eapply Renege2.sp_bind; [apply spI_get_node|]. intros nd [Hn Hj]. apply spI_put_node. apply Hf; assumption. Qed.
 
     (* ---------- the walk: one lemma per engine function ---------- *)
     Ltac nn_tac2 :=
@@ -372,8 +466,8 @@ Section Clock2.
       | get_node _ => apply spI_get_node
       | get_ind _ => apply spI_get_ind
       | ncfg_of _ _ => apply spI_ncfg_of
-      | lift _ _ => apply R.sp_lift
-      | gets _ => apply R.sp_gets
+      | lift _ _ => apply Renege2.sp_lift
+      | gets _ => apply Renege2.sp_gets
       | draw_arr => apply spI_draw_arr
       | draw_batch => apply spI_draw_batch
       | draw_svc => apply spI_draw_svc
@@ -386,25 +480,25 @@ Section Clock2.
       | upd_ind _ _ => apply spI_upd_ind; intros; indok
       | upd_node _ _ => apply spI_upd_node; intros; nodeok
       | modify _ => apply spI_same; intros ?; repeat split; reflexivity
-      | forM_ _ _ => apply R.sp_forM; intros ?
-      | mapM _ _ => apply R.sp_mapM; intros ?
+      | forM_ _ _ => apply Renege2.sp_forM; intros ?
+      | mapM _ _ => apply Renege2.sp_mapM; intros ?
       | _ => solve [eauto 4 with spdb nocore]
       end.
     Ltac sp_step :=
       lazymatch goal with
-      | |- R.sp _ _ (ret _) _ => apply R.sp_ret; exact Logic.I
-      | |- R.sp _ _ (fail _) _ => apply R.sp_fail
-      | |- R.sp _ _ oof _ => apply R.sp_oof
-      | |- R.sp _ _ (bind (match _ with _ => _ end) _) _ => eapply R.sp_bind with (phi := top); [|intros ? _]
-      | |- R.sp _ _ (bind (if _ then _ else _) _) _ => eapply R.sp_bind with (phi := top); [|intros ? _]
-      | |- R.sp _ _ (bind ?m _) _ => eapply R.sp_bind; [sp_prim m|sp_intro]
-      | |- R.sp _ _ (if ?b then _ else _) _ => destruct b eqn:?
-      | |- R.sp _ _ (match ?x with _ => _ end) _ => first [progress cbv iota beta | destruct x eqn:?]
-      | |- R.sp _ _ ?m _ => first [sp_prim m | (eapply R.sp_top; sp_prim m)]
+      | |- Renege2.sp _ _ (ret _) _ => apply Renege2.sp_ret; exact Logic.I
+      | |- Renege2.sp _ _ (fail _) _ => apply Renege2.sp_fail
+      | |- Renege2.sp _ _ oof _ => apply Renege2.sp_oof
+      | |- Renege2.sp _ _ (bind (match _ with _ => _ end) _) _ => eapply Renege2.sp_bind with (phi := top); [|intros ? _]
+      | |- Renege2.sp _ _ (bind (if _ then _ else _) _) _ => eapply Renege2.sp_bind with (phi := top); [|intros ? _]
+      | |- Renege2.sp _ _ (bind ?m _) _ => eapply Renege2.sp_bind; [sp_prim m|sp_intro]
+      | |- Renege2.sp _ _ (if ?b then _ else _) _ => destruct b eqn:?
+      | |- Renege2.sp _ _ (match ?x with _ => _ end) _ => first [progress cbv iota beta | destruct x eqn:?]
+      | |- Renege2.sp _ _ ?m _ => first [sp_prim m | (eapply Renege2.sp_top; sp_prim m)]
       end.
     Ltac spw := repeat sp_step.
-    #[local] Hint Extern 1 (R.dle _ _) => cbn; first [exact Logic.I | lia] : spdb.
-    #[local] Hint Extern 1 (IndOK _ _ _ _) => eassumption : spdb.
+    #[local] Hint Extern 1 (Renege2.dle _ _) => cbn; first [exact Logic.I | lia] : spdb.
+    #[local] Hint Extern 1 (IndOK _ _ _ _ _ _) => eassumption : spdb.
 
     Lemma spI_choice_uniform {A} (l : list A) : spI (choice_uniform l) top.
     Proof. unfold choice_uniform. spw. Qed.
@@ -415,56 +509,54 @@ Section Clock2.
     Proof. unfold choose_next_customer. spw. Qed.
     Lemma spI_upd_server j sid f : (forall sv, SvOK sv -> SvOK (f sv)) -> spI (upd_server j sid f) top.
     Proof.
-      intros Hf. unfold upd_server. eapply R.sp_bind; [apply spI_get_node|]. intros nd [Hnd Hj].
-      destruct (find_server sid (n_servers nd)) as [sv|] eqn:Ef; [|apply R.sp_ret; exact Logic.I].
-      apply spI_put_node. apply (NodeOK_nrel _ _ _ nd _ Hnd); try reflexivity. intros HF. cbn.
+      intros Hf. unfold upd_server. eapply Renege2.sp_bind; [apply spI_get_node|]. intros nd [Hnd Hj].
+      destruct (find_server sid (n_servers nd)) as [sv|] eqn:Ef; [|apply Renege2.sp_ret; exact Logic.I].
+      apply spI_put_node. apply (NodeOK_nrel _ _ _ _ _ nd _ Hnd); try reflexivity; try (cbn; lia). intros HF. cbn.
       apply Forall_put_server; [exact HF|]. apply Hf. rewrite Forall_forall in HF. apply HF. eapply find_server_In; eauto.
     Qed.
-    Lemma spI_find_next_class_change j : spI (find_next_class_change j) top.
-    Proof. unfold find_next_class_change. spw. Qed.
-    Lemma spI_cct_loop : forall row b best bc, spI (cct_loop row b best bc) top.
+    Lemma spI_cct_loop : forall row b best bc, NN best -> spI (cct_loop row b best bc) (fun r => NN (fst r)).
     Proof.
-      induction row as [|h r IH]; intros b best bc; cbn [cct_loop]; [apply R.sp_ret; exact Logic.I|]. destruct h; [|apply IH].
-      eapply R.sp_bind; [apply spI_draw_cct|]. intros d _. destruct (date_lt (Some d) best); apply IH.
+      induction row as [|h r IH]; intros b best bc Hb; cbn [cct_loop]; [apply Renege2.sp_ret; exact Hb|]. destruct h; [|apply IH; exact Hb].
+      eapply Renege2.sp_bind; [apply spI_draw_cct|]. intros d Hd. cbv beta in Hd. destruct (date_lt (Some d) best); apply IH; [apply NN_Some; exact Hd|exact Hb].
     Qed.
-    #[local] Hint Resolve spI_choose_next_customer spI_find_next_class_change spI_cct_loop : spdb.
-    Lemma spI_decide_class_change j i : spI (decide_class_change cf j i) top.
-    Proof. unfold decide_class_change. spw. Qed.
-    Lemma spI_reset_class_change j i : spI (reset_class_change cf j i) top.
-    Proof. unfold reset_class_change. spw. Qed.
-    Lemma spI_stime_num x : IndOK loc tr cr x -> spI (stime_num x) (fun st => 0 <= st).
+    #[local] Hint Resolve spI_choose_next_customer : spdb.
+    (* without class change while waiting the two bookkeeping functions do nothing *)
+    Lemma spI_decide_class_change_nodyn j i : cf_dyn cf = false -> spI (decide_class_change cf j i) top.
+    Proof. intros Hd. unfold decide_class_change. rewrite Hd. apply Renege2.sp_ret. exact Logic.I. Qed.
+    Lemma spI_reset_class_change_nodyn j i : cf_dyn cf = false -> spI (reset_class_change cf j i) top.
+    Proof. intros Hd. unfold reset_class_change. rewrite Hd. apply Renege2.sp_ret. exact Logic.I. Qed.
+    Lemma spI_stime_num x : IndOK loc tr ex gc cr x -> spI (stime_num x) (fun st => 0 <= st).
     Proof.
-      intros (_ & (H1 & _) & _). unfold stime_num. destruct (i_smark x =? 0); [|apply R.sp_fail].
-      apply R.sp_ret. apply NN_numo. exact H1.
+      intros (_ & (H1 & _) & _). unfold stime_num. destruct (i_smark x =? 0); [|apply Renege2.sp_fail].
+      apply Renege2.sp_ret. apply NN_numo. exact H1.
     Qed.
     Lemma spI_gstap i : spI (give_service_time_after_preemption i) top.
     Proof.
-      unfold give_service_time_after_preemption. eapply R.sp_bind; [apply spI_get_ind|]. intros x [Hx Hi].
+      unfold give_service_time_after_preemption. eapply Renege2.sp_bind; [apply spI_get_ind|]. intros x [Hx Hi].
       pose proof Hx as (_ & (N1 & N2 & N3) & _).
       destruct (i_smark x =? 3).
-      { eapply R.sp_bind; [apply spI_draw_svc|]. intros st Hst. cbv beta in Hst. apply spI_put_ind. apply (IndOK_irel _ _ _ x _ Hx); irel_tac. }
+      { eapply Renege2.sp_bind; [apply spI_draw_svc|]. intros st Hst. cbv beta in Hst. apply spI_put_ind. indok. }
       destruct (i_smark x =? 2).
-      { destruct (i_ost x) as [o|] eqn:Eo; [|apply R.sp_fail]. apply spI_put_ind.
-        apply (IndOK_irel _ _ _ x _ Hx); cbn; try reflexivity; try (intro; assumption); try assumption; try (apply NN_Some; apply N2; reflexivity).
-        rewrite Eo. exact N2. }
-      destruct (i_smark x =? 1).
-      { destruct (i_tleft x) as [o|] eqn:Eo; [|apply R.sp_fail]. apply spI_put_ind.
-        apply (IndOK_irel _ _ _ x _ Hx); cbn; try reflexivity; try (intro; assumption); try assumption; try (apply NN_Some; apply N3; reflexivity).
-        rewrite Eo. exact N3. }
-      apply R.sp_ret. exact Logic.I.
+      { destruct (i_ost x) as [o|] eqn:Eo; [|apply Renege2.sp_fail]. assert (0 <= o) by (apply N2; reflexivity). apply spI_put_ind. indok. }
+      destruct (i_smark x =? 1) eqn:E1.
+      { apply Z.eqb_eq in E1. contradiction. }
+      apply Renege2.sp_ret. exact Logic.I.
     Qed.
-    #[local] Hint Resolve spI_decide_class_change spI_reset_class_change spI_gstap spI_stime_num : spdb.
+    #[local] Hint Resolve spI_gstap spI_stime_num : spdb.
     Lemma spI_giast i : spI (give_individual_a_service_time i) top.
     Proof. unfold give_individual_a_service_time. spw. Qed.
-    Lemma spI_attach_server j sid i : spI (attach_server j sid i) top.
+    (* a waiting customer may be given a server if there is no class change while waiting, or if it is the excused customer *)
+    Definition exc (i : Z) : Prop := cf_dyn cf = false \/ exists j0, ex = Some (i, j0).
+    Lemma spI_attach_server j sid i : exc i -> spI (attach_server j sid i) top.
     Proof.
-      unfold attach_server. eapply R.sp_bind with (phi := top); [apply spI_upd_server; intros sv H; exact H|]. intros _ _. spw.
+      intros He. unfold attach_server. eapply Renege2.sp_bind with (phi := top); [apply spI_upd_server; intros sv H; exact H|]. intros _ _.
+      apply spI_upd_ind. intros x Hi Hx. destruct He as [Hd|[j0 He]]; indok.
     Qed.
     Lemma spI_set_next_end j sid d : dle (Some t) d -> spI (set_next_end j sid d) top.
     Proof. intros Hd. unfold set_next_end. apply spI_upd_server. intros sv _. exact Hd. Qed.
     Lemma spI_kill_server j sid : spI (kill_server j sid) top.
     Proof. unfold kill_server. spw. Qed.
-    #[local] Hint Resolve spI_giast spI_attach_server spI_set_next_end spI_kill_server : spdb.
+    #[local] Hint Resolve spI_giast spI_set_next_end spI_kill_server : spdb.
     Lemma spI_detatch_server j sid i : out tr i = true -> spI (detatch_server j sid i) top.
     Proof. intros Ho. unfold detatch_server. spw. Qed.
     Lemma spI_bump_rec i : spI (bump_rec i) top.
@@ -484,8 +576,8 @@ Section Clock2.
     Proof. unfold valid_dest. spw. Qed.
     Lemma spI_jsq_loop lb : forall ds best acc, spI (jsq_loop lb ds best acc) top.
     Proof.
-      induction ds as [|d r IH]; intros best acc; cbn [jsq_loop]; [apply R.sp_ret; exact Logic.I|].
-      eapply R.sp_bind; [apply spI_get_node|]. intros nd _. cbv zeta. destruct (date_eqb _ _); [apply IH|]. destruct (date_lt _ _); apply IH.
+      induction ds as [|d r IH]; intros best acc; cbn [jsq_loop]; [apply Renege2.sp_ret; exact Logic.I|].
+      eapply Renege2.sp_bind; [apply spI_get_node|]. intros nd _. cbv zeta. destruct (date_eqb _ _); [apply IH|]. destruct (date_lt _ _); apply IH.
     Qed.
     #[local] Hint Resolve spI_write_br_record spI_write_individual_record spI_write_reneging_record spI_write_interruption_record
       spI_reset_individual_attributes spI_valid_dest spI_jsq_loop : spdb.
@@ -501,31 +593,43 @@ Section Clock2.
     #[local] Hint Resolve spI_node_router_next : spdb.
     Lemma spI_next_node_for mode j i : spI (next_node_for cf mode j i) top.
     Proof. unfold next_node_for. spw. Qed.
-    Lemma spI_start_fresh j i osid c : spI (start_fresh cf j i osid c) top.
-    Proof. unfold start_fresh. spw. Qed.
-    Lemma spI_start_give j i sid : spI (start_give cf j i sid) top.
-    Proof. unfold start_give. spw. Qed.
-    Lemma spI_biis j sid : spI (begin_interrupted_individuals_service j sid) top.
-    Proof. unfold begin_interrupted_individuals_service. spw. Qed.
-    #[local] Hint Resolve spI_next_node_for spI_start_fresh spI_start_give spI_biis : spdb.
-    Lemma spI_serve_with j sid : spI (serve_with cf j sid) top.
-    Proof. unfold serve_with. spw. Qed.
-    #[local] Hint Resolve spI_serve_with : spdb.
-    Lemma spI_bsipr j freed : spI (begin_service_if_possible_release cf j freed) top.
-    Proof. unfold begin_service_if_possible_release. spw. Qed.
     Lemma spI_block_individual j i d : spI (block_individual j i d) top.
     Proof. unfold block_individual. spw. Qed.
-    #[local] Hint Resolve spI_bsipr spI_block_individual : spdb.
+    #[local] Hint Resolve spI_next_node_for spI_block_individual : spdb.
 
-    Lemma nopre_at j nc : ncf j = Some nc -> R.nopre_nc nc = true.
-    Proof. intros H. apply R.nthZ_In in H. unfold R.nopre in Hpre. rewrite forallb_forall in Hpre. apply Hpre. exact H. Qed.
+    Lemma nopre_at j nc : Renege2.nopre cf = true -> ncf j = Some nc -> Renege2.nopre_nc nc = true.
+    Proof. intros Hp H. apply Renege2.nthZ_In in H. unfold Renege2.nopre in Hp. rewrite forallb_forall in Hp. apply Hp. exact H. Qed.
     Lemma wf_at j nc : ncf j = Some nc -> wf_nc nc = true.
-    Proof. intros H. apply R.nthZ_In in H. unfold wf_times in Hwf. rewrite forallb_forall in Hwf. apply Hwf. exact H. Qed.
-    (* no priority pre-emption in scope: decide_preempt finds no victim *)
-    Lemma spI_preempt_victim j i : spI (preempt_victim cf j i) (fun v => v = None).
+    Proof. intros H. apply Renege2.nthZ_In in H. unfold wf_times in Hwf. rewrite forallb_forall in Hwf. apply Hwf. exact H. Qed.
+    (* the regions *)
+    Lemma reg_cases : Renege2.nopre cf = true \/
+      (Renege2.nopre cf = false /\ cf_dyn cf = false /\ noresume cf = true /\ (prio_reroute cf = true \/ noren cf = true)).
     Proof.
-      unfold preempt_victim. eapply R.sp_bind; [apply spI_ncfg_of|]. intros nc Hc. apply nopre_at in Hc. unfold R.nopre_nc in Hc.
-      apply andb_true_iff in Hc as [Hc _]. rewrite Hc. apply R.sp_ret. reflexivity.
+      unfold region in Hreg. destruct (Renege2.nopre cf); [left; reflexivity|right]. cbn in Hreg.
+      apply andb_true_iff in Hreg as [H H3]. apply andb_true_iff in H as [H1 H2]. apply negb_true_iff in H1. apply orb_true_iff in H3. auto.
+    Qed.
+    Lemma noresume_at j nc : ncf j = Some nc -> noresume_nc nc = true.
+    Proof.
+      intros H. destruct reg_cases as [Hp|(_ & _ & Hn & _)].
+      - pose proof (nopre_at _ _ Hp H) as Hq. unfold Renege2.nopre_nc in Hq. unfold noresume_nc. apply andb_true_iff in Hq as [Q1 Q2]. apply Z.eqb_eq in Q1. rewrite Q1. cbn.
+        destruct (nc_srv nc) as [|sc|sl]; [reflexivity|apply Z.eqb_eq in Q2; rewrite Q2; reflexivity|].
+        apply negb_true_iff in Q2. destruct (sl_cap sl); [|reflexivity]. cbn in *. apply negb_false_iff in Q2. apply Z.eqb_eq in Q2. rewrite Q2. reflexivity.
+      - apply Renege2.nthZ_In in H. unfold noresume in Hn. rewrite forallb_forall in Hn. apply Hn. exact H.
+    Qed.
+    Lemma nodyn_of_pre : Renege2.nopre cf = false -> cf_dyn cf = false.
+    Proof. intros Hp. destruct reg_cases as [Q|(_ & Q & _)]; [congruence|exact Q]. Qed.
+    (* no priority pre-emption in the first region: decide_preempt finds no victim *)
+    Lemma spI_preempt_victim_nopre j i : Renege2.nopre cf = true -> spI (preempt_victim cf j i) (fun v => v = None).
+    Proof.
+      intros Hp. unfold preempt_victim. eapply Renege2.sp_bind; [apply spI_ncfg_of|]. intros nc Hc. apply (nopre_at _ _ Hp) in Hc. unfold Renege2.nopre_nc in Hc.
+      apply andb_true_iff in Hc as [Hc _]. rewrite Hc. apply Renege2.sp_ret. reflexivity.
+    Qed.
+    (* in general: a victim is found only at a node with priority pre-emption *)
+    Lemma spI_preempt_victim j i : spI (preempt_victim cf j i) (fun v => v <> None -> exists nc, ncf j = Some nc /\ nc_preempt nc <> 0).
+    Proof.
+      unfold preempt_victim. eapply Renege2.sp_bind; [apply spI_ncfg_of|]. intros nc Hc. destruct (nc_preempt nc =? 0) eqn:E0.
+      - apply Renege2.sp_ret. intros Q. exfalso. apply Q. reflexivity.
+      - apply Z.eqb_neq in E0. eapply Renege2.sp_weaken with (phi := top); [|intros v _ _; exists nc; auto]. spw.
     Qed.
     Lemma spI_decide_between l : spI (decide_between l) top.
     Proof. unfold decide_between. spw. Qed.
@@ -534,93 +638,30 @@ Section Clock2.
     Lemma spI_has_space d : spI (has_space cf d) top.
     Proof. unfold has_space. spw. Qed.
     #[local] Hint Resolve spI_decide_between spI_change_customer_class spI_has_space : spdb.
-    Lemma spI_tsod fl j pre : pre = 0 -> spI (take_servers_off_duty cf fl j pre) top.
+    Lemma spI_tsod0 fl j pre : pre = 0 -> spI (take_servers_off_duty cf fl j pre) top.
     Proof.
       intros ->. unfold take_servers_off_duty. change (0 =? 0) with true. cbv iota.
-      eapply R.sp_bind; [apply spI_get_node|]. intros nd [Hnd Hj].
-      eapply R.sp_bind with (phi := top); [destruct (n_next_date nd); [apply R.sp_ret; exact Logic.I|apply R.sp_fail]|]. intros se _.
-      eapply R.sp_bind with (phi := top).
-      { apply spI_put_node. apply (NodeOK_nrel _ _ _ nd _ Hnd); try reflexivity. intros HF. cbn.
+      eapply Renege2.sp_bind; [apply spI_get_node|]. intros nd [Hnd Hj].
+      eapply Renege2.sp_bind with (phi := top); [destruct (n_next_date nd); [apply Renege2.sp_ret; exact Logic.I|apply Renege2.sp_fail]|]. intros se _.
+      eapply Renege2.sp_bind with (phi := top).
+      { apply spI_put_node. apply (NodeOK_nrel _ _ _ _ _ nd _ Hnd); try reflexivity; try (cbn; lia). intros HF. cbn.
         apply Forall_map_server; [|exact HF]. intros sv Hsv. exact Hsv. }
-      intros _ _. apply R.sp_forM. intros sid. apply spI_kill_server.
+      intros _ _. apply Renege2.sp_forM. intros sid. apply spI_kill_server.
     Qed.
     Lemma spI_add_new_servers : forall k j, spI (add_new_servers k j) top.
     Proof.
-      induction k as [|k IH]; intros j; cbn [add_new_servers]; [apply R.sp_ret; exact Logic.I|].
-      eapply R.sp_bind; [apply spI_tnow|]. intros t0 _.
-      eapply R.sp_bind with (phi := top); [|intros _ _; apply IH].
-      apply spI_upd_node. intros nd Hj Hnd. apply (NodeOK_nrel _ _ _ nd _ Hnd); try reflexivity. intros HF. cbn.
+      induction k as [|k IH]; intros j; cbn [add_new_servers]; [apply Renege2.sp_ret; exact Logic.I|].
+      eapply Renege2.sp_bind; [apply spI_tnow|]. intros t0 _.
+      eapply Renege2.sp_bind with (phi := top); [|intros _ _; apply IH].
+      apply spI_upd_node. intros nd Hj Hnd. apply (NodeOK_nrel _ _ _ _ _ nd _ Hnd); try reflexivity; try (cbn; lia). intros HF. cbn.
       apply Forall_app. split; [exact HF|]. constructor; [|constructor]. exact Logic.I.
-    Qed.
-    Lemma spI_bsipcs j : spI (begin_service_if_possible_change_shift cf j) top.
-    Proof. unfold begin_service_if_possible_change_shift. spw. Qed.
-    Lemma spI_change_shift j : spI (change_shift cf j) top.
-    Proof.
-      unfold change_shift. eapply R.sp_bind; [apply spI_ncfg_of|]. intros nc Hc. destruct (nc_srv nc) as [|sc|sl] eqn:Esrv; [apply R.sp_fail| |apply R.sp_fail].
-      pose proof (nopre_at _ _ Hc) as Hn. unfold R.nopre_nc in Hn. rewrite Esrv in Hn. apply andb_true_iff in Hn as [_ Hn]. apply Z.eqb_eq in Hn.
-      pose proof (wf_at _ _ Hc) as Hw. unfold wf_nc in Hw. rewrite Esrv in Hw.
-      eapply R.sp_bind; [apply spI_get_node|]. intros nd [Hnd Hj].
-      eapply R.sp_bind with (phi := top); [destruct (sc_b sc); [apply R.sp_fail|apply R.sp_ret; exact Logic.I]|]. intros _ _. cbv zeta.
-      eapply R.sp_bind with (phi := top).
-      { apply spI_put_node. destruct Hnd as (A & B & C & D0 & E). unfold NodeOK, NodeT, all_individuals, nd_inf in *. cbn [n_id n_queues n_c n_servers n_spos n_next_shift set].
-        rewrite Hj in *. unfold ncf in *. rewrite Hc, Esrv in *. destruct E as (E1 & E2 & E3 & E4).
-        split; [symmetry; eapply Hsch; eauto|]. split; [exact B|]. split; [exact C|]. split; [exact D0|]. split.
-        - intros _ Hs. apply E1; [|exact Hs]. rewrite A. eapply Hsch; eauto.
-        - replace (Z.to_nat (n_spos nd + 1)) with (S (Z.to_nat (n_spos nd))) by lia.
-          split; [lia|]. split; [reflexivity|]. pose proof (wf_tt_mono _ _ Hw (Z.to_nat (n_spos nd)) (S (Z.to_nat (n_spos nd))) ltac:(lia)). lia. }
-      intros _ _. eapply R.sp_bind; [apply R.sp_gets|]. intros fl _. eapply R.sp_bind; [apply spI_tsod; exact Hn|]. intros _ _.
-      eapply R.sp_bind; [apply spI_add_new_servers|]. intros _ _. apply spI_bsipcs.
-    Qed.
-    Lemma spI_slot_loop : forall k j, spI (slot_loop cf k j) top.
-    Proof. induction k as [|k IH]; intros j; cbn [slot_loop]; [apply R.sp_ret; exact Logic.I|]. spw; apply IH. Qed.
-    Lemma spI_slotted_service j : spI (slotted_service cf j) top.
-    Proof.
-      unfold slotted_service. eapply R.sp_bind; [apply spI_ncfg_of|]. intros nc Hc. destruct (nc_srv nc) as [|sc|sl] eqn:Esrv; [apply R.sp_fail|apply R.sp_fail|].
-      pose proof (nopre_at _ _ Hc) as Hn. unfold R.nopre_nc in Hn. rewrite Esrv in Hn. apply andb_true_iff in Hn as [_ Hn]. apply negb_true_iff in Hn.
-      pose proof (wf_at _ _ Hc) as Hw. unfold wf_nc in Hw. rewrite Esrv in Hw.
-      eapply R.sp_bind; [apply spI_get_node|]. intros nd [Hnd Hj].
-      eapply R.sp_bind with (phi := top); [destruct (sl_b sl); [apply R.sp_fail|apply R.sp_ret; exact Logic.I]|]. intros _ _. cbv zeta. rewrite Hn.
-      eapply R.sp_bind with (phi := top); [apply R.sp_ret; exact Logic.I|]. intros _ _.
-      eapply R.sp_bind; [apply spI_slot_loop|]. intros _ _. apply spI_upd_node. intros nd' Hj' (A & B & C & D0 & E).
-      unfold NodeOK, NodeT, all_individuals, nd_inf in *. cbn [n_id n_queues n_c n_servers n_spos n_next_shift set].
-      rewrite Hj' in *. unfold ncf in *. rewrite Hc, Esrv in *. destruct E as (E1 & E2 & E3).
-      repeat (split; [assumption|]). replace (Z.to_nat (n_spos nd' + 1)) with (S (Z.to_nat (n_spos nd'))) by lia.
-      split; [lia|]. pose proof (slotdate_step sl (Z.to_nat (n_spos nd')) Hw). lia.
-    Qed.
-    Lemma spI_ccww j : spI (change_customer_class_while_waiting cf j) top.
-    Proof.
-      unfold change_customer_class_while_waiting.
-      eapply R.sp_bind; [apply spI_get_node|]. intros nd [Hnd Hj].
-      eapply R.sp_bind; [apply R.sp_lift|]. intros i Hi.
-      eapply R.sp_bind; [apply spI_get_ind|]. intros x [Hx Hxi].
-      eapply R.sp_bind; [apply R.sp_lift|]. intros nc' Hnc.
-      eapply R.sp_bind; [apply R.sp_lift|]. intros p' Hp.
-      eapply R.sp_bind; [apply spI_put_ind; indok|]. intros _ _.
-      eapply R.sp_bind with (phi := top).
-      { destruct (negb (p' =? i_pprio x)); [|apply R.sp_ret; exact Logic.I].
-        eapply R.sp_bind; [apply R.sp_lift|]. intros q Hq. eapply R.sp_bind; [apply R.sp_lift|]. intros q' Hq'. cbv zeta.
-        eapply R.sp_bind; [apply R.sp_lift|]. intros qn Hqn. cbv beta in Hq, Hq', Hqn.
-        eapply R.sp_bind; [apply spI_put_node|].
-        { apply (NodeOK_perm _ _ _ nd _ Hnd); try reflexivity. unfold all_individuals. cbn [n_queues set].
-          eapply Permutation_trans; [apply (R.concat_remove _ _ _ _ _ Hq Hq')|]. symmetry. apply R.concat_append. exact Hqn. }
-        intros _ _. destruct (negb (nd_inf nd) && (0 <? numo (n_c nd))); [|apply R.sp_ret; exact Logic.I].
-        eapply R.sp_bind; [apply spI_preempt_victim|]. intros v ->. apply R.sp_ret. exact Logic.I. }
-      intros _ _. eapply R.sp_bind; [apply spI_upd_ind; intros; indok|]. intros _ _. apply spI_decide_class_change.
-    Qed.
-    Lemma spI_accept_rest pre j i nc : spI (R.accept_rest cf pre j i nc) top.
-    Proof.
-      unfold R.accept_rest. eapply R.sp_bind; [apply spI_decide_class_change|]. intros _ _. eapply R.sp_bind; [apply spI_get_node|]. intros nd1 [Hnd Hj]. cbv zeta.
-      eapply R.sp_bind with (phi := top); [destruct (nd_inf nd1); [apply R.sp_ret; exact Logic.I|apply spI_choose_next_customer]|]. intros cand _.
-      destruct cand as [c|]; [|apply R.sp_ret; exact Logic.I]. destruct (nd_inf nd1); [apply spI_start_fresh|].
-      eapply R.sp_bind; [apply spI_get_ind|]. intros cx _. destruct (find_free_server_for _ _ _); [apply spI_start_fresh|].
-      destruct (0 <? numo (n_c nd1)); [|apply R.sp_ret; exact Logic.I]. eapply R.sp_bind; [apply spI_preempt_victim|]. intros v ->. apply R.sp_ret. exact Logic.I.
     Qed.
     Lemma spI_sys_population : spI sys_population top.
     Proof. unfold sys_population. spw. Qed.
     Lemma spI_route_of i c : spI (route_of cf i c) top.
     Proof. unfold route_of. spw. Qed.
     Lemma spI_gets_arr : spI (gets arr) (fun a => ArrOK a).
-    Proof. intros s a s' HI H. apply R.gets_inv in H as [-> ->]. split; [exact HI|apply HI]. Qed.
+    Proof. intros s a s' HI H. apply Renege2.gets_inv in H as [-> ->]. split; [exact HI|apply HI]. Qed.
 
     (* ---------- the arrival node: the executed stream's date moves forward by a draw >= 0 and the minimum is recomputed ---------- *)
     Lemma ArrOK_recompute dates a d j c : Forall (Forall (dle (Some t))) dates -> find_min_dates 1 dates (None, 0, 0) = (d, j, c) ->
@@ -630,8 +671,8 @@ Section Clock2.
       pose proof (find_min_dates_spec (fun d j c => exists row, nthZ dates (j - 1) = Some row /\ nthZ row c = Some d) dates 1 (None, 0, 0)) as HS.
       cbv zeta in HS. rewrite E in HS. cbn [fst snd] in HS. destruct HS as (_ & B & C).
       - intros n row Hn m d0 Hm. exists row. split.
-        + replace (1 + Z.of_nat n - 1) with (Z.of_nat n) by lia. rewrite R.nthZ_of_nat. exact Hn.
-        + rewrite R.nthZ_of_nat. exact Hm.
+        + replace (1 + Z.of_nat n - 1) with (Z.of_nat n) by lia. rewrite Renege2.nthZ_of_nat. exact Hn.
+        + rewrite Renege2.nthZ_of_nat. exact Hm.
       - left. reflexivity.
       - unfold ArrOK, Loc. cbn. split; [exact HD|split; [exact B|]]. unfold LB in C. cbn [fst snd] in C. exact C.
     Qed.
@@ -642,8 +683,8 @@ Section Clock2.
       destruct HI as (A & B & C & D0 & E & F & G & H & K & L).
       set (dates := updZ (a_dates (arr s)) (j - 1) (updZ row c new)).
       assert (HD : Forall (Forall (dle (Some t))) dates).
-      { apply Forall_forall. intros r Hr. apply R.In_updZ in Hr as [->|Hr].
-        - apply Forall_forall. intros x Hx. apply R.In_updZ in Hx as [->|Hx]; [exact Hnew|]. rewrite Forall_forall in Hrow. apply Hrow; exact Hx.
+      { apply Forall_forall. intros r Hr. apply Renege2.In_updZ in Hr as [->|Hr].
+        - apply Forall_forall. intros x Hx. apply Renege2.In_updZ in Hx as [->|Hx]; [exact Hnew|]. rewrite Forall_forall in Hrow. apply Hrow; exact Hx.
         - destruct K as (K & _). rewrite Forall_forall in K. apply K; exact Hr. }
       cbn [arr a_dates set]. fold dates.
       destruct (find_min_dates 1 dates (None, 0, 0)) as [[d jj] cc] eqn:Em.
@@ -653,14 +694,13 @@ Section Clock2.
   End Small.
 
   (* the walk tactics again, now with every lemma of the section above *)
-  #[local] Hint Extern 1 (R.dle _ _) => cbn; first [exact Logic.I | lia] : spdb.
-  #[local] Hint Extern 1 (IndOK _ _ _ _) => eassumption : spdb.
-  #[local] Hint Resolve spI_choice_uniform spI_choice_weighted spI_choose_next_customer spI_find_next_class_change spI_cct_loop
-    spI_decide_class_change spI_reset_class_change spI_gstap spI_stime_num spI_giast spI_attach_server spI_set_next_end spI_kill_server
+  #[local] Hint Extern 1 (Renege2.dle _ _) => cbn; first [exact Logic.I | lia] : spdb.
+  #[local] Hint Extern 1 (IndOK _ _ _ _ _ _) => eassumption : spdb.
+  #[local] Hint Resolve spI_choice_uniform spI_choice_weighted spI_choose_next_customer
+    spI_gstap spI_stime_num spI_giast spI_set_next_end spI_kill_server
     spI_bump_rec spI_write_br_record spI_write_individual_record spI_write_reneging_record spI_write_interruption_record
     spI_reset_individual_attributes spI_valid_dest spI_jsq_loop spI_jsq_next spI_get_cyc spI_bump_cyc spI_node_router_next
-    spI_next_node_for spI_start_fresh spI_start_give spI_biis spI_serve_with spI_bsipr spI_block_individual
-    spI_decide_between spI_change_customer_class spI_has_space spI_change_shift spI_slotted_service spI_ccww
+    spI_next_node_for spI_block_individual spI_decide_between spI_change_customer_class spI_has_space
     spI_sys_population spI_route_of : spdb.
   Ltac sp_prim m :=
     lazymatch m with
@@ -668,8 +708,8 @@ Section Clock2.
     | get_node _ => apply spI_get_node
     | get_ind _ => apply spI_get_ind
     | ncfg_of _ _ => apply spI_ncfg_of
-    | lift _ _ => apply R.sp_lift
-    | gets _ => apply R.sp_gets
+    | lift _ _ => apply Renege2.sp_lift
+    | gets _ => apply Renege2.sp_gets
     | draw_arr => apply spI_draw_arr
     | draw_batch => apply spI_draw_batch
     | draw_svc => apply spI_draw_svc
@@ -682,58 +722,419 @@ Section Clock2.
     | upd_ind _ _ => apply spI_upd_ind; intros; indok
     | upd_node _ _ => apply spI_upd_node; intros; nodeok
     | modify _ => apply spI_same; intros ?; repeat split; reflexivity
-    | forM_ _ _ => apply R.sp_forM; intros ?
-    | mapM _ _ => apply R.sp_mapM; intros ?
+    | forM_ _ _ => apply Renege2.sp_forM; intros ?
+    | mapM _ _ => apply Renege2.sp_mapM; intros ?
+    | attach_server _ _ _ => apply spI_attach_server; first [left; assumption | right; eexists; reflexivity]
     | _ => solve [eauto 4 with spdb nocore]
     end.
   Ltac sp_step :=
     lazymatch goal with
-    | |- R.sp _ _ (ret _) _ => apply R.sp_ret; exact Logic.I
-    | |- R.sp _ _ (fail _) _ => apply R.sp_fail
-    | |- R.sp _ _ oof _ => apply R.sp_oof
-    | |- R.sp _ _ (bind (match _ with _ => _ end) _) _ => eapply R.sp_bind with (phi := top); [|intros ? _]
-    | |- R.sp _ _ (bind (if _ then _ else _) _) _ => eapply R.sp_bind with (phi := top); [|intros ? _]
-    | |- R.sp _ _ (bind ?m _) _ => eapply R.sp_bind; [sp_prim m|sp_intro]
-    | |- R.sp _ _ (if ?b then _ else _) _ => destruct b eqn:?
-    | |- R.sp _ _ (match ?x with _ => _ end) _ => first [progress cbv iota beta | destruct x eqn:?]
-    | |- R.sp _ _ ?m _ => first [sp_prim m | (eapply R.sp_top; sp_prim m)]
+    | |- Renege2.sp _ _ (ret _) _ => apply Renege2.sp_ret; exact Logic.I
+    | |- Renege2.sp _ _ (fail _) _ => apply Renege2.sp_fail
+    | |- Renege2.sp _ _ oof _ => apply Renege2.sp_oof
+    | |- Renege2.sp _ _ (bind (match _ with _ => _ end) _) _ => eapply Renege2.sp_bind with (phi := top); [|intros ? _]
+    | |- Renege2.sp _ _ (bind (if _ then _ else _) _) _ => eapply Renege2.sp_bind with (phi := top); [|intros ? _]
+    | |- Renege2.sp _ _ (bind ?m _) _ => eapply Renege2.sp_bind; [sp_prim m|sp_intro]
+    | |- Renege2.sp _ _ (if ?b then _ else _) _ => destruct b eqn:?
+    | |- Renege2.sp _ _ (match ?x with _ => _ end) _ => first [progress cbv iota beta | destruct x eqn:?]
+    | |- Renege2.sp _ _ ?m _ => first [sp_prim m | (eapply Renege2.sp_top; sp_prim m)]
     end.
-  Ltac spb L := eapply R.sp_bind; [L|].
+  Ltac spb L := eapply Renege2.sp_bind; [L|].
+
+  (* ---------- the scan that finds the next class change ---------- *)
+  Definition cwaiting (il : list ind) (i z : Z) : Prop := exists x, find_ind i il = Some x /\ i_ccd x = XV z /\ i_server x = None.
+  Lemma scan_cc_spec : forall q il best bi d k, scan_cc q il best bi = Some (d, k) ->
+    dle d best /\
+    (forall i z, In i q -> cwaiting il i z -> dle d (Some z)) /\
+    ((d = best /\ k = bi) \/ exists i z, In i q /\ cwaiting il i z /\ d = Some z /\ k = Some i).
+  Proof.
+    induction q as [|i r IH]; intros il best bi d k H; cbn [scan_cc] in H.
+    - injection H as <- <-. split; [apply Renege2.dle_refl|]. split; [intros i z []|left; auto].
+    - destruct (find_ind i il) as [x|] eqn:Ex; [|discriminate]. destruct (i_ccd x) as [| |z] eqn:Ec; [discriminate| |].
+      + destruct (IH _ _ _ _ _ H) as (G1 & G2 & G3). split; [exact G1|]. split.
+        * intros i0 z [<-|Hi] Hw; [|eauto]. destruct Hw as (x' & Hx' & Hc' & _). congruence.
+        * destruct G3 as [G3|(i0 & z & Hq & Hw & Hd)]; [left; exact G3|right; exists i0, z; split; [right; exact Hq|auto]].
+      + set (w := match i_server x with None => true | Some _ => false end) in H.
+        assert (Hw : forall z', cwaiting il i z' -> z' = z /\ w = true).
+        { intros z' (x' & Hx' & Hc' & Hs'). rewrite Ex in Hx'. injection Hx' as <-. rewrite Ec in Hc'. injection Hc' as <-.
+          split; [reflexivity|]. unfold w. rewrite Hs'. reflexivity. }
+        destruct (date_lt (Some z) best && w) eqn:E1.
+        * apply andb_true_iff in E1 as [E1 Ew]. destruct (IH _ _ _ _ _ H) as (G1 & G2 & G3).
+          assert (Hwi : cwaiting il i z). { exists x. split; [exact Ex|]. split; [exact Ec|]. unfold w in Ew. destruct (i_server x); [discriminate|reflexivity]. }
+          split; [eapply Renege2.dle_trans; [exact G1|apply Renege2.date_lt_dle; exact E1]|]. split.
+          -- intros i0 z' [<-|Hi] Hw'; [destruct (Hw _ Hw') as [-> _]; exact G1|eauto].
+          -- right. destruct G3 as [[-> ->]|(i0 & z0 & Hq & Hw0 & Hd)]; [exists i, z; split; [left; reflexivity|auto]|exists i0, z0; split; [right; exact Hq|auto]].
+        * destruct (IH _ _ _ _ _ H) as (G1 & G2 & G3). split; [exact G1|]. split.
+          -- intros i0 z' [<-|Hi] Hw'; [|eauto]. destruct (Hw _ Hw') as [-> Hwt]. rewrite Hwt, andb_true_r in E1.
+             eapply Renege2.dle_trans; [exact G1|apply Renege2.date_nlt_dle; exact E1].
+          -- destruct G3 as [G3|(i0 & z0 & Hq & Hw0 & Hd)]; [left; exact G3|right; exists i0, z0; split; [right; exact Hq|auto]].
+  Qed.
+
+  (* ---------- assertions that hide the ghost ---------- *)
+  Definition InvG (loc : Z -> option Z) (tr : Renege2.transit) (ex : option (Z * Z)) (cr : Z) (s : sim) : Prop := exists gc, Inv loc tr ex gc cr s.
+  Lemma InvG_of loc tr ex gc cr s : Inv loc tr ex gc cr s -> InvG loc tr ex cr s. Proof. intros H. exists gc. exact H. Qed.
+  Lemma sp_G {A} loc tr ex cr (m : M A) phi : (forall gc, sp (Inv loc tr ex gc cr) (Inv loc tr ex gc cr) m phi) -> sp (InvG loc tr ex cr) (InvG loc tr ex cr) m phi.
+  Proof. intros Hm s a s' (gc & HI) H. destruct (Hm gc _ _ _ HI H) as [HJ Hp]. split; [exists gc; exact HJ|exact Hp]. Qed.
+  Lemma sp_toG {A} loc tr ex ex' gc gc' cr (m : M A) phi : sp (Inv loc tr ex gc cr) (Inv loc tr ex' gc' cr) m phi -> sp (Inv loc tr ex gc cr) (InvG loc tr ex' cr) m phi.
+  Proof. intros Hm. eapply Renege2.sp_post; [exact Hm|]. intros s0 H0. exists gc'. exact H0. Qed.
+  Lemma sp_fromG {A} loc tr ex gc cr (J : sim -> Prop) (m : M A) phi : sp (InvG loc tr ex cr) J m phi -> sp (Inv loc tr ex gc cr) J m phi.
+  Proof. intros Hm. eapply Renege2.sp_pre; [exact Hm|]. intros s0 H0. exists gc. exact H0. Qed.
+  Lemma sp_openG {A} loc tr ex cr (J : sim -> Prop) (m : M A) phi : (forall gc, sp (Inv loc tr ex gc cr) J m phi) -> sp (InvG loc tr ex cr) J m phi.
+  Proof. intros Hm s a s' (gc & HI) H. exact (Hm gc _ _ _ HI H). Qed.
+  Lemma sp_retG {A} loc tr ex gc cr (a : A) : sp (Inv loc tr ex gc cr) (InvG loc tr ex cr) (ret a) top.
+  Proof. eapply sp_toG. apply Renege2.sp_ret. exact Logic.I. Qed.
+
+  (* ---------- excusing a customer and ending the excuse ---------- *)
+  Lemma find_unique s c x y : NoDup (map i_id (inds s)) -> find_ind c (inds s) = Some x -> In y (inds s) -> i_id y = c -> y = x.
+  Proof. intros HN Hx Hy Hc. pose proof (Renege2.find_ind_NoDup _ _ HN Hy) as Hf. rewrite Hc, Hx in Hf. injection Hf as <-. reflexivity. Qed.
+
+  Lemma Inv_open loc tr gc cr s c j x : Inv loc tr None gc cr s -> find_ind c (inds s) = Some x -> i_node x = Some j -> loc c = Some j ->
+    Inv loc tr (Some (c, j)) gc cr s.
+  Proof.
+    intros (A & B & C & D0 & E & F & G & H & K & L) Hx Hn Hl. unfold Inv. repeat (split; [assumption|]). split; [|split; [|auto]].
+    - rewrite Forall_forall in *. intros y Hy. destruct (F y Hy) as (YA & YB & YC & YD). split; [exact YA|]. split; [exact YB|]. split.
+      + intros Ho. destruct (YC Ho) as (Y1 & Y2 & Y3). split; [exact Y1|]. split; [exact Y2|]. intros Hd j0 Hj0 Hi. destruct (Y3 Hd j0 Hj0 Hi) as [Ca Cb]. split.
+        * intros Hs z Hz. destruct (Ca Hs z Hz) as [Q|Q]; [discriminate Q|right; exact Q].
+        * intros Hg. destruct (Cb Hg) as [Q|Q]; [left; exact Q|discriminate Q].
+      + intros j1 He. injection He as Hc ->. pose proof (find_unique _ _ _ _ E Hx Hy (eq_sym Hc)) as ->. rewrite <- Hc. auto.
+    - intros k nd Hk. destruct (G k nd Hk) as (M1 & M2 & M3 & M4 & (T0 & T1 & T2)). repeat (split; [assumption|]). split; [|exact T2].
+      intros Hd. destruct (T1 Hd) as [T3 T4]. split; [exact T3|]. intros Hi. destruct (T4 Hi) as [T5 T6]. split; [exact T5|].
+      intros i Hc. destruct (T6 i Hc) as [Q|Q]; [left; exact Q|discriminate Q].
+  Qed.
+
+  Lemma Inv_close_nodyn loc tr ex gc cr s : cf_dyn cf = false -> Inv loc tr ex gc cr s -> Inv loc tr None gc cr s.
+  Proof.
+    intros Hd (A & B & C & D0 & E & F & G & H & K & L). unfold Inv. repeat (split; [assumption|]). split; [|split; [|auto]].
+    - eapply Forall_impl; [|exact F]. intros y (YA & YB & YC & YD). split; [exact YA|]. split; [exact YB|]. split; [|intros j He; discriminate He].
+      intros Ho. destruct (YC Ho) as (Y1 & Y2 & Y3). split; [exact Y1|]. split; [exact Y2|]. intros Hd'. congruence.
+    - intros k nd Hk. destruct (G k nd Hk) as (M1 & M2 & M3 & M4 & (T0 & T1 & T2)). repeat (split; [assumption|]). split; [|exact T2].
+      intros Hd'. congruence.
+  Qed.
+
+  Lemma Inv_close loc tr gc cr s c j x : Inv loc tr (Some (c, j)) gc cr s -> find_ind c (inds s) = Some x ->
+    (forall z, i_ccd x <> XV z) -> snd (gc j) <> Some c -> Inv loc tr None gc cr s.
+  Proof.
+    intros (A & B & C & D0 & E & F & G & H & K & L) Hx Hcc Hg. unfold Inv. repeat (split; [assumption|]). split; [|split; [|auto]].
+    - rewrite Forall_forall in *. intros y Hy. destruct (F y Hy) as (YA & YB & YC & YD). split; [exact YA|]. split; [exact YB|]. split; [|intros j1 He; discriminate He].
+      intros Ho. destruct (YC Ho) as (Y1 & Y2 & Y3). split; [exact Y1|]. split; [exact Y2|]. intros Hd j0 Hj0 Hi. destruct (Y3 Hd j0 Hj0 Hi) as [Ca Cb]. split.
+      + intros Hs z Hz. destruct (Ca Hs z Hz) as [Q|Q]; [|right; exact Q]. injection Q as Hc ->.
+        pose proof (find_unique _ _ _ _ E Hx Hy (eq_sym Hc)) as ->. exfalso. exact (Hcc z Hz).
+      + intros Hgj. destruct (Cb Hgj) as [Q|Q]; [left; exact Q|]. injection Q as Hc ->. rewrite <- Hc in Hgj. contradiction.
+    - intros k nd Hk. destruct (G k nd Hk) as (M1 & M2 & M3 & M4 & (T0 & T1 & T2)). repeat (split; [assumption|]). split; [|exact T2].
+      intros Hd. destruct (T1 Hd) as [T3 T4]. split; [exact T3|]. intros Hi. destruct (T4 Hi) as [T5 T6]. split; [exact T5|].
+      intros i Hc. destruct (T6 i Hc) as [Q|Q]; [left; exact Q|]. injection Q as -> Hj. exfalso. apply Hg. rewrite Hj, <- T3. exact Hc.
+  Qed.
+
+  (* ---------- find_next_class_change: the node's class-change bookkeeping is recomputed from its customers ---------- *)
+  Lemma Inv_recompute loc tr ex gc cr s j nd a b : Inv loc tr ex gc cr s -> cf_dyn cf = true -> 1 <= j -> nthZ (nodes s) (j - 1) = Some nd ->
+    scan_cc (all_individuals nd) (inds s) None None = Some (a, b) ->
+    (forall c j', ex = Some (c, j') -> j' = j /\ forall x, find_ind c (inds s) = Some x -> i_server x = None -> forall z, i_ccd x = XV z -> t <= z) ->
+    Inv loc tr None (fun j' => if j' =? j then (a, b) else gc j') cr
+        (s <| nodes := updZ (nodes s) (n_id nd - 1) (nd <| n_nccd := a |> <| n_ncci := b |>) |>).
+  Proof.
+    intros (A & B & C & D0 & E & F & G & H & K & L) Hd Hj Hn Hscan Hex.
+    pose proof (Renege2.Idx_get _ _ _ D0 Hj Hn) as Hidn. destruct (Renege2.nthZ_nat _ _ _ Hn) as [Hj0 Hn'].
+    pose proof (G _ _ Hn') as (N1 & N2 & N3 & N4 & (T0 & T1 & T2)).
+    destruct (scan_cc_spec _ _ _ _ _ _ Hscan) as (_ & S2 & S3).
+    rewrite Forall_forall in F.
+    (* a customer located at j that waits with a class-change date: it is in the queue that was scanned *)
+    assert (Hmem : forall y, In y (inds s) -> out tr (i_id y) = false -> loc (i_id y) = Some j -> i_server y = None -> forall z, i_ccd y = XV z ->
+                     In (i_id y) (all_individuals nd) /\ cwaiting (inds s) (i_id y) z).
+    { intros y Hy Ho Hl Hs z Hz. split; [apply N4; [exact Ho|rewrite Hidn; exact Hl]|]. exists y. split; [apply Renege2.find_ind_NoDup; assumption|auto]. }
+    (* every candidate of the scan is at or after the clock *)
+    assert (Hcand : forall i z, In i (all_individuals nd) -> cwaiting (inds s) i z -> nd_inf nd = false -> t <= z).
+    { intros i z Hq (x & Hx & Hz & Hs) Hi. destruct (N3 _ Hq) as (_ & Ho & Hl). destruct (F x (Renege2.find_ind_In _ _ _ Hx)) as (_ & _ & XC & _).
+      pose proof (Renege2.find_ind_id _ _ _ Hx) as Hid. rewrite <- Hid in Ho, Hl. destruct (XC Ho) as ((j1 & Hj1 & Hl1) & _ & X3).
+      rewrite Hl in Hl1. injection Hl1 as <-. destruct (X3 Hd _ Hj1 ltac:(rewrite <- N1; exact Hi)) as [Ca _].
+      destruct (Ca Hs z Hz) as [Q|[Q _]]; [|exact Q]. destruct (Hex _ _ Q) as [_ Q2]. rewrite Hid in Q2. apply (Q2 x Hx Hs z Hz). }
+    unfold Inv. cbn [now arr nodes inds dr set].
+    split; [exact A|]. split; [exact B|]. split; [rewrite Renege2.length_updZ; exact C|].
+    split; [unfold Idx; cbn [nodes set]; change (n_id nd) with (n_id (nd <| n_nccd := a |> <| n_ncci := b |>)); apply Renege2.Idx_updZ; exact D0|].
+    split; [exact E|]. split; [|split; [|auto]].
+    - apply Forall_forall. intros y Hy. destruct (F y Hy) as (YA & YB & YC & YD). split; [exact YA|]. split; [exact YB|]. split; [|intros j1 He; discriminate He].
+      intros Ho. destruct (YC Ho) as ((j0 & Hj0' & Hl0) & Y2 & Y3). split; [exists j0; auto|]. split; [exact Y2|].
+      intros _ j1 Hj1 Hi. rewrite Hj0' in Hj1. injection Hj1 as <-. destruct (Y3 Hd j0 Hj0' Hi) as [Ca Cb]. unfold CCI. destruct (j0 =? j) eqn:Ej.
+      + apply Z.eqb_eq in Ej. subst j0. cbn [fst snd]. split.
+        * intros Hs z Hz. right. destruct (Hmem y Hy Ho Hl0 Hs z Hz) as [Hq Hw]. split; [|apply (S2 _ _ Hq Hw)].
+          apply (Hcand _ _ Hq Hw). rewrite N1, Hidn. exact Hi.
+        * intros Hb. left. destruct S3 as [[_ S3]|(i0 & z0 & Hq0 & (x0 & Hx0 & _ & Hs0) & _ & S3)]; [congruence|].
+          rewrite S3 in Hb. injection Hb as ->. pose proof (find_unique _ _ _ _ E Hx0 Hy eq_refl) as ->. exact Hs0.
+      + apply Z.eqb_neq in Ej. split.
+        * intros Hs z Hz. destruct (Ca Hs z Hz) as [Q|Q]; [|right; exact Q]. destruct (Hex _ _ Q) as [Q1 _]. contradiction.
+        * intros Hg. destruct (Cb Hg) as [Q|Q]; [left; exact Q|]. destruct (Hex _ _ Q) as [Q1 _]. contradiction.
+    - intros kk y Hk. rewrite Hidn in Hk. unfold updZ in Hk. destruct (j - 1 <? 0) eqn:Ej; [apply Z.ltb_lt in Ej; lia|].
+      destruct (Renege2.nth_error_upd_cases _ _ _ _ _ Hk) as [[-> ->]|[Hne Hk']].
+      + unfold NodeOK, NodeT, all_individuals, nd_inf in *. cbn [n_id n_queues n_c n_servers n_spos n_next_shift n_nccd n_ncci n_nint set].
+        repeat (split; [assumption|]). split; [|exact T2]. intros _. rewrite Hidn, Z.eqb_refl. split; [reflexivity|]. intros Hi. split.
+        * destruct S3 as [[-> _]|(i0 & z0 & Hq0 & Hw0 & -> & _)]; [exact Logic.I|]. cbn. apply (Hcand _ _ Hq0 Hw0). exact Hi.
+        * intros i Hb. left. destruct S3 as [[_ S3]|(i0 & z0 & Hq0 & _ & _ & S3)]; [congruence|]. rewrite S3 in Hb. injection Hb as <-. exact Hq0.
+      + pose proof (G _ _ Hk') as (M1 & M2 & M3 & M4 & (U0 & U1 & U2)). pose proof (D0 _ _ Hk') as Hidy.
+        repeat (split; [assumption|]). split; [|exact U2]. intros _. destruct (U1 Hd) as [U3 U4].
+        assert (Hny : (n_id y =? j) = false) by (apply Z.eqb_neq; lia). rewrite Hny. split; [exact U3|]. intros Hi. destruct (U4 Hi) as [U5 U6]. split; [exact U5|].
+        intros i Hc. destruct (U6 i Hc) as [Q|Q]; [left; exact Q|]. destruct (Hex _ _ Q) as [Q1 _]. exfalso. lia.
+  Qed.
+
+  Lemma find_next_class_change_inv j s s' : find_next_class_change j s = Ok (tt, s') ->
+    exists nd a b, 1 <= j /\ nthZ (nodes s) (j - 1) = Some nd /\ scan_cc (all_individuals nd) (inds s) None None = Some (a, b) /\
+      s' = s <| nodes := updZ (nodes s) (n_id nd - 1) (nd <| n_nccd := a |> <| n_ncci := b |>) |>.
+  Proof.
+    unfold find_next_class_change. intros H. minv H nd s1 E. apply Renege2.get_node_inv in E as (-> & Hj & Hn).
+    minv H il s1 E. apply Renege2.gets_inv in E as [-> ->]. minv H r s1 E. apply Renege2.lift_inv in E as [Hr ->].
+    unfold put_node in H. apply Renege2.modify_inv in H. exists nd, (fst r), (snd r). destruct r as [a b]. auto.
+  Qed.
+
+  (* reset_class_change j c: customer c's class-change clock is stopped; if it was the node's next one, the node looks again.
+     This ends the excuse of customer c at node j *)
+  Lemma sp_reset_class_change loc tr ex cr j c : ex = None \/ ex = Some (c, j) ->
+    sp (InvG loc tr ex cr) (InvG loc tr None cr) (reset_class_change cf j c) top.
+  Proof.
+    intros Hex s a s' (gc & HI) H. destruct a. split; [|exact Logic.I]. unfold reset_class_change in H. destruct (cf_dyn cf) eqn:Hd.
+    2:{ apply Renege2.ret_inv in H as [_ ->]. exists gc. eapply Inv_close_nodyn; eauto. }
+    minv H u s1 E. apply Renege2.upd_ind_inv in E as (x & Hx & ->). pose proof (Renege2.find_ind_id _ _ _ Hx) as Hid.
+    assert (Hix : IndOK loc tr ex gc cr x).
+    { destruct HI as (_ & _ & _ & _ & _ & F & _). rewrite Forall_forall in F. apply F. eapply Renege2.find_ind_In; eauto. }
+    assert (HI1 : Inv loc tr ex gc cr (s <| inds := put_ind_l (x <| i_ccd := XI |>) (inds s) |>)) by (apply Inv_put_ind; [exact HI|indok]).
+    assert (Hx1 : find_ind c (inds (s <| inds := put_ind_l (x <| i_ccd := XI |>) (inds s) |>)) = Some (x <| i_ccd := XI |>)).
+    { cbn [inds set]. rewrite Renege2.find_put_ind. cbn [i_id set]. rewrite Hid, Z.eqb_refl. reflexivity. }
+    set (s1 := s <| inds := put_ind_l (x <| i_ccd := XI |>) (inds s) |>) in *.
+    minv H nd s2 E. apply Renege2.get_node_inv in E as (-> & Hj & Hn).
+    assert (Hend : Inv loc tr None gc cr s1 \/ n_ncci nd = Some c).
+    { destruct (n_ncci nd) as [k|] eqn:Ek; [destruct (Z.eq_dec k c) as [->|Hne]; [right; reflexivity|]|]; left.
+      - destruct Hex as [ -> | -> ]; [exact HI1|]. apply (Inv_close _ _ _ _ _ _ _ _ HI1 Hx1); [intros z Hz; discriminate Hz|].
+        destruct HI1 as (_ & _ & _ & D1 & _ & _ & G1 & _). destruct (Renege2.nthZ_nat _ _ _ Hn) as [_ Hn']. destruct (G1 _ _ Hn') as (_ & _ & _ & _ & (_ & T1 & _)).
+        destruct (T1 Hd) as [T3 _]. rewrite (Renege2.Idx_get _ _ _ D1 Hj Hn) in T3. rewrite <- T3. cbn. congruence.
+      - destruct Hex as [ -> | -> ]; [exact HI1|]. apply (Inv_close _ _ _ _ _ _ _ _ HI1 Hx1); [intros z Hz; discriminate Hz|].
+        destruct HI1 as (_ & _ & _ & D1 & _ & _ & G1 & _). destruct (Renege2.nthZ_nat _ _ _ Hn) as [_ Hn']. destruct (G1 _ _ Hn') as (_ & _ & _ & _ & (_ & T1 & _)).
+        destruct (T1 Hd) as [T3 _]. rewrite (Renege2.Idx_get _ _ _ D1 Hj Hn) in T3. rewrite <- T3. cbn. congruence. }
+    destruct (n_ncci nd) as [k|] eqn:Ek.
+    2:{ apply Renege2.ret_inv in H as [_ ->]. exists gc. destruct Hend as [Q|Q]; [exact Q|discriminate Q]. }
+    destruct (k =? c) eqn:Ekc.
+    2:{ apply Renege2.ret_inv in H as [_ ->]. exists gc. destruct Hend as [Q|Q]; [exact Q|]. injection Q as ->. rewrite Z.eqb_refl in Ekc. discriminate. }
+    apply find_next_class_change_inv in H as (nd' & a0 & b0 & _ & Hn2 & Hscan & ->). rewrite Hn in Hn2. injection Hn2 as <-.
+    eexists. apply (Inv_recompute _ _ _ _ _ _ _ _ _ _ HI1 Hd Hj Hn Hscan).
+    intros c0 j' He. destruct Hex as [ -> | -> ]; [discriminate He|]. injection He as <- <-. split; [reflexivity|].
+    intros x0 Hx0 _ z Hz. rewrite Hx1 in Hx0. injection Hx0 as <-. discriminate Hz.
+  Qed.
+
+  (* decide_class_change j k: customer k (at node j) gets a new class-change clock and the node looks again: ends the excuse *)
+  Lemma sp_decide_class_change loc tr cr j k :
+    sp (InvG loc tr (Some (k, j)) cr) (InvG loc tr None cr) (decide_class_change cf j k) top.
+  Proof.
+    intros s a s' (gc & HI) H. destruct a. split; [|exact Logic.I]. unfold decide_class_change in H. destruct (cf_dyn cf) eqn:Hd.
+    2:{ apply Renege2.ret_inv in H as [_ ->]. exists gc. eapply Inv_close_nodyn; eauto. }
+    minv H x s1 E. apply Renege2.get_ind_inv in E as [-> Hx].
+    minv H row s1 E. apply Renege2.lift_inv in E as [_ ->].
+    minv H r s1 E. destruct (spI_cct_loop loc tr (Some (k, j)) gc cr row 0 None (i_cls x) NN_None _ _ _ HI E) as [HI1 Hr]. clear E.
+    minv H t0 s2 E. destruct (spI_tnow _ _ _ _ _ _ _ _ HI1 E) as [_ ->]. apply Renege2.tnow_inv in E as [_ ->].
+    minv H x' s2 E. destruct (spI_get_ind _ _ _ _ _ k _ _ _ HI1 E) as [_ [Hx' Hid]]. apply Renege2.get_ind_inv in E as [-> _].
+    minv H u s2 E. unfold put_ind in E. apply Renege2.modify_inv in E. subst s2.
+    match type of H with find_next_class_change j (s1 <| inds := put_ind_l ?y (inds s1) |>) = _ => set (x2 := y) in * end.
+    assert (HI2 : Inv loc tr (Some (k, j)) gc cr (s1 <| inds := put_ind_l x2 (inds s1) |>)) by (apply Inv_put_ind; [exact HI1|unfold x2; indok]).
+    assert (Hx2 : find_ind k (inds (s1 <| inds := put_ind_l x2 (inds s1) |>)) = Some x2).
+    { cbn [inds set]. rewrite Renege2.find_put_ind. unfold x2 at 1. cbn [i_id set]. rewrite Hid, Z.eqb_refl. reflexivity. }
+    apply find_next_class_change_inv in H as (nd & a0 & b0 & Hj & Hn & Hscan & ->).
+    eexists. apply (Inv_recompute _ _ _ _ _ _ _ _ _ _ HI2 Hd Hj Hn Hscan).
+    intros c0 j' He. injection He as <- <-. split; [reflexivity|]. intros x0 Hx0 _ z Hz. rewrite Hx2 in Hx0. injection Hx0 as <-.
+    unfold x2 in Hz. cbn [i_ccd set] in Hz. destruct (fst r) as [z0|] eqn:Er; [|discriminate Hz]. injection Hz as <-. specialize (Hr z0 eq_refl). lia.
+  Qed.
+
+  (* ---------- the blocks that start a service ---------- *)
+  (* start_fresh onto a server: the customer is excused from the attachment to the end of reset_class_change *)
+  Lemma sp_start_fresh_srv loc tr cr j c sid cnt :
+    sp (InvG loc tr (Some (c, j)) cr) (InvG loc tr None cr) (start_fresh cf j c (Some sid) cnt) top.
+  Proof.
+    apply sp_openG. intros gc. unfold start_fresh.
+    spb ltac:(apply spI_attach_server; right; eexists; reflexivity). intros _ _.
+    spb ltac:(apply spI_tnow). intros t0 ->. spb ltac:(apply spI_draw_svc). intros st Hst. cbv beta in Hst.
+    spb ltac:(apply spI_upd_ind; intros; indok). intros _ _.
+    eapply Renege2.sp_bind with (phi := top) (J := Inv loc tr (Some (c, j)) gc cr); [destruct cnt; [apply spI_upd_node; intros; nodeok|apply Renege2.sp_ret; exact Logic.I]|]. intros _ _.
+    eapply Renege2.sp_bind with (phi := top) (J := InvG loc tr None cr); [apply sp_fromG; apply sp_reset_class_change; right; reflexivity|]. intros _ _.
+    apply sp_openG. intros gc'. eapply sp_toG. apply spI_set_next_end. cbn. lia.
+  Qed.
+  (* start_fresh at a node with infinitely many servers: nobody is attached *)
+  Lemma sp_start_fresh_inf loc tr cr j c cnt :
+    sp (InvG loc tr None cr) (InvG loc tr None cr) (start_fresh cf j c None cnt) top.
+  Proof.
+    apply sp_openG. intros gc. unfold start_fresh.
+    eapply Renege2.sp_bind with (phi := top) (J := Inv loc tr None gc cr); [apply Renege2.sp_ret; exact Logic.I|]. intros _ _.
+    spb ltac:(apply spI_tnow). intros t0 ->. spb ltac:(apply spI_draw_svc). intros st Hst. cbv beta in Hst.
+    spb ltac:(apply spI_upd_ind; intros; indok). intros _ _.
+    eapply Renege2.sp_bind with (phi := top) (J := Inv loc tr None gc cr); [destruct cnt; [apply spI_upd_node; intros; nodeok|apply Renege2.sp_ret; exact Logic.I]|]. intros _ _.
+    eapply Renege2.sp_bind with (phi := top) (J := InvG loc tr None cr); [apply sp_fromG; apply sp_reset_class_change; left; reflexivity|]. intros _ _.
+    apply sp_openG. intros gc'. apply sp_retG.
+  Qed.
+  Lemma sp_start_give loc tr cr j c sid :
+    sp (InvG loc tr (Some (c, j)) cr) (InvG loc tr None cr) (start_give cf j c sid) top.
+  Proof.
+    apply sp_openG. intros gc. unfold start_give.
+    spb ltac:(apply spI_attach_server; right; eexists; reflexivity). intros _ _.
+    spb ltac:(apply spI_tnow). intros t0 ->.
+    spb ltac:(apply spI_upd_ind; intros; indok). intros _ _.
+    spb ltac:(apply spI_giast). intros _ _.
+    spb ltac:(apply spI_get_ind). intros x [Hx Hi]. spb ltac:(apply spI_stime_num; exact Hx). intros st Hst. cbv beta in Hst.
+    spb ltac:(apply spI_put_ind; indok). intros _ _.
+    spb ltac:(apply spI_upd_node; intros; nodeok). intros _ _.
+    eapply Renege2.sp_bind with (phi := top) (J := InvG loc tr None cr); [apply sp_fromG; apply sp_reset_class_change; right; reflexivity|]. intros _ _.
+    apply sp_openG. intros gc'. eapply sp_toG. apply spI_set_next_end. cbn. lia.
+  Qed.
+
+  (* without class change while waiting: the service of an interrupted customer begins again; the pre-emptor starts *)
+  #[local] Hint Resolve spI_reset_class_change_nodyn spI_decide_class_change_nodyn : spdb.
+  Lemma spI_biis loc tr ex gc cr j sid : cf_dyn cf = false ->
+    sp (Inv loc tr ex gc cr) (Inv loc tr ex gc cr) (begin_interrupted_individuals_service j sid) top.
+  Proof. intros Hd. unfold begin_interrupted_individuals_service. repeat sp_step. Qed.
+  Lemma spI_start_preemptor loc tr ex gc cr j i sid : cf_dyn cf = false ->
+    sp (Inv loc tr ex gc cr) (Inv loc tr ex gc cr) (start_preemptor cf j i sid) top.
+  Proof. intros Hd. unfold start_preemptor. repeat sp_step. Qed.
+
+  (* choose_next_customer picks a customer of that node who has a record *)
+  Lemma waiting_of_In q il c : In c (waiting_of q il) -> In c q /\ exists x, find_ind c il = Some x.
+  Proof.
+    induction q as [|i r IH]; cbn; [intros []|]. destruct (find_ind i il) as [x|] eqn:Ex; [|intros H; destruct (IH H); auto].
+    destruct (i_server x); [intros H; destruct (IH H); auto|]. intros [<-|H]; [split; [left; reflexivity|eauto]|destruct (IH H); auto].
+  Qed.
+  Lemma first_waiting_In qs il c : In c (first_waiting qs il) -> In c (concat qs) /\ exists x, find_ind c il = Some x.
+  Proof.
+    induction qs as [|q r IH]; cbn [first_waiting concat]; [intros []|]. destruct (waiting_of q il) as [|w0 wr] eqn:Ew.
+    - intros H. destruct (IH H) as [H1 H2]. split; [apply in_or_app; right; exact H1|exact H2].
+    - intros H. rewrite <- Ew in H. destruct (waiting_of_In _ _ _ H) as [H1 H2]. split; [apply in_or_app; left; exact H1|exact H2].
+  Qed.
+  Lemma last_In {A} (l : list A) (d : A) : In (last l d) (d :: l).
+  Proof. induction l as [|a l IH]; [left; reflexivity|]. destruct l as [|b l']; [right; left; reflexivity|]. change (last (a :: b :: l') d) with (last (b :: l') d). destruct IH as [IH|IH]; [left; exact IH|right; right; exact IH]. Qed.
+  Lemma choose_next_customer_inv j s c s' : choose_next_customer cf j s = Ok (Some c, s') ->
+    nodes s' = nodes s /\ inds s' = inds s /\
+    exists nd x, 1 <= j /\ nthZ (nodes s) (j - 1) = Some nd /\ In c (all_individuals nd) /\ find_ind c (inds s) = Some x.
+  Proof.
+    unfold choose_next_customer. intros H. minv H nd s1 E. apply Renege2.get_node_inv in E as (-> & Hj & Hn).
+    minv H il s1 E. apply Renege2.gets_inv in E as [-> ->].
+    destruct (first_waiting (n_queues nd) (inds s)) as [|w0 wr] eqn:Ew; [apply Renege2.ret_inv in H as [H _]; discriminate H|].
+    assert (Hall : forall c0, In c0 (w0 :: wr) -> In c0 (all_individuals nd) /\ exists x, find_ind c0 (inds s) = Some x).
+    { intros c0 Hc. rewrite <- Ew in Hc. apply first_waiting_In. exact Hc. }
+    minv H nc s1 E. apply Renege2.ncfg_of_inv in E as [-> _].
+    assert (Hfin : forall c0, In c0 (w0 :: wr) -> exists nd x, 1 <= j /\ nthZ (nodes s) (j - 1) = Some nd /\ In c0 (all_individuals nd) /\ find_ind c0 (inds s) = Some x).
+    { intros c0 Hc. destruct (Hall c0 Hc) as [H1 [x H2]]. exists nd, x. auto. }
+    destruct (nc_disc nc =? 0); [apply Renege2.ret_inv in H as [H ->]; injection H as <-; split; [reflexivity|split; [reflexivity|apply Hfin; left; reflexivity]]|].
+    destruct (nc_disc nc =? 1); [apply Renege2.ret_inv in H as [H ->]; injection H as ->; split; [reflexivity|split; [reflexivity|apply Hfin; apply last_In]]|].
+    minv H x0 s1 E. apply Renege2.choice_uniform_inv in E as (Hin & u & rest & _ & ->). apply Renege2.ret_inv in H as [H ->]. injection H as ->.
+    split; [reflexivity|split; [reflexivity|apply Hfin; exact Hin]].
+  Qed.
+  (* ... hence a customer that may be excused at that node *)
+  Lemma Inv_open_member loc tr gc cr s j nd c x : Inv loc tr None gc cr s -> 1 <= j -> nthZ (nodes s) (j - 1) = Some nd -> In c (all_individuals nd) ->
+    find_ind c (inds s) = Some x -> Inv loc tr (Some (c, j)) gc cr s.
+  Proof.
+    intros HI Hj Hn Hq Hx. pose proof HI as (_ & _ & _ & D0 & _ & F & G & _). destruct (Renege2.nthZ_nat _ _ _ Hn) as [_ Hn'].
+    destruct (G _ _ Hn') as (_ & _ & N3 & _). destruct (N3 _ Hq) as (_ & Ho & Hl). rewrite (Renege2.Idx_get _ _ _ D0 Hj Hn) in Hl.
+    rewrite Forall_forall in F. destruct (F x (Renege2.find_ind_In _ _ _ Hx)) as (_ & _ & XC & _). pose proof (Renege2.find_ind_id _ _ _ Hx) as Hid.
+    rewrite <- Hid in Ho. destruct (XC Ho) as ((j1 & Hj1 & Hl1) & _). rewrite Hid, Hl in Hl1. injection Hl1 as <-.
+    eapply Inv_open; eauto.
+  Qed.
+
+  Lemma sp_serve_with loc tr cr j sid : sp (InvG loc tr None cr) (InvG loc tr None cr) (serve_with cf j sid) top.
+  Proof.
+    intros s a s' (gc & HI) H. destruct a. split; [|exact Logic.I]. unfold serve_with in H.
+    minv H nd s1 E. destruct (spI_get_node _ _ _ _ _ j _ _ _ HI E) as [_ [Hnd _]]. apply Renege2.get_node_inv in E as (-> & Hj & Hn).
+    destruct Hnd as (_ & _ & _ & _ & (T0 & _)). destruct (0 <? n_nint nd) eqn:En.
+    { destruct reg_cases as [Hp|(Hp & Hd & _)]; [apply Z.ltb_lt in En; specialize (T0 Hp); lia|].
+      destruct (spI_biis loc tr None gc cr j sid Hd _ _ _ HI H) as [HJ _]. exists gc. exact HJ. }
+    minv H cand s1 E. destruct (spI_choose_next_customer _ _ _ _ _ j _ _ _ HI E) as [HI1 _].
+    destruct cand as [c|]; [|apply Renege2.ret_inv in H as [_ ->]; exists gc; exact HI1].
+    apply choose_next_customer_inv in E as (E1 & E2 & nd' & x & _ & Hn' & Hq & Hx). rewrite <- E1 in Hn'. rewrite <- E2 in Hx.
+    pose proof (Inv_open_member _ _ _ _ _ _ _ _ _ HI1 Hj Hn' Hq Hx) as HI2.
+    destruct (sp_start_give loc tr cr j c sid _ _ _ (InvG_of _ _ _ _ _ _ HI2) H) as [HI3 _]. exact HI3.
+  Qed.
+  Lemma sp_bsipr loc tr cr j freed : sp (InvG loc tr None cr) (InvG loc tr None cr) (begin_service_if_possible_release cf j freed) top.
+  Proof.
+    unfold begin_service_if_possible_release. destruct freed as [sid|]; [|apply sp_G; intros gc; apply Renege2.sp_ret; exact Logic.I].
+    apply sp_openG. intros gc. spb ltac:(apply spI_get_node). intros nd _.
+    destruct (find_server sid (n_servers nd)); [apply sp_fromG; apply sp_serve_with|apply sp_retG].
+  Qed.
+  Lemma sp_bsipcs loc tr cr j : sp (InvG loc tr None cr) (InvG loc tr None cr) (begin_service_if_possible_change_shift cf j) top.
+  Proof.
+    unfold begin_service_if_possible_change_shift. eapply Renege2.sp_bind with (phi := top); [apply sp_G; intros gc; eapply Renege2.sp_top; apply spI_get_node|]. intros nd _.
+    apply Renege2.sp_forM. intros sid. apply sp_serve_with.
+  Qed.
+
+  #[local] Hint Resolve spI_reset_class_change_nodyn spI_decide_class_change_nodyn : spdb.
+  Lemma spI_slot_loop loc tr ex gc cr : cf_dyn cf = false -> forall k j, sp (Inv loc tr ex gc cr) (Inv loc tr ex gc cr) (slot_loop cf k j) top.
+  Proof. intros Hd. induction k as [|k IH]; intros j; cbn [slot_loop]; [apply Renege2.sp_ret; exact Logic.I|]. repeat sp_step; apply IH. Qed.
+  (* ---------- the functions that move customers between nodes ---------- *)
+  Definition InvX (tr : Renege2.transit) (s : sim) : Prop := exists loc cr, InvG loc tr None cr s.
+  Lemma InvX_of loc tr gc cr s : Inv loc tr None gc cr s -> InvX tr s. Proof. intros H. exists loc, cr, gc. exact H. Qed.
+  Lemma InvX_ofG loc tr cr s : InvG loc tr None cr s -> InvX tr s. Proof. intros H. exists loc, cr. exact H. Qed.
+  Lemma sp_X {A} tr (m : M A) phi : (forall loc cr, sp (InvG loc tr None cr) (InvG loc tr None cr) m phi) -> sp (InvX tr) (InvX tr) m phi.
+  Proof. intros Hm s a s' (loc & cr & HI) H. destruct (Hm loc cr _ _ _ HI H) as [HJ Hp]. split; [exists loc, cr; exact HJ|exact Hp]. Qed.
+  Lemma sp_GX {A} (I0 : sim -> Prop) loc tr cr (m : M A) phi : sp I0 (InvG loc tr None cr) m phi -> sp I0 (InvX tr) m phi.
+  Proof. intros Hm. eapply Renege2.sp_post; [exact Hm|]. intros s0 H0. exists loc, cr. exact H0. Qed.
+  Lemma sp_XG {A} loc tr cr (J : sim -> Prop) (m : M A) phi : sp (InvX tr) J m phi -> sp (InvG loc tr None cr) J m phi.
+  Proof. intros Hm. eapply Renege2.sp_pre; [exact Hm|]. intros s0 H0. exists loc, cr. exact H0. Qed.
+  Lemma sp_fromX {A} loc tr gc cr (J : sim -> Prop) (m : M A) phi : sp (InvX tr) J m phi -> sp (Inv loc tr None gc cr) J m phi.
+  Proof. intros Hm. apply sp_fromG. apply sp_XG. exact Hm. Qed.
+  Lemma sp_toX {A} loc tr gc cr loc' tr' gc' (m : M A) phi : sp (Inv loc tr None gc cr) (Inv loc' tr' None gc' cr) m phi -> sp (Inv loc tr None gc cr) (InvX tr') m phi.
+  Proof. intros Hm. eapply Renege2.sp_post; [exact Hm|]. intros s0 H0. exists loc', cr, gc'. exact H0. Qed.
+  Lemma sp_retX {A} loc tr gc cr (a : A) : sp (Inv loc tr None gc cr) (InvX tr) (ret a) top.
+  Proof. eapply sp_toX. apply Renege2.sp_ret. exact Logic.I. Qed.
+
+  (* ---------- Node.accept after the stamps: the class-change clock, then begin_service_if_possible_accept ---------- *)
+  Lemma sp_accept_rest loc cr pre j k nc :
+    (cf_dyn cf = false -> forall a b c, (forall nc0, ncf a = Some nc0 -> nc_preempt nc0 <> 0) -> sp (InvX TNone) (InvX TNone) (pre a b c) top) ->
+    sp (InvG loc TNone (Some (k, j)) cr) (InvX TNone) (Renege2.accept_rest cf pre j k nc) top.
+  Proof.
+    intros Hpr. unfold Renege2.accept_rest. eapply Renege2.sp_bind with (phi := top); [apply sp_decide_class_change|]. intros _ _.
+    intros s a s' (gc & HI) H. destruct a. split; [|exact Logic.I].
+    minv H nd1 s1 E. apply Renege2.get_node_inv in E as (-> & Hj & Hn). cbv zeta in H.
+    destruct (nd_inf nd1) eqn:Einf.
+    - minv H cand s1 E. apply Renege2.ret_inv in E as [-> ->]. eapply InvX_ofG. exact (proj1 (sp_start_fresh_inf loc TNone cr j k true _ _ _ (InvG_of _ _ _ _ _ _ HI) H)).
+    - minv H cand s1 E. destruct (spI_choose_next_customer _ _ _ _ _ j _ _ _ HI E) as [HI1 _].
+      destruct cand as [c|]; [|apply Renege2.ret_inv in H as [_ ->]; eapply InvX_of; exact HI1].
+      apply choose_next_customer_inv in E as (E1 & E2 & nd' & x & _ & Hn' & Hq & Hx). rewrite <- E1 in Hn'. rewrite <- E2 in Hx.
+      minv H cx s2 E. apply Renege2.get_ind_inv in E as [-> _].
+      destruct (find_free_server_for (nc_spf nc) (i_cls cx) (n_servers nd1)) as [sv|].
+      + pose proof (Inv_open_member _ _ _ _ _ _ _ _ _ HI1 Hj Hn' Hq Hx) as HI2. eapply InvX_ofG.
+        exact (proj1 (sp_start_fresh_srv loc TNone cr j c (sv_id sv) true _ _ _ (InvG_of _ _ _ _ _ _ HI2) H)).
+      + destruct (0 <? numo (n_c nd1)); [|apply Renege2.ret_inv in H as [_ ->]; eapply InvX_of; exact HI1].
+        minv H v s2 E. destruct reg_cases as [Hp|(Hp & Hd & _)].
+        * destruct (spI_preempt_victim_nopre _ _ _ _ _ j c Hp _ _ _ HI1 E) as [HI2 ->]. apply Renege2.ret_inv in H as [_ ->]. eapply InvX_of. exact HI2.
+        * destruct (spI_preempt_victim _ _ _ _ _ j c _ _ _ HI1 E) as [HI2 Hv]. destruct v as [vi|]; [|apply Renege2.ret_inv in H as [_ ->]; eapply InvX_of; exact HI2].
+          destruct (Hv ltac:(discriminate)) as (nc0 & Hc0 & Hne).
+          refine (proj1 (Hpr Hd j vi c _ _ _ _ (InvX_of _ _ _ _ _ HI2) H)). intros nc1 Hc1. rewrite Hc0 in Hc1. injection Hc1 as <-. exact Hne.
+  Qed.
 
   (* ---------- changes of the transit state ---------- *)
-  Lemma NodeT_same nd nd' : NodeT nd -> n_id nd' = n_id nd -> n_c nd' = n_c nd -> n_servers nd' = n_servers nd ->
-    n_spos nd' = n_spos nd -> n_next_shift nd' = n_next_shift nd -> NodeT nd'.
-  Proof. unfold NodeT, nd_inf. intros H -> -> -> -> ->. exact H. Qed.
-  Lemma IndOK_TNone_TOut loc cr i y : IndOK loc TNone cr y -> IndOK loc (TOut i) cr y.
-  Proof. intros (A & B & C). split; [exact A|]. split; [exact B|]. intros _. apply C. reflexivity. Qed.
+  Lemma IndOK_TNone_TOut loc ex gc cr i y : IndOK loc TNone ex gc cr y -> IndOK loc (TOut i) ex gc cr y.
+  Proof. intros (A & B & C & C4). split; [exact A|]. split; [exact B|]. split; [|exact C4]. intros _. apply C. reflexivity. Qed.
   Lemma out_TOut_false k id : out (TOut k) id = false -> (id =? k) = false.
   Proof. cbn. rewrite Z.eqb_sym. auto. Qed.
 
-  (* T1: a customer is taken out of its queue *)
-  Lemma Inv_remove loc cr s j nd nd1 prio q q' i : Inv loc TNone cr s -> 1 <= j -> nthZ (nodes s) (j - 1) = Some nd ->
+  (* T1: a customer is taken out of its queue (if it is its node's next class-change customer it must be the excused one) *)
+  Lemma Inv_remove loc ex gc cr s j nd nd1 prio q q' i : Inv loc TNone ex gc cr s -> 1 <= j -> nthZ (nodes s) (j - 1) = Some nd ->
     nthZ (n_queues nd) prio = Some q -> remove_first i q = Some q' ->
     n_id nd1 = n_id nd -> n_queues nd1 = updZ (n_queues nd) prio q' -> n_c nd1 = n_c nd -> n_servers nd1 = n_servers nd ->
-    n_spos nd1 = n_spos nd -> n_next_shift nd1 = n_next_shift nd ->
-    Inv loc (TOut i) cr (s <| nodes := updZ (nodes s) (n_id nd1 - 1) nd1 |>).
+    n_spos nd1 = n_spos nd -> n_next_shift nd1 = n_next_shift nd -> n_nccd nd1 = n_nccd nd -> n_ncci nd1 = n_ncci nd -> n_nint nd1 = n_nint nd ->
+    (cf_dyn cf = true -> nd_inf nd = false -> n_ncci nd = Some i -> ex = Some (i, j)) ->
+    Inv loc (TOut i) ex gc cr (s <| nodes := updZ (nodes s) (n_id nd1 - 1) nd1 |>).
   Proof.
-    intros (A & B & C & D0 & E & F & G & H & K & L) Hj Hn Hq Hq' E1 E2 E3 E4 E5 E6.
-    pose proof (R.Idx_get _ _ _ D0 Hj Hn) as Hidn. destruct (R.nthZ_nat _ _ _ Hn) as [Hj0 Hn'].
-    pose proof (G _ _ Hn') as (N1 & N2 & N3 & N4 & N5).
-    assert (P : Permutation (all_individuals nd) (i :: all_individuals nd1)) by (unfold all_individuals; rewrite E2; apply (R.concat_remove _ _ _ _ _ Hq Hq')).
+    intros (A & B & C & D0 & E & F & G & H & K & L) Hj Hn Hq Hq' E1 E2 E3 E4 E5 E6 E7 E8 E9 Hnc.
+    pose proof (Renege2.Idx_get _ _ _ D0 Hj Hn) as Hidn. destruct (Renege2.nthZ_nat _ _ _ Hn) as [Hj0 Hn'].
+    pose proof (G _ _ Hn') as (N1 & N2 & N3 & N4 & (T0 & T1 & T2)).
+    assert (P : Permutation (all_individuals nd) (i :: all_individuals nd1)) by (unfold all_individuals; rewrite E2; apply (Renege2.concat_remove _ _ _ _ _ Hq Hq')).
     assert (Hi_in : In i (all_individuals nd)) by (eapply Permutation_in; [symmetry; exact P|left; reflexivity]).
     assert (ND : NoDup (i :: all_individuals nd1)) by (eapply Permutation_NoDup; eauto). inversion ND as [|? ? ND1 ND2].
     unfold Inv. cbn [now arr nodes inds dr set].
-    split; [exact A|]. split; [exact B|]. split; [rewrite R.length_updZ; exact C|]. split; [unfold Idx; cbn [nodes set]; apply R.Idx_updZ; exact D0|].
+    split; [exact A|]. split; [exact B|]. split; [rewrite Renege2.length_updZ; exact C|]. split; [unfold Idx; cbn [nodes set]; apply Renege2.Idx_updZ; exact D0|].
     split; [exact E|]. split; [eapply Forall_impl; [|exact F]; intros y Hy; apply IndOK_TNone_TOut; exact Hy|]. split; [|auto].
     intros kk y Hk. rewrite E1, Hidn in Hk. unfold updZ in Hk. destruct (j - 1 <? 0) eqn:Ej; [apply Z.ltb_lt in Ej; lia|].
-    destruct (R.nth_error_upd_cases _ _ _ _ _ Hk) as [[-> ->]|[Hne Hk']].
+    destruct (Renege2.nth_error_upd_cases _ _ _ _ _ Hk) as [[-> ->]|[Hne Hk']].
     - split; [unfold nd_inf in *; rewrite E3, E1; exact N1|]. split; [exact ND2|]. split; [|split].
       + intros id Hi. assert (Hi' : In id (all_individuals nd)) by (eapply Permutation_in; [symmetry; exact P|right; exact Hi]).
         destruct (N3 _ Hi') as (I1 & _ & I3). split; [exact I1|]. split; [|rewrite E1; exact I3].
         cbn. apply Z.eqb_neq. intros <-. exact (ND1 Hi).
       + intros id Ho Hl. rewrite E1 in Hl. assert (Hi' : In id (all_individuals nd)) by (apply N4; [reflexivity|exact Hl]).
         apply (Permutation_in _ P) in Hi'. destruct Hi' as [<-|Hi']; [cbn in Ho; rewrite Z.eqb_refl in Ho; discriminate|exact Hi'].
-      + apply (NodeT_same nd); assumption.
+      + unfold NodeT, nd_inf in *. rewrite E1, E3, E4, E5, E6, E7, E8, E9. split; [exact T0|]. split; [|exact T2].
+        intros Hd. destruct (T1 Hd) as [T3 T4]. split; [exact T3|]. intros Hi. destruct (T4 Hi) as [T5 T6]. split; [exact T5|].
+        intros i' Hc. destruct (Z.eq_dec i' i) as [->|Hne].
+        * right. rewrite Hidn. apply Hnc; assumption.
+        * destruct (T6 i' Hc) as [Q|Q]; [|right; exact Q]. left. apply (Permutation_in _ P) in Q. destruct Q as [Q|Q]; [congruence|exact Q].
     - pose proof (G _ _ Hk') as (M1 & M2 & M3 & M4 & M5). pose proof (D0 _ _ Hk') as Hidy. split; [exact M1|]. split; [exact M2|]. split; [|split].
       + intros id Hi. destruct (M3 _ Hi) as (I1 & _ & I3). split; [exact I1|]. split; [|exact I3].
         cbn. apply Z.eqb_neq. intros <-. destruct (N3 _ Hi_in) as (_ & _ & I3'). rewrite I3 in I3'. injection I3' as I3'. apply Hne. lia.
@@ -741,247 +1142,550 @@ Section Clock2.
       + exact M5.
   Qed.
 
-  (* T3: the customer in transit has been put into the queue of node j and stamped: nobody is in transit any more *)
-  Lemma Inv_after_stamp loc cr k s x nd j q nc rd rest : Inv loc (TOut k) cr s -> find_ind k (inds s) = Some x -> 1 <= j ->
+  (* the stamped record, field by field *)
+  Lemma acc_id x j p t0 rd : i_id (Renege2.accepted_ind x j p t0 rd) = i_id x. Proof. destruct x; reflexivity. Qed.
+  Lemma acc_node x j p t0 rd : i_node (Renege2.accepted_ind x j p t0 rd) = Some j. Proof. destruct x; reflexivity. Qed.
+  Lemma acc_ren x j p t0 rd : i_ren (Renege2.accepted_ind x j p t0 rd) = rd. Proof. destruct x; reflexivity. Qed.
+  Lemma acc_server x j p t0 rd : i_server (Renege2.accepted_ind x j p t0 rd) = i_server x. Proof. destruct x; reflexivity. Qed.
+  Lemma acc_stime x j p t0 rd : i_stime (Renege2.accepted_ind x j p t0 rd) = i_stime x. Proof. destruct x; reflexivity. Qed.
+  Lemma acc_ost x j p t0 rd : i_ost (Renege2.accepted_ind x j p t0 rd) = i_ost x. Proof. destruct x; reflexivity. Qed.
+  Lemma acc_smark x j p t0 rd : i_smark (Renege2.accepted_ind x j p t0 rd) = i_smark x. Proof. destruct x; reflexivity. Qed.
+
+  (* T3: the customer in transit has been put into the queue of node j and stamped: nobody is in transit any more; the newcomer is
+     excused until its class-change clock has been set *)
+  Lemma Inv_after_stamp loc gc cr k s x nd j q nc rd rest : Inv loc (TOut k) None gc cr s -> find_ind k (inds s) = Some x -> 1 <= j ->
     nthZ (nodes s) (j - 1) = Some nd -> nthZ (n_queues nd) (i_prio x) = Some q -> nthZ (cf_nodes cf) (j - 1) = Some nc ->
-    R.stamp_of nc x (now s) (d_ren (dr s)) = Some (rd, rest) ->
-    Inv (fun id => if id =? k then Some j else loc id) TNone cr (R.after_stamp s x nd j q rd rest).
+    Renege2.stamp_of nc x (now s) (d_ren (dr s)) = Some (rd, rest) ->
+    Inv (fun id => if id =? k then Some j else loc id) TNone (Some (k, j)) gc cr (Renege2.after_stamp s x nd j q rd rest).
   Proof.
     intros (A & B & C & D0 & E & F & G & H & K & L) Hx Hj Hn Hq Hc Hst.
-    pose proof (R.find_ind_id _ _ _ Hx) as Hid. pose proof (R.find_ind_In _ _ _ Hx) as Hin.
-    rewrite Forall_forall in F. pose proof (F _ Hin) as (XA & XB & XC).
-    pose proof (R.Idx_get _ _ _ D0 Hj Hn) as Hidn. destruct (R.nthZ_nat _ _ _ Hn) as [Hj0 Hn'].
-    pose proof (G _ _ Hn') as (N1 & N2 & N3 & N4 & N5).
+    pose proof (Renege2.find_ind_id _ _ _ Hx) as Hid. pose proof (Renege2.find_ind_In _ _ _ Hx) as Hin.
+    rewrite Forall_forall in F. pose proof (F _ Hin) as (XA & XB & XC & XD).
+    pose proof (Renege2.Idx_get _ _ _ D0 Hj Hn) as Hidn. destruct (Renege2.nthZ_nat _ _ _ Hn) as [Hj0 Hn'].
+    pose proof (G _ _ Hn') as (N1 & N2 & N3 & N4 & (T0 & T1 & T2)).
     set (loc' := fun id => if id =? k then Some j else loc id).
     assert (Hk_notin : ~ In k (all_individuals nd)). { intros Hi. destruct (N3 _ Hi) as (_ & Ho & _). cbn in Ho. rewrite Z.eqb_refl in Ho. discriminate. }
-    unfold Inv, R.after_stamp. cbn [now arr nodes inds dr].
-    split; [exact A|]. split; [exact B|]. split; [rewrite R.length_updZ; exact C|].
-    split; [unfold Idx; cbn [nodes]; change (n_id nd) with (n_id (nd <| n_queues := updZ (n_queues nd) (i_prio x) (q ++ [i_id x]) |> <| n_pop := n_pop nd + 1 |>)); apply R.Idx_updZ; exact D0|].
-    split; [apply R.NoDup_put_ind; exact E|].
+    unfold Inv, Renege2.after_stamp. cbn [now arr nodes inds dr].
+    split; [exact A|]. split; [exact B|]. split; [rewrite Renege2.length_updZ; exact C|].
+    split; [unfold Idx; cbn [nodes]; change (n_id nd) with (n_id (nd <| n_queues := updZ (n_queues nd) (i_prio x) (q ++ [i_id x]) |> <| n_pop := n_pop nd + 1 |>)); apply Renege2.Idx_updZ; exact D0|].
+    split; [apply Renege2.NoDup_put_ind; exact E|].
     split.
-    { apply R.Forall_put_ind; [exact E| |].
-      - intros y Hy Hne. change (i_id (R.accepted_ind x j (n_pop nd) (now s) rd)) with (i_id x) in Hne. destruct (F y Hy) as (YA & YB & YC). split; [exact YA|]. split; [exact YB|].
-        intros _. assert (Ho : out (TOut k) (i_id y) = false) by (cbn; apply Z.eqb_neq; congruence).
-        destruct (YC Ho) as [(jj & Hjj & Hl) HP]. split; [|exact HP]. exists jj. split; [exact Hjj|]. unfold loc'. rewrite (out_TOut_false _ _ Ho). exact Hl.
-      - split; [exact XA|]. split; [exact XB|].
-        intros _. split; [exists j; split; [reflexivity|]; unfold loc'; change (i_id (R.accepted_ind x j (n_pop nd) (now s) rd)) with (i_id x); rewrite Hid, Z.eqb_refl; reflexivity|].
-        intros j' z Hj' Hr Hi Hz Hs. cbn in Hj'. injection Hj' as <-. unfold ren_at, ncf in Hr. rewrite Hc in Hr. unfold R.stamp_of in Hst. rewrite Hr in Hst.
-        cbn in Hz. destruct L as (_ & _ & L3 & _). unfold nonneg in L3.
-        destruct (nthZ (nc_ren nc) (i_cls x)) as [[|]|]; [destruct (d_ren (dr s)) as [|p r] eqn:Ed; [discriminate|]; injection Hst as <- <-|injection Hst as <- <-|discriminate].
-        + injection Hz as <-. inversion L3 as [|? ? K1 K2]. lia.
-        + discriminate. }
+    { apply Renege2.Forall_put_ind; [exact E| |].
+      - intros y Hy Hne. rewrite acc_id in Hne. destruct (F y Hy) as (YA & YB & YC & YD). split; [exact YA|]. split; [exact YB|]. split.
+        + intros _. assert (Ho : out (TOut k) (i_id y) = false) by (cbn; apply Z.eqb_neq; congruence).
+          destruct (YC Ho) as ((jj & Hjj & Hl) & HP & HQ). split; [exists jj; split; [exact Hjj|]; unfold loc'; rewrite (out_TOut_false _ _ Ho); exact Hl|]. split; [exact HP|].
+          intros Hd j0 Hj0' Hi. destruct (HQ Hd j0 Hj0' Hi) as [Ca Cb]. split.
+          * intros Hs z Hz. destruct (Ca Hs z Hz) as [Q|Q]; [discriminate Q|right; exact Q].
+          * intros Hg. destruct (Cb Hg) as [Q|Q]; [left; exact Q|discriminate Q].
+        + intros j1 He. injection He as He _. exfalso. apply Hne. congruence.
+      - unfold IndOK, IP, CCI. rewrite acc_id, acc_node, acc_ren, acc_server, acc_stime, acc_ost, acc_smark, Hid.
+        split; [rewrite <- Hid; exact XA|]. split; [exact XB|]. split.
+        + intros _. split; [exists j; split; [reflexivity|]; unfold loc'; rewrite Z.eqb_refl; reflexivity|]. split.
+          * intros j' z Hj' Hr Hi Hz Hs. injection Hj' as <-. unfold ren_at, ncf in Hr. rewrite Hc in Hr. unfold Renege2.stamp_of in Hst. rewrite Hr in Hst.
+            destruct L as (_ & _ & L3 & _). unfold nonneg in L3.
+            destruct (nthZ (nc_ren nc) (i_cls x)) as [[|]|]; [destruct (d_ren (dr s)) as [|p r] eqn:Ed; [discriminate|]; injection Hst as <- <-|injection Hst as <- <-|discriminate].
+            -- injection Hz as <-. inversion L3 as [|? ? K1 K2]. lia.
+            -- discriminate.
+          * intros Hd j0 Hj0' Hi. injection Hj0' as <-.
+            split; [intros _ z _; left; reflexivity|intros _; right; reflexivity].
+        + intros j1 He. injection He as <-. split; [reflexivity|]. unfold loc'. rewrite Z.eqb_refl. reflexivity. }
     split.
     { intros kk y Hk. rewrite Hidn in Hk. unfold updZ in Hk. destruct (j - 1 <? 0) eqn:Ej; [apply Z.ltb_lt in Ej; lia|].
-      destruct (R.nth_error_upd_cases _ _ _ _ _ Hk) as [[-> ->]|[Hne Hk']].
+      destruct (Renege2.nth_error_upd_cases _ _ _ _ _ Hk) as [[-> ->]|[Hne Hk']].
       - assert (P : Permutation (all_individuals (nd <| n_queues := updZ (n_queues nd) (i_prio x) (q ++ [i_id x]) |> <| n_pop := n_pop nd + 1 |>)) (k :: all_individuals nd)).
-        { unfold all_individuals. cbn [n_queues set]. rewrite Hid. apply R.concat_append. exact Hq. }
+        { unfold all_individuals. cbn [n_queues set]. rewrite Hid. apply Renege2.concat_append. exact Hq. }
         split; [exact N1|]. split; [eapply Permutation_NoDup; [symmetry; exact P|constructor; assumption]|]. split; [|split].
         + intros id Hi. apply (Permutation_in _ P) in Hi. destruct Hi as [<-|Hi].
           * split; [rewrite <- Hid; exact XA|]. split; [reflexivity|]. unfold loc'. rewrite Z.eqb_refl. cbn [n_id set]. rewrite Hidn. reflexivity.
           * destruct (N3 _ Hi) as (I1 & I2 & I3). split; [exact I1|]. split; [reflexivity|]. unfold loc'. rewrite (out_TOut_false _ _ I2). exact I3.
         + intros id _ Hl. eapply Permutation_in; [symmetry; exact P|]. unfold loc' in Hl. destruct (id =? k) eqn:Ek; [left; symmetry; apply Z.eqb_eq; exact Ek|].
           right. apply N4; [cbn; rewrite Z.eqb_sym; exact Ek|exact Hl].
-        + apply (NodeT_same nd); [exact N5|reflexivity..].
-      - pose proof (G _ _ Hk') as (M1 & M2 & M3 & M4 & M5). pose proof (D0 _ _ Hk') as Hidy. split; [exact M1|]. split; [exact M2|]. split; [|split; [|exact M5]].
+        + unfold NodeT, nd_inf in *. cbn [n_id n_c n_servers n_spos n_next_shift n_nccd n_ncci n_nint set]. split; [exact T0|]. split; [|exact T2].
+          intros Hd. destruct (T1 Hd) as [T3 T4]. split; [exact T3|]. intros Hi. destruct (T4 Hi) as [T5 T6]. split; [exact T5|].
+          intros i' Hc'. destruct (T6 i' Hc') as [Q|Q]; [|discriminate Q]. left. eapply Permutation_in; [symmetry; exact P|]. right. exact Q.
+      - pose proof (G _ _ Hk') as (M1 & M2 & M3 & M4 & (U0 & U1 & U2)). pose proof (D0 _ _ Hk') as Hidy. split; [exact M1|]. split; [exact M2|]. split; [|split].
         + intros id Hi. destruct (M3 _ Hi) as (I1 & I2 & I3). split; [exact I1|]. split; [reflexivity|]. unfold loc'. rewrite (out_TOut_false _ _ I2). exact I3.
         + intros id _ Hl. unfold loc' in Hl. destruct (id =? k) eqn:Ek; [injection Hl as Hl; exfalso; apply Hne; lia|].
-          apply M4; [cbn; rewrite Z.eqb_sym; exact Ek|exact Hl]. }
+          apply M4; [cbn; rewrite Z.eqb_sym; exact Ek|exact Hl].
+        + split; [exact U0|]. split; [|exact U2]. intros Hd. destruct (U1 Hd) as [U3 U4]. split; [exact U3|]. intros Hi. destruct (U4 Hi) as [U5 U6]. split; [exact U5|].
+          intros i' Hc'. destruct (U6 i' Hc') as [Q|Q]; [left; exact Q|discriminate Q]. }
     split.
     { intros id jj Hl. unfold loc' in Hl. destruct (id =? k); [|eapply H; eauto]. injection Hl as <-. split; [exact Hj|].
       assert (Hlt : (Z.to_nat (j - 1) < length (nodes s))%nat) by (apply nth_error_Some; rewrite Hn'; discriminate). lia. }
     split; [exact K|].
     destruct L as (L1 & L2 & L3 & L4). destruct rest as [r|]; [|unfold DrawsOK; auto].
     unfold DrawsOK. cbn [d_svc d_arr d_ren d_cct set]. repeat (split; [assumption|]). split; [|exact L4].
-    unfold R.stamp_of in Hst. destruct (nc_reneging nc); [|discriminate].
+    unfold Renege2.stamp_of in Hst. destruct (nc_reneging nc); [|discriminate].
     destruct (nthZ (nc_ren nc) (i_cls x)) as [[|]|]; [|discriminate|discriminate].
     destruct (d_ren (dr s)) as [|p r0] eqn:Ed; [discriminate|]. injection Hst as _ <-. unfold nonneg in L3. inversion L3; assumption.
   Qed.
 
   (* T4: the customer in transit leaves by the exit *)
-  Lemma sp_exit_accept loc cr k c :
-    sp (Inv loc (TOut k) cr) (Inv (fun id => if id =? k then None else loc id) TNone cr) (exit_accept k c) top.
+  Lemma sp_exit_accept loc gc cr k c :
+    sp (Inv loc (TOut k) None gc cr) (Inv (fun id => if id =? k then None else loc id) TNone None gc cr) (exit_accept k c) top.
   Proof.
     intros s a s' (A & B & C & D0 & E & F & G & H & K & L) HH. unfold exit_accept, del_ind, bind, modify in HH. injection HH as _ <-.
     split; [|exact Logic.I]. set (loc' := fun id => if id =? k then None else loc id).
-    destruct (R.NoDup_del_ind k _ E) as [E' Hne]. rewrite Forall_forall in F.
+    destruct (Renege2.NoDup_del_ind k _ E) as [E' Hne]. rewrite Forall_forall in F.
     unfold Inv. cbn [now arr nodes inds dr set]. repeat (split; [assumption|]).
     split.
-    { apply Forall_forall. intros y Hy. pose proof (Hne _ Hy) as Hyk. destruct (F y (R.In_del_ind _ _ _ Hy)) as (YA & YB & YC). split; [exact YA|]. split; [exact YB|].
+    { apply Forall_forall. intros y Hy. pose proof (Hne _ Hy) as Hyk. destruct (F y (Renege2.In_del_ind _ _ _ Hy)) as (YA & YB & YC & YD). split; [exact YA|]. split; [exact YB|]. split; [|intros j1 He; discriminate He].
       intros _. assert (Ho : out (TOut k) (i_id y) = false) by (cbn; apply Z.eqb_neq; congruence).
-      destruct (YC Ho) as [(jj & Hjj & Hl) HP]. split; [|exact HP]. exists jj. split; [exact Hjj|]. unfold loc'. rewrite (out_TOut_false _ _ Ho). exact Hl. }
+      destruct (YC Ho) as ((jj & Hjj & Hl) & HP). split; [|exact HP]. exists jj. split; [exact Hjj|]. unfold loc'. rewrite (out_TOut_false _ _ Ho). exact Hl. }
     split; [|split; [|auto]].
     - intros kk y Hk. pose proof (G _ _ Hk) as (M1 & M2 & M3 & M4 & M5). split; [exact M1|]. split; [exact M2|]. split; [|split; [|exact M5]].
       + intros id Hi. destruct (M3 _ Hi) as (I1 & I2 & I3). split; [exact I1|]. split; [reflexivity|]. unfold loc'. rewrite (out_TOut_false _ _ I2). exact I3.
       + intros id _ Hl. unfold loc' in Hl. destruct (id =? k) eqn:Ek; [discriminate|]. apply M4; [cbn; rewrite Z.eqb_sym; exact Ek|exact Hl].
     - intros id jj Hl. unfold loc' in Hl. destruct (id =? k); [discriminate|eapply H; eauto].
   Qed.
-
-  (* ---------- the functions that move customers between nodes ---------- *)
-  Definition InvX (tr : R.transit) (s : sim) : Prop := exists loc cr, Inv loc tr cr s.
-  Lemma InvX_of loc tr cr s : Inv loc tr cr s -> InvX tr s. Proof. intros H. exists loc, cr. exact H. Qed.
-  Lemma sp_X {A} tr (m : M A) phi : (forall loc cr, sp (Inv loc tr cr) (Inv loc tr cr) m phi) -> sp (InvX tr) (InvX tr) m phi.
-  Proof. intros Hm s a s' (loc & cr & HI) H. destruct (Hm loc cr _ _ _ HI H) as [HJ Hp]. split; [exists loc, cr; exact HJ|exact Hp]. Qed.
-  Lemma sp_toX {A} loc tr cr tr' (m : M A) phi : sp (Inv loc tr cr) (Inv loc tr' cr) m phi -> sp (Inv loc tr cr) (InvX tr') m phi.
-  Proof. intros Hm. eapply R.sp_post; [exact Hm|]. intros s0 H0. exists loc, cr. exact H0. Qed.
-  Lemma sp_fromX {A} loc tr cr (J : sim -> Prop) (m : M A) phi : sp (InvX tr) J m phi -> sp (Inv loc tr cr) J m phi.
-  Proof. intros Hm. eapply R.sp_pre; [exact Hm|]. intros s0 H0. exists loc, cr. exact H0. Qed.
-  Lemma sp_retX {A} loc tr cr (a : A) : sp (Inv loc tr cr) (InvX tr) (ret a) top.
-  Proof. apply sp_toX. apply R.sp_ret. exact Logic.I. Qed.
-
-  Lemma sp_accept_body pre j k : sp (InvX (TOut k)) (InvX TNone) (R.accept_body cf pre j k) top.
+  Lemma sp_accept_body pre j k :
+    (cf_dyn cf = false -> forall a b c, (forall nc0, ncf a = Some nc0 -> nc_preempt nc0 <> 0) -> sp (InvX TNone) (InvX TNone) (pre a b c) top) ->
+    sp (InvX (TOut k)) (InvX TNone) (Renege2.accept_body cf pre j k) top.
   Proof.
-    intros s a s' (loc & cr & HI) H. destruct a.
-    apply R.accept_stamps in H as (x & nd & q & nc & rd & rest & Hx & Hj & Hn & Hq & Hc & Hst & H).
-    pose proof (Inv_after_stamp _ _ _ _ _ _ _ _ _ _ _ HI Hx Hj Hn Hq Hc Hst) as HI1.
-    destruct (spI_accept_rest _ _ _ pre j k nc _ _ _ HI1 H) as [HI2 _]. split; [eapply InvX_of; exact HI2|exact Logic.I].
+    intros Hpr s a s' (loc & cr & gc & HI) H. destruct a.
+    apply Renege2.accept_stamps in H as (x & nd & q & nc & rd & rest & Hx & Hj & Hn & Hq & Hc & Hst & H).
+    pose proof (Inv_after_stamp _ _ _ _ _ _ _ _ _ _ _ _ HI Hx Hj Hn Hq Hc Hst) as HI1.
+    exact (sp_accept_rest _ cr pre j k nc Hpr _ _ _ (InvG_of _ _ _ _ _ _ HI1) H).
   Qed.
 
-  Lemma sp_release_body acc rbi j i d :
-    (forall d' k, sp (InvX (TOut k)) (InvX TNone) (acc d' k) top) -> (forall j', sp (InvX TNone) (InvX TNone) (rbi j') top) ->
-    sp (InvX TNone) (InvX TNone) (R.release_body cf acc rbi j i d false) top.
+  Lemma nthZ_updZ_eq {A} (l : list A) k x y : nthZ l k = Some y -> nthZ (updZ l k x) k = Some x.
+  Proof. unfold nthZ, updZ. destruct (k <? 0); [discriminate|]. apply Renege2.nth_error_upd_eq. Qed.
+  (* release of a customer of a node with servers: the customer has a server (Python would raise otherwise) *)
+  Lemma release_peek acc rbi j i d s a s' x nd nc : Idx s -> Renege2.release_body cf acc rbi j i d false s = Ok (a, s') ->
+    find_ind i (inds s) = Some x -> 1 <= j -> nthZ (nodes s) (j - 1) = Some nd -> nthZ (cf_nodes cf) (j - 1) = Some nc ->
+    nd_inf nd = false -> nc_slotted nc = false -> i_server x <> None.
   Proof.
-    intros Hacc Hrbi s a s' (loc & cr & HI) H. unfold R.release_body in H.
-    minv H t0 s0 E. apply R.tnow_inv in E as [-> ->].
-    minv H x s0 E. apply R.get_ind_inv in E as [-> Hx].
-    minv H nd s0 E. apply R.get_node_inv in E as (-> & Hj & Hn).
-    minv H nc s0 E. apply R.ncfg_of_inv in E as [-> Hc].
-    minv H q s0 E. apply R.lift_inv in E as [Hq ->]. minv H q' s0 E. apply R.lift_inv in E as [Hq' ->].
+    intros HX H Hx Hj Hn Hc Hi Hs. unfold Renege2.release_body in H.
+    minv H t0 s0 E. apply Renege2.tnow_inv in E as [-> ->].
+    minv H x0 s0 E. apply Renege2.get_ind_inv in E as [-> Hx0]. rewrite Hx in Hx0. injection Hx0 as <-.
+    minv H nd0 s0 E. apply Renege2.get_node_inv in E as (-> & _ & Hn0). rewrite Hn in Hn0. injection Hn0 as <-.
+    minv H nc0 s0 E. apply Renege2.ncfg_of_inv in E as [-> Hc0]. rewrite Hc in Hc0. injection Hc0 as <-.
+    minv H q s0 E. apply Renege2.lift_inv in E as [Hq ->]. minv H q' s0 E. apply Renege2.lift_inv in E as [Hq' ->].
+    cbv zeta in H. minv H u s1 E. unfold put_node in E. apply Renege2.modify_inv in E. subst s1.
+    minv H u1 s1 E. unfold put_ind in E. apply Renege2.modify_inv in E. subst s1.
+    minv H u2 s1 E. clear H. unfold write_individual_record in E.
+    minv E x1 s2 E1. apply Renege2.get_ind_inv in E1 as [-> Hx1]. cbn [inds set] in Hx1. rewrite Renege2.find_put_ind in Hx1. cbn [i_id set] in Hx1.
+    rewrite (Renege2.find_ind_id _ _ _ Hx), Z.eqb_refl in Hx1. injection Hx1 as <-.
+    minv E nd1 s2 E1. apply Renege2.get_node_inv in E1 as (-> & _ & Hn1). cbn [nodes set n_id] in Hn1. rewrite (Renege2.Idx_get _ _ _ HX Hj Hn) in Hn1.
+    rewrite (nthZ_updZ_eq _ _ _ _ Hn) in Hn1. injection Hn1 as <-.
+    minv E nc1 s2 E1. apply Renege2.ncfg_of_inv in E1 as [-> Hc1]. rewrite Hc in Hc1. injection Hc1 as <-.
+    minv E sid s2 E1. clear E. unfold nd_inf in *. cbn [n_c set] in E1. rewrite Hi, Hs in E1. cbn in E1.
+    minv E1 sv s3 E2. apply Renege2.lift_inv in E2 as [E2 _]. cbn [i_server set] in E2. congruence.
+  Qed.
+
+  Lemma sp_release_body acc rbi j i d rr : rr = false \/ cf_dyn cf = false ->
+    (forall d' k, sp (InvX (TOut k)) (InvX TNone) (acc d' k) top) -> (forall j', sp (InvX TNone) (InvX TNone) (rbi j') top) ->
+    sp (InvX TNone) (InvX TNone) (Renege2.release_body cf acc rbi j i d rr) top.
+  Proof.
+    intros Hrr Hacc Hrbi s a s' (loc & cr & gc & HI) H. pose proof H as Hpeek. unfold Renege2.release_body in H.
+    minv H t0 s0 E. apply Renege2.tnow_inv in E as [-> ->].
+    minv H x s0 E. apply Renege2.get_ind_inv in E as [-> Hx].
+    minv H nd s0 E. apply Renege2.get_node_inv in E as (-> & Hj & Hn).
+    minv H nc s0 E. apply Renege2.ncfg_of_inv in E as [-> Hc].
+    minv H q s0 E. apply Renege2.lift_inv in E as [Hq ->]. minv H q' s0 E. apply Renege2.lift_inv in E as [Hq' ->].
     cbv zeta in H. minv H u s1 E. match type of E with put_node ?n _ = _ => set (nd1 := n) in * end.
-    unfold put_node in E. apply R.modify_inv in E. subst s1.
-    assert (HI1 := Inv_remove loc cr s j nd nd1 (i_pprio x) q q' i HI Hj Hn Hq Hq' eq_refl eq_refl eq_refl eq_refl eq_refl eq_refl).
-    assert (Hix : IndOK loc (TOut i) cr x).
-    { apply IndOK_TNone_TOut. destruct HI as (_ & _ & _ & _ & _ & F & _). rewrite Forall_forall in F. apply F. eapply R.find_ind_In; eauto. }
-    pose proof (R.find_ind_id _ _ _ Hx) as Hid.
+    unfold put_node in E. apply Renege2.modify_inv in E. subst s1.
+    pose proof (Renege2.find_ind_id _ _ _ Hx) as Hid.
+    assert (Hnc : cf_dyn cf = true -> nd_inf nd = false -> n_ncci nd = Some i -> @None (Z * Z) = Some (i, j)).
+    { intros Hd Hi Hci. exfalso. destruct Hrr as [ -> | Hrr ]; [|congruence]. pose proof HI as (_ & _ & _ & D0 & _ & F & G & _).
+      apply (release_peek _ _ _ _ _ _ _ _ x nd nc D0 Hpeek Hx Hj Hn Hc Hi); [apply (Hdns Hd); eapply Renege2.nthZ_In; exact Hc|].
+      destruct (Renege2.nthZ_nat _ _ _ Hn) as [_ Hn']. destruct (G _ _ Hn') as (N1 & _ & N3 & _ & (_ & T1 & _)). destruct (T1 Hd) as [T3 _].
+      pose proof (Renege2.Idx_get _ _ _ D0 Hj Hn) as Hidn. rewrite Hidn in *.
+      assert (Hq_in : In i (all_individuals nd)).
+      { apply Renege2.nthZ_In in Hq. unfold all_individuals. apply in_concat. exists q. split; [exact Hq|]. eapply Permutation_in; [symmetry; apply (Renege2.remove_first_perm _ _ _ Hq')|left; reflexivity]. }
+      destruct (N3 _ Hq_in) as (_ & Ho & Hl). rewrite Forall_forall in F. destruct (F x (Renege2.find_ind_In _ _ _ Hx)) as (_ & _ & XC & _).
+      rewrite <- Hid in Ho. destruct (XC Ho) as ((j1 & Hj1 & Hl1) & _ & X3). rewrite Hid, Hl in Hl1. injection Hl1 as <-.
+      destruct (X3 Hd _ Hj1 ltac:(rewrite <- N1; exact Hi)) as [_ Cb]. rewrite <- T3 in Cb. cbn [snd] in Cb. rewrite Hid in Cb.
+      destruct (Cb Hci) as [Q|Q]; [exact Q|discriminate Q]. }
+    assert (HI1 := Inv_remove loc None gc cr s j nd nd1 (i_pprio x) q q' i HI Hj Hn Hq Hq' eq_refl eq_refl eq_refl eq_refl eq_refl eq_refl eq_refl eq_refl eq_refl Hnc).
+    assert (Hix : IndOK loc (TOut i) None gc cr x).
+    { apply IndOK_TNone_TOut. destruct HI as (_ & _ & _ & _ & _ & F & _). rewrite Forall_forall in F. apply F. eapply Renege2.find_ind_In; eauto. }
     assert (Ho : out (TOut i) i = true) by (cbn; apply Z.eqb_refl).
-    match type of H with ?m _ = _ => assert (RR : sp (Inv loc (TOut i) cr) (InvX TNone) m top) end.
+    match type of H with ?m _ = _ => assert (RR : sp (Inv loc (TOut i) None gc cr) (InvX TNone) m top) end.
     { spb ltac:(apply spI_put_ind; indok). intros _ _.
-      spb ltac:(apply spI_write_individual_record). intros _ _.
-      eapply R.sp_bind with (phi := top) (J := Inv loc (TOut i) cr).
-      { destruct (negb (nd_inf nd) && negb (nc_slotted nc)); [|apply R.sp_ret; exact Logic.I].
-        spb ltac:(apply spI_get_ind). intros x1 _. spb ltac:(apply R.sp_lift). intros sid _.
-        spb ltac:(apply spI_detatch_server; exact Ho). intros _ _. apply R.sp_ret. exact Logic.I. }
-      intros freed _. eapply R.sp_bind with (phi := top) (J := Inv loc (TOut i) cr).
-      { destruct (nc_slotted nc); [|apply R.sp_ret; exact Logic.I]. apply spI_upd_ind. intros y Hy Hyi. indok. }
+      eapply Renege2.sp_bind with (phi := top) (J := Inv loc (TOut i) None gc cr); [destruct rr; [apply Renege2.sp_ret; exact Logic.I|apply spI_write_individual_record]|]. intros _ _.
+      eapply Renege2.sp_bind with (phi := top) (J := Inv loc (TOut i) None gc cr).
+      { destruct (negb (nd_inf nd) && negb (nc_slotted nc)); [|apply Renege2.sp_ret; exact Logic.I].
+        spb ltac:(apply spI_get_ind). intros x1 _. spb ltac:(apply Renege2.sp_lift). intros sid _.
+        spb ltac:(apply spI_detatch_server; exact Ho). intros _ _. apply Renege2.sp_ret. exact Logic.I. }
+      intros freed _. eapply Renege2.sp_bind with (phi := top) (J := Inv loc (TOut i) None gc cr).
+      { destruct (nc_slotted nc); [|apply Renege2.sp_ret; exact Logic.I]. apply spI_upd_ind. intros y Hy Hyi. indok. }
       intros _ _. spb ltac:(apply spI_reset_individual_attributes). intros _ _.
-      spb ltac:(apply spI_bsipr). intros _ _.
-      eapply R.sp_bind with (phi := top) (J := InvX TNone).
-      { destruct (d =? -1); [eapply R.sp_post; [apply sp_exit_accept|]; intros s2 H2; eapply InvX_of; exact H2|apply sp_fromX; apply Hacc]. }
-      intros _ _. apply Hrbi. }
+      eapply Renege2.sp_bind with (phi := top) (J := InvG loc (TOut i) None cr); [destruct rr; [apply sp_retG|apply sp_fromG; apply sp_bsipr]|]. intros _ _.
+      apply sp_openG. intros gc'.
+      eapply Renege2.sp_bind with (phi := top) (J := InvX TNone).
+      { destruct (d =? -1); [eapply sp_toX; apply sp_exit_accept|apply sp_fromX; apply Hacc]. }
+      intros _ _. destruct rr; [apply sp_X; intros; apply sp_G; intros; apply Renege2.sp_ret; exact Logic.I|apply Hrbi]. }
     destruct a. exact (RR _ _ _ HI1 H).
   Qed.
 
   Lemma sp_rbi_body rel j : (forall a b c, sp (InvX TNone) (InvX TNone) (rel a b c false) top) ->
-    sp (InvX TNone) (InvX TNone) (R.rbi_body cf rel j) top.
+    sp (InvX TNone) (InvX TNone) (Renege2.rbi_body cf rel j) top.
   Proof.
-    intros Hrel s a s' (loc & cr & HI) H.
-    assert (RR : sp (Inv loc TNone cr) (InvX TNone) (R.rbi_body cf rel j) top).
-    { unfold R.rbi_body. spb ltac:(apply spI_get_node). intros nd [Hnd Hj]. spb ltac:(apply spI_ncfg_of). intros nc _.
-      destruct (_ && _); [|apply sp_retX]. destruct (n_bq nd) as [|[from y] rest]; [apply R.sp_fail|].
+    intros Hrel s a s' (loc & cr & gc & HI) H.
+    assert (RR : sp (Inv loc TNone None gc cr) (InvX TNone) (Renege2.rbi_body cf rel j) top).
+    { unfold Renege2.rbi_body. spb ltac:(apply spI_get_node). intros nd [Hnd Hj]. spb ltac:(apply spI_ncfg_of). intros nc _.
+      destruct (_ && _); [|apply sp_retX]. destruct (n_bq nd) as [|[from y] rest]; [apply Renege2.sp_fail|].
       spb ltac:(apply spI_get_node). intros fnd _.
-      eapply R.sp_bind with (phi := top) (J := Inv loc TNone cr); [destruct (memZ _ _); [apply R.sp_ret; exact Logic.I|apply R.sp_fail]|]. intros _ _.
+      eapply Renege2.sp_bind with (phi := top) (J := Inv loc TNone None gc cr); [destruct (memZ _ _); [apply Renege2.sp_ret; exact Logic.I|apply Renege2.sp_fail]|]. intros _ _.
       spb ltac:(apply spI_put_node; nodeok). intros _ _.
       spb ltac:(apply spI_get_ind). intros yx [Hyx Hy].
-      eapply R.sp_bind with (phi := top) (J := Inv loc TNone cr); [repeat sp_step|].
+      eapply Renege2.sp_bind with (phi := top) (J := Inv loc TNone None gc cr); [repeat sp_step|].
       intros _ _. apply sp_fromX. apply Hrel. }
     exact (RR _ _ _ HI H).
   Qed.
 
-  Lemma sp_core : forall f,
-    (forall j i d, sp (InvX TNone) (InvX TNone) (release cf f j i d false) top) /\
-    (forall j, sp (InvX TNone) (InvX TNone) (release_blocked_individual cf f j) top) /\
-    (forall j k, sp (InvX (TOut k)) (InvX TNone) (accept cf f j k) top).
+  (* ---------- priority pre-emption (regions without class change while waiting) ---------- *)
+  Lemma ren_at_noren : noren cf = true -> forall j, ren_at j = false.
   Proof.
-    induction f as [|f (IH1 & IH2 & IH3)]; [split; [|split]; intros; intros s a s' _ H; cbn in H; discriminate H|].
-    split; [|split]; intros.
-    - rewrite R.release_S. apply sp_release_body; assumption.
-    - rewrite R.rbi_S. apply sp_rbi_body; assumption.
-    - rewrite R.accept_S. apply sp_accept_body.
+    intros Hn j. unfold ren_at, ncf. destruct (nthZ (cf_nodes cf) (j - 1)) as [nc|] eqn:E; [|reflexivity].
+    apply Renege2.nthZ_In in E. unfold noren in Hn. rewrite forallb_forall in Hn. apply negb_true_iff. apply Hn. exact E.
   Qed.
-  Lemma sp_release f j i d : sp (InvX TNone) (InvX TNone) (release cf f j i d false) top. Proof. apply sp_core. Qed.
-  Lemma sp_rbi f j : sp (InvX TNone) (InvX TNone) (release_blocked_individual cf f j) top. Proof. apply sp_core. Qed.
-  Lemma sp_accept f j k : sp (InvX (TOut k)) (InvX TNone) (accept cf f j k) top. Proof. apply sp_core. Qed.
-
-  Lemma sp_finish_service j : sp (InvX TNone) (InvX TNone) (finish_service cf j) top.
+  (* without reneging and without class change while waiting nothing is asked of a customer's server field *)
+  Lemma IndOK_free loc tr ex gc cr x x' : cf_dyn cf = false -> (forall j, ren_at j = false) -> IndOK loc tr ex gc cr x ->
+    i_id x' = i_id x -> i_node x' = i_node x -> NN (i_stime x') -> NN (i_ost x') -> i_smark x' <> 1 -> IndOK loc tr ex gc cr x'.
   Proof.
-    intros s a s' (loc & cr & HI) H.
-    assert (RR : sp (Inv loc TNone cr) (InvX TNone) (finish_service cf j) top).
-    { unfold finish_service. do 6 sp_step.
-      eapply R.sp_bind with (phi := top) (J := Inv loc TNone cr); [repeat sp_step|]. intros _ _.
-      spb ltac:(apply spI_has_space). intros space _. destruct space; [|apply sp_toX; apply spI_block_individual].
-      spb ltac:(apply R.sp_gets). intros fl _. apply sp_fromX. apply sp_release. }
+    intros Hd Hr (A & _ & C & C4) E1 E2 N1 N2 N3. unfold IndOK. rewrite E1, E2. split; [exact A|]. split; [auto|]. split; [|exact C4].
+    intros Ho. destruct (C Ho) as [(j & Hj & Hl) _]. split; [exists j; auto|]. split.
+    - intros j' z _ Hq. rewrite Hr in Hq. discriminate.
+    - intros Hd'. congruence.
+  Qed.
+  Lemma spI_detatch_server_free loc tr ex gc cr j sid i : cf_dyn cf = false -> (forall j0, ren_at j0 = false) ->
+    sp (Inv loc tr ex gc cr) (Inv loc tr ex gc cr) (detatch_server j sid i) top.
+  Proof.
+    intros Hd Hr. unfold detatch_server. spb ltac:(apply spI_tnow). intros t0 ->. spb ltac:(apply spI_get_node). intros nd [Hnd Hj].
+    spb ltac:(apply spI_get_ind). intros x [Hx Hi].
+    spb ltac:(apply spI_put_ind; pose proof Hx as (_ & (? & ? & ?) & _); apply (IndOK_free _ _ _ _ _ x _ Hd Hr Hx); cbn; first [reflexivity|assumption]). intros _ _.
+    repeat sp_step.
+  Qed.
+  Lemma sp_preempt_body rel j v i : cf_dyn cf = false -> (forall nc0, ncf j = Some nc0 -> nc_preempt nc0 <> 0) ->
+    (forall a b c, sp (InvX TNone) (InvX TNone) (rel a b c true) top) ->
+    sp (InvX TNone) (InvX TNone) (Renege2.preempt_body cf rel j v i) top.
+  Proof.
+    intros Hd Hne Hrel s a s' (loc & cr & gc & HI) H.
+    assert (RR : sp (Inv loc TNone None gc cr) (InvX TNone) (Renege2.preempt_body cf rel j v i) top).
+    { unfold Renege2.preempt_body. spb ltac:(apply spI_tnow). intros t0 ->. spb ltac:(apply spI_get_ind). intros vx [Hvx Hv].
+      spb ltac:(apply spI_ncfg_of). intros nc Hc. cbv beta in Hc. pose proof (Hne _ Hc) as Hn0.
+      pose proof (noresume_at _ _ Hc) as Hnr. unfold noresume_nc in Hnr. apply andb_true_iff in Hnr as [Hnr _]. apply negb_true_iff in Hnr. apply Z.eqb_neq in Hnr.
+      spb ltac:(apply spI_put_ind; indok). intros _ _.
+      eapply Renege2.sp_bind with (phi := top) (J := InvX TNone).
+      { destruct (nc_preempt nc =? 4) eqn:E4.
+        - spb ltac:(apply spI_next_node_for). intros d _. spb ltac:(apply spI_write_interruption_record). intros _ _. apply sp_fromX. apply Hrel.
+        - apply Z.eqb_neq in E4.
+          assert (Hren : forall j0, ren_at j0 = false).
+          { destruct reg_cases as [Hp|(_ & _ & _ & [Hpr|Hnr'])].
+            - exfalso. apply Hn0. pose proof (nopre_at _ _ Hp Hc) as Q. unfold Renege2.nopre_nc in Q. apply andb_true_iff in Q as [Q _]. apply Z.eqb_eq. exact Q.
+            - exfalso. unfold prio_reroute in Hpr. rewrite forallb_forall in Hpr. specialize (Hpr nc (Renege2.nthZ_In _ _ _ Hc)).
+              apply orb_true_iff in Hpr as [Q|Q]; apply Z.eqb_eq in Q; congruence.
+            - apply ren_at_noren. exact Hnr'. }
+          spb ltac:(apply spI_write_interruption_record). intros _ _.
+          spb ltac:(apply spI_upd_ind; intros y Hy Hyi; indok). intros _ _.
+          spb ltac:(apply Renege2.sp_lift). intros sid _.
+          spb ltac:(apply spI_detatch_server_free; assumption). intros _ _.
+          eapply sp_toX. apply spI_decide_class_change_nodyn. exact Hd. }
+      intros _ _. apply sp_X. intros loc' cr'. apply sp_G. intros gc'.
+      spb ltac:(apply Renege2.sp_lift). intros sid _. apply spI_start_preemptor. exact Hd. }
     exact (RR _ _ _ HI H).
   Qed.
 
-  Lemma Inv_unif loc tr cr s rest : Inv loc tr cr s -> Inv loc tr cr (s <| dr := dr s <| d_unif := rest |> |>).
+  Lemma sp_core : forall f,
+    (forall j i d rr, rr = false \/ cf_dyn cf = false -> sp (InvX TNone) (InvX TNone) (release cf f j i d rr) top) /\
+    (forall j, sp (InvX TNone) (InvX TNone) (release_blocked_individual cf f j) top) /\
+    (forall j k, sp (InvX (TOut k)) (InvX TNone) (accept cf f j k) top) /\
+    (cf_dyn cf = false -> forall j v i, (forall nc0, ncf j = Some nc0 -> nc_preempt nc0 <> 0) -> sp (InvX TNone) (InvX TNone) (preempt cf f j v i) top).
+  Proof.
+    induction f as [|f (IH1 & IH2 & IH3 & IH4)]; [split; [|split; [|split]]; intros; intros s0 a0 s0' _ Hx; cbn in Hx; discriminate Hx|].
+    split; [|split; [|split]]; intros.
+    - rewrite Renege2.release_S. apply sp_release_body; assumption.
+    - rewrite Renege2.rbi_S. apply sp_rbi_body. intros a b c. apply IH1. left. reflexivity.
+    - rewrite Renege2.accept_S. apply sp_accept_body. exact IH4.
+    - rewrite Renege2.preempt_S. apply sp_preempt_body; [assumption|assumption|]. intros a b c. apply IH1. right. assumption.
+  Qed.
+  Lemma sp_release f j i d : sp (InvX TNone) (InvX TNone) (release cf f j i d false) top.
+  Proof. exact (proj1 (sp_core f) j i d false (or_introl eq_refl)). Qed.
+  Lemma sp_release_rr f j i d : cf_dyn cf = false -> sp (InvX TNone) (InvX TNone) (release cf f j i d true) top.
+  Proof. intros Hd. exact (proj1 (sp_core f) j i d true (or_intror Hd)). Qed.
+  Lemma sp_rbi f j : sp (InvX TNone) (InvX TNone) (release_blocked_individual cf f j) top.
+  Proof. exact (proj1 (proj2 (sp_core f)) j). Qed.
+  Lemma sp_accept f j k : sp (InvX (TOut k)) (InvX TNone) (accept cf f j k) top.
+  Proof. exact (proj1 (proj2 (proj2 (sp_core f))) j k). Qed.
+  Lemma sp_preempt f j v i : cf_dyn cf = false -> (forall nc0, ncf j = Some nc0 -> nc_preempt nc0 <> 0) -> sp (InvX TNone) (InvX TNone) (preempt cf f j v i) top.
+  Proof. intros Hd Hn. exact (proj2 (proj2 (proj2 (sp_core f))) Hd j v i Hn). Qed.
+
+  Lemma sp_finish_service j : sp (InvX TNone) (InvX TNone) (finish_service cf j) top.
+  Proof.
+    intros s a s' (loc & cr & gc & HI) H.
+    assert (RR : sp (Inv loc TNone None gc cr) (InvX TNone) (finish_service cf j) top).
+    { unfold finish_service. do 6 sp_step.
+      eapply Renege2.sp_bind with (phi := top) (J := Inv loc TNone None gc cr); [repeat sp_step|]. intros _ _.
+      spb ltac:(apply spI_has_space). intros space _. destruct space; [|eapply sp_toX; apply spI_block_individual].
+      spb ltac:(apply Renege2.sp_gets). intros fl _. apply sp_fromX. apply sp_release. }
+    exact (RR _ _ _ HI H).
+  Qed.
+
+  Lemma Inv_unif loc tr ex gc cr s rest : Inv loc tr ex gc cr s -> Inv loc tr ex gc cr (s <| dr := dr s <| d_unif := rest |> |>).
   Proof. intros HI. apply Inv_dr_tail; [exact HI|]. apply HI. Qed.
 
   Lemma sp_renege j : sp (InvX TNone) (InvX TNone) (renege cf j) top.
   Proof.
-    intros s a s' (loc & cr & HI) H. unfold renege in H.
-    minv H t0 s0 E. apply R.tnow_inv in E as [-> ->].
-    minv H nd s0 E. apply R.get_node_inv in E as (-> & Hj & Hn).
-    minv H i s0 E. apply R.decide_between_inv in E as [Hin Hs0].
-    assert (HI0 : Inv loc TNone cr s0 /\ nodes s0 = nodes s /\ inds s0 = inds s /\ now s0 = now s).
+    intros s a s' (loc & cr & gc & HI) H. unfold renege in H.
+    minv H t0 s0 E. apply Renege2.tnow_inv in E as [-> ->].
+    minv H nd s0 E. apply Renege2.get_node_inv in E as (-> & Hj & Hn).
+    minv H i s0 E. apply Renege2.decide_between_inv in E as [Hin Hs0].
+    assert (HI0 : Inv loc TNone None gc cr s0 /\ nodes s0 = nodes s /\ inds s0 = inds s /\ now s0 = now s).
     { destruct Hs0 as [[_ ->]|(u & rest & _ & ->)]; [auto|]. split; [apply Inv_unif; exact HI|auto]. }
     destruct HI0 as (HI0 & K2 & K1 & K3). clear Hs0 HI.
-    minv H u s1 E. apply R.upd_ind_inv in E as (x & Hx & ->). pose proof (R.find_ind_id _ _ _ Hx) as Hid.
-    minv H d s1 E. apply R.next_node_for_jockey in E as (-> & _).
-    minv H x2 s1 E. apply R.get_ind_inv in E as (-> & Hx2). cbn [inds set] in Hx2. rewrite R.find_put_ind in Hx2. cbn [i_id set] in Hx2.
+    minv H u s1 E. apply Renege2.upd_ind_inv in E as (x & Hx & ->). pose proof (Renege2.find_ind_id _ _ _ Hx) as Hid.
+    minv H d s1 E. apply Renege2.next_node_for_jockey in E as (-> & _).
+    minv H x2 s1 E. apply Renege2.get_ind_inv in E as (-> & Hx2). pose proof Hx2 as Hx2'. cbn [inds set] in Hx2. rewrite Renege2.find_put_ind in Hx2. cbn [i_id set] in Hx2.
     rewrite Hid, Z.eqb_refl in Hx2. injection Hx2 as <-.
-    minv H nd1 s1 E. apply R.get_node_inv in E as (-> & _ & Hn1). cbn [nodes set] in Hn1. rewrite K2, Hn in Hn1. injection Hn1 as <-.
-    minv H q s1 E. apply R.lift_inv in E as [Eq ->]. cbn [i_pprio set] in Eq.
-    minv H q' s1 E. apply R.lift_inv in E as [Eq' ->].
+    minv H nd1 s1 E. apply Renege2.get_node_inv in E as (-> & _ & Hn1). pose proof Hn1 as Hn1'. cbn [nodes set] in Hn1. rewrite K2, Hn in Hn1. injection Hn1 as <-.
+    minv H q s1 E. apply Renege2.lift_inv in E as [Eq ->]. cbn [i_pprio set] in Eq.
+    minv H q' s1 E. apply Renege2.lift_inv in E as [Eq' ->].
     cbv zeta in H. cbn [i_pprio set] in H.
-    minv H u0 s1 E. match type of E with put_node ?n _ = _ => set (nd2 := n) in * end. unfold put_node in E. apply R.modify_inv in E. subst s1.
-    rewrite <- K2 in Hn.
-    assert (HI1 := Inv_remove loc cr s0 j nd nd2 (i_pprio x) q q' i HI0 Hj Hn Eq Eq' eq_refl eq_refl eq_refl eq_refl eq_refl eq_refl).
+    minv H u0 s1 E. match type of E with put_node ?n _ = _ => set (nd2 := n) in * end. unfold put_node in E. apply Renege2.modify_inv in E. subst s1.
+    assert (Hix0 : IndOK loc TNone None gc cr x).
+    { destruct HI0 as (_ & _ & _ & _ & _ & F & _). rewrite Forall_forall in F. apply F. eapply Renege2.find_ind_In; eauto. }
+    (* the reneging date is cleared, then the customer is excused (it may be its node's next class-change customer) and taken out *)
+    assert (HIa : Inv loc TNone None gc cr (s0 <| inds := put_ind_l (x <| i_ren := XI |>) (inds s0) |>)) by (apply Inv_put_ind; [exact HI0|indok]).
+    assert (Hq_in : In i (all_individuals nd)).
+    { apply Renege2.nthZ_In in Eq. unfold all_individuals. apply in_concat. exists q. split; [exact Eq|]. eapply Permutation_in; [symmetry; apply (Renege2.remove_first_perm _ _ _ Eq')|left; reflexivity]. }
+    assert (HIb := Inv_open_member _ _ _ _ _ _ _ _ _ HIa Hj Hn1' Hq_in Hx2').
+    assert (HI1 := Inv_remove loc (Some (i, j)) gc cr _ j nd nd2 (i_pprio x) q q' i HIb Hj Hn1' Eq Eq' eq_refl eq_refl eq_refl eq_refl eq_refl eq_refl eq_refl eq_refl eq_refl (fun _ _ _ => eq_refl)).
     assert (Ho : out (TOut i) i = true) by (cbn; apply Z.eqb_refl).
-    assert (Hix : IndOK loc (TOut i) cr x).
-    { apply IndOK_TNone_TOut. destruct HI0 as (_ & _ & _ & _ & _ & F & _). rewrite Forall_forall in F. apply F. eapply R.find_ind_In; eauto. }
-    assert (HI2 := Inv_put_ind loc (TOut i) cr _ (x <| i_ren := XI |>) HI1).
-    match type of H with ?m _ = _ => assert (RR : sp (Inv loc (TOut i) cr) (InvX TNone) m top) end.
-    { spb ltac:(apply spI_reset_class_change). intros _ _.
+    match type of H with ?m _ = _ => assert (RR : sp (InvG loc (TOut i) (Some (i, j)) cr) (InvX TNone) m top) end.
+    { eapply Renege2.sp_bind with (phi := top) (J := InvG loc (TOut i) None cr); [apply sp_reset_class_change; right; reflexivity|]. intros _ _.
+      apply sp_openG. intros gc'.
       spb ltac:(apply spI_upd_ind; intros y Hy Hyi; indok). intros _ _.
       spb ltac:(apply spI_write_reneging_record). intros _ _.
       spb ltac:(apply spI_reset_individual_attributes). intros _ _.
-      spb ltac:(apply R.sp_gets). intros fl _.
-      eapply R.sp_bind with (phi := top) (J := InvX TNone).
-      { destruct (d =? -1); [eapply R.sp_post; [apply sp_exit_accept|]; intros s2 H2; eapply InvX_of; exact H2|apply sp_fromX; apply sp_accept]. }
+      spb ltac:(apply Renege2.sp_gets). intros fl _.
+      eapply Renege2.sp_bind with (phi := top) (J := InvX TNone).
+      { destruct (d =? -1); [eapply sp_toX; apply sp_exit_accept|apply sp_fromX; apply sp_accept]. }
       intros _ _. apply sp_rbi. }
-    destruct a. refine (RR _ _ _ _ H). apply HI2. indok.
+    destruct a. refine (RR _ _ _ _ H). eexists. exact HI1.
   Qed.
 
-  Lemma sp_node_have_event j : sp (InvX TNone) (InvX TNone) (node_have_event cf j) top.
+  (* ---------- pre-emptive schedules and capacitated slots (regions without class change while waiting) ---------- *)
+  Lemma sp_interrupt_service fl j i pre : Renege2.nopre cf = false -> pre <> 1 ->
+    sp (InvX TNone) (InvX TNone) (interrupt_service cf fl j i pre) top.
   Proof.
-    intros s a s' (loc & cr & HI) H.
-    assert (RR : sp (Inv loc TNone cr) (InvX TNone) (node_have_event cf j) top).
-    { unfold node_have_event. spb ltac:(apply spI_get_node). intros nd _. cbv zeta.
-      destruct (_ =? 0); [apply sp_fromX; apply sp_finish_service|].
-      destruct (_ =? 1); [apply sp_toX; apply spI_change_shift|].
-      destruct (_ =? 2); [apply sp_fromX; apply sp_renege|].
-      destruct (_ =? 3); [apply sp_toX; apply spI_ccww|].
-      destruct (_ =? 4); [apply sp_toX; apply spI_slotted_service|apply sp_retX]. }
+    intros Hp Hp1. pose proof (nodyn_of_pre Hp) as Hd. intros s a s' (loc & cr & gc & HI) H.
+    assert (RR : sp (Inv loc TNone None gc cr) (InvX TNone) (interrupt_service cf fl j i pre) top).
+    { unfold interrupt_service. spb ltac:(apply spI_tnow). intros t0 ->.
+      spb ltac:(apply spI_upd_ind; intros y Hy Hyi; indok). intros _ _.
+      destruct (pre =? 4).
+      - spb ltac:(apply spI_next_node_for). intros d _. spb ltac:(apply spI_write_interruption_record). intros _ _.
+        apply sp_fromX. apply sp_release_rr. exact Hd.
+      - eapply sp_toX.
+        spb ltac:(apply spI_upd_node; intros nd0 Hn0 Hnd0; nodeok). intros _ _.
+        spb ltac:(apply spI_upd_ind; intros y Hy Hyi; indok). intros _ _.
+        spb ltac:(apply spI_write_interruption_record). intros _ _.
+        spb ltac:(apply spI_upd_ind; intros y Hy Hyi; indok). intros _ _.
+        apply spI_upd_node. intros nd0 Hn0 Hnd0. nodeok. }
     exact (RR _ _ _ HI H).
+  Qed.
+  Lemma sp_off_duty_loop fl j pre se : Renege2.nopre cf = false -> pre <> 1 ->
+    forall k idx, sp (InvX TNone) (InvX TNone) (off_duty_loop cf k fl j idx pre se) top.
+  Proof.
+    intros Hp Hp1. induction k as [|k IH]; intros idx; cbn [off_duty_loop]; [apply sp_X; intros; apply sp_G; intros; apply Renege2.sp_ret; exact Logic.I|].
+    intros s a s' (loc & cr & gc & HI) H.
+    match type of H with ?m _ = _ => assert (RR : sp (Inv loc TNone None gc cr) (InvX TNone) m top) end.
+    { spb ltac:(apply spI_get_node). intros nd [Hnd Hj]. destruct (nth_error (n_servers nd) idx) as [sv|] eqn:Esv; [|apply sp_retX].
+      eapply Renege2.sp_bind with (phi := top) (J := Inv loc TNone None gc cr).
+      { apply spI_put_node. apply (NodeOK_nrel _ _ _ _ _ nd _ Hnd); try reflexivity; try (intros _; cbn; lia). intros HF. cbn.
+        apply Forall_put_server; [exact HF|]. rewrite Forall_forall in HF. apply (HF sv). eapply nth_error_In; eauto. }
+      intros _ _. eapply Renege2.sp_bind with (phi := top) (J := InvX TNone).
+      { destruct (sv_cust sv) as [c|]; [apply sp_fromX; apply sp_interrupt_service; assumption|apply sp_retX]. }
+      intros _ _. apply IH. }
+    exact (RR _ _ _ HI H).
+  Qed.
+  Lemma spI_sort_interrupted_individuals loc tr ex gc cr j : sp (Inv loc tr ex gc cr) (Inv loc tr ex gc cr) (sort_interrupted_individuals j) top.
+  Proof. unfold sort_interrupted_individuals, keyed. repeat sp_step. Qed.
+  Lemma sp_tsod fl j pre : Renege2.nopre cf = false -> pre <> 1 -> pre <> 0 -> sp (InvX TNone) (InvX TNone) (take_servers_off_duty cf fl j pre) top.
+  Proof.
+    intros Hp Hp1 Hp0 s a s' (loc & cr & gc & HI) H.
+    assert (RR : sp (Inv loc TNone None gc cr) (InvX TNone) (take_servers_off_duty cf fl j pre) top).
+    { unfold take_servers_off_duty. spb ltac:(apply spI_get_node). intros nd [Hnd Hj].
+      eapply Renege2.sp_bind with (phi := top) (J := Inv loc TNone None gc cr); [destruct (n_next_date nd); [apply Renege2.sp_ret; exact Logic.I|apply Renege2.sp_fail]|]. intros se _.
+      apply Z.eqb_neq in Hp0. rewrite Hp0.
+      eapply Renege2.sp_bind with (phi := top) (J := InvX TNone); [apply sp_fromX; apply sp_off_duty_loop; assumption|]. intros _ _.
+      apply sp_X. intros loc' cr'. apply sp_G. intros gc'.
+      spb ltac:(apply spI_sort_interrupted_individuals). intros _ _. apply Renege2.sp_forM. intros sid. apply spI_kill_server. }
+    exact (RR _ _ _ HI H).
+  Qed.
+
+  Lemma sp_change_shift j : sp (InvX TNone) (InvX TNone) (change_shift cf j) top.
+  Proof.
+    intros s a s' (loc & cr & gc & HI) H.
+    assert (RR : sp (Inv loc TNone None gc cr) (InvX TNone) (change_shift cf j) top).
+    { unfold change_shift. eapply Renege2.sp_bind; [apply spI_ncfg_of|]. intros nc Hc. destruct (nc_srv nc) as [|sc|sl] eqn:Esrv; [apply Renege2.sp_fail| |apply Renege2.sp_fail].
+      pose proof (wf_at _ _ Hc) as Hw. unfold wf_nc in Hw. rewrite Esrv in Hw.
+      pose proof (noresume_at _ _ Hc) as Hnr. unfold noresume_nc in Hnr. rewrite Esrv in Hnr. apply andb_true_iff in Hnr as [_ Hnr]. apply negb_true_iff in Hnr. apply Z.eqb_neq in Hnr.
+      eapply Renege2.sp_bind; [apply spI_get_node|]. intros nd [Hnd Hj].
+      eapply Renege2.sp_bind with (phi := top); [destruct (sc_b sc); [apply Renege2.sp_fail|apply Renege2.sp_ret; exact Logic.I]|]. intros _ _. cbv zeta.
+      eapply Renege2.sp_bind with (phi := top) (J := Inv loc TNone None gc cr).
+      { apply spI_put_node. destruct Hnd as (A & B & C & D0 & (T0 & T1 & E)). unfold NodeOK, NodeT, all_individuals, nd_inf in *.
+        cbn [n_id n_queues n_c n_servers n_spos n_next_shift n_nccd n_ncci n_nint set].
+        rewrite Hj in *. unfold ncf in *. rewrite Hc, Esrv in *. destruct E as (E1 & E2 & E3 & E4).
+        assert (Hfin : inf_at j = false) by (eapply Hsch; eauto). rewrite Hfin in A.
+        split; [rewrite Hfin; reflexivity|]. split; [exact B|]. split; [exact C|]. split; [exact D0|]. split; [exact T0|]. split; [|split].
+        - intros Hd. destruct (T1 Hd) as [T3 T4]. split; [exact T3|]. intros _. apply T4. exact A.
+        - intros _ Hs. apply E1; [exact A|exact Hs].
+        - replace (Z.to_nat (n_spos nd + 1)) with (S (Z.to_nat (n_spos nd))) by lia.
+          split; [lia|]. split; [reflexivity|]. pose proof (wf_tt_mono _ _ Hw (Z.to_nat (n_spos nd)) (S (Z.to_nat (n_spos nd))) ltac:(lia)). lia. }
+      intros _ _. eapply Renege2.sp_bind; [apply Renege2.sp_gets|]. intros fl _.
+      eapply Renege2.sp_bind with (phi := top) (J := InvX TNone).
+      { destruct (Z.eq_dec (sc_pre sc) 0) as [H0|H0]; [eapply sp_toX; apply spI_tsod0; exact H0|].
+        apply sp_fromX. apply sp_tsod; [|exact Hnr|exact H0].
+        destruct (Renege2.nopre cf) eqn:Hp; [|reflexivity]. exfalso. apply H0. pose proof (nopre_at _ _ Hp Hc) as Q. unfold Renege2.nopre_nc in Q. rewrite Esrv in Q.
+        apply andb_true_iff in Q as [_ Q]. apply Z.eqb_eq. exact Q. }
+      intros _ _. apply sp_X. intros loc' cr'. apply sp_openG. intros gc'.
+      eapply Renege2.sp_bind with (phi := top) (J := Inv loc' TNone None gc' cr'); [apply spI_add_new_servers|]. intros _ _. apply sp_fromG. apply sp_bsipcs. }
+    exact (RR _ _ _ HI H).
+  Qed.
+
+  Lemma sp_slotted_service j : sp (InvX TNone) (InvX TNone) (slotted_service cf j) top.
+  Proof.
+    intros s a s' (loc & cr & gc & HI) H.
+    assert (RR : sp (Inv loc TNone None gc cr) (InvX TNone) (slotted_service cf j) top).
+    { unfold slotted_service. eapply Renege2.sp_bind; [apply spI_ncfg_of|]. intros nc Hc. destruct (nc_srv nc) as [|sc|sl] eqn:Esrv; [apply Renege2.sp_fail|apply Renege2.sp_fail|].
+      pose proof (wf_at _ _ Hc) as Hw. unfold wf_nc in Hw. rewrite Esrv in Hw.
+      pose proof (noresume_at _ _ Hc) as Hnr. unfold noresume_nc in Hnr. rewrite Esrv in Hnr. apply andb_true_iff in Hnr as [_ Hnr]. apply negb_true_iff in Hnr.
+      assert (Hd : cf_dyn cf = false).
+      { destruct (cf_dyn cf) eqn:Hd; [|reflexivity]. pose proof (Hdns eq_refl nc (Renege2.nthZ_In _ _ _ Hc)) as Hs. unfold nc_slotted in Hs. rewrite Esrv in Hs. discriminate. }
+      eapply Renege2.sp_bind; [apply spI_get_node|]. intros nd [Hnd Hj].
+      eapply Renege2.sp_bind with (phi := top); [destruct (sl_b sl); [apply Renege2.sp_fail|apply Renege2.sp_ret; exact Logic.I]|]. intros _ _. cbv zeta.
+      eapply Renege2.sp_bind with (phi := top) (J := InvX TNone).
+      { destruct (sl_cap sl && negb (sl_pre sl =? 0)) eqn:Ep; [|apply sp_retX].
+        destruct (0 <? n_insvc nd - fst (slot_values sl (Z.to_nat (n_spos nd)))); [|apply sp_retX].
+        apply andb_true_iff in Ep as [Ec Ep]. rewrite Ec in Hnr. cbn in Hnr. apply Z.eqb_neq in Hnr. apply negb_true_iff in Ep. apply Z.eqb_neq in Ep.
+        assert (Hp : Renege2.nopre cf = false).
+        { destruct (Renege2.nopre cf) eqn:Hp; [|reflexivity]. exfalso. pose proof (nopre_at _ _ Hp Hc) as Q. unfold Renege2.nopre_nc in Q. rewrite Esrv in Q.
+          apply andb_true_iff in Q as [_ Q]. rewrite Ec in Q. cbn in Q. apply negb_true_iff in Q. apply negb_false_iff in Q. apply Z.eqb_eq in Q. contradiction. }
+        spb ltac:(apply Renege2.sp_gets). intros il _.
+        eapply Renege2.sp_bind with (phi := top) (J := Inv loc TNone None gc cr); [unfold keyed; repeat sp_step|]. intros kl _.
+        spb ltac:(apply Renege2.sp_gets). intros fl _. apply sp_fromX. apply Renege2.sp_forM. intros i. apply sp_interrupt_service; assumption. }
+      intros _ _. apply sp_X. intros loc' cr'. apply sp_G. intros gc'.
+      eapply Renege2.sp_bind; [apply spI_slot_loop; exact Hd|]. intros _ _. apply spI_upd_node. intros nd' Hj' (A & B & C & D0 & (T0 & T1 & E)).
+      unfold NodeOK, NodeT, all_individuals, nd_inf in *. cbn [n_id n_queues n_c n_servers n_spos n_next_shift n_nccd n_ncci n_nint set].
+      rewrite Hj' in *. unfold ncf in *. rewrite Hc, Esrv in *. destruct E as (E1 & E2 & E3).
+      split; [exact A|]. split; [exact B|]. split; [exact C|]. split; [exact D0|]. split; [exact T0|]. split; [exact T1|]. split; [exact E1|].
+      replace (Z.to_nat (n_spos nd' + 1)) with (S (Z.to_nat (n_spos nd'))) by lia.
+      split; [lia|]. pose proof (slotdate_step sl (Z.to_nat (n_spos nd')) Hw). lia. }
+    exact (RR _ _ _ HI H).
+  Qed.
+
+  (* ---------- class change while waiting ---------- *)
+  (* what update_next_event_date left on node j when its next event is a class change: the customer is the node's next_class_change_ind *)
+  Definition C3 (j : Z) (s : sim) : Prop :=
+    forall nd, nthZ (nodes s) (j - 1) = Some nd -> nd_inf nd = false /\ n_next_inds nd = match n_ncci nd with Some i => [i] | None => [] end.
+  Lemma sp_ccww_nopre loc cr j : Renege2.nopre cf = true ->
+    sp (fun s => InvG loc TNone None cr s /\ (cf_dyn cf = true -> C3 j s)) (InvG loc TNone None cr) (change_customer_class_while_waiting cf j) top.
+  Proof.
+    intros Hnp s a s' [(gc & HI) HC] H. unfold change_customer_class_while_waiting in H.
+    minv H nd s1 E. destruct (spI_get_node _ _ _ _ _ j _ _ _ HI E) as [_ [Hnd Hjn]]. apply Renege2.get_node_inv in E as (-> & Hj & Hn).
+    minv H i s1 E. apply Renege2.lift_inv in E as [Hi ->].
+    minv H x s1 E. apply Renege2.get_ind_inv in E as [-> Hx]. pose proof (Renege2.find_ind_id _ _ _ Hx) as Hid.
+    match type of H with ?m _ = _ =>
+      assert (RR : forall ex, IndOK loc TNone ex gc cr x -> NodeOK loc TNone ex gc cr nd -> (ex = Some (i, j) \/ (ex = None /\ cf_dyn cf = false)) ->
+                     sp (Inv loc TNone ex gc cr) (InvG loc TNone None cr) m top) end.
+    { intros ex Hix Hnx Hex.
+      eapply Renege2.sp_bind; [apply Renege2.sp_lift|]. intros nc' Hnc.
+      eapply Renege2.sp_bind; [apply Renege2.sp_lift|]. intros p' Hp.
+      eapply Renege2.sp_bind; [apply spI_put_ind; indok|]. intros _ _.
+      eapply Renege2.sp_bind with (phi := top) (J := Inv loc TNone ex gc cr).
+      { destruct (negb (p' =? i_pprio x)); [|apply Renege2.sp_ret; exact Logic.I].
+        eapply Renege2.sp_bind; [apply Renege2.sp_lift|]. intros q Hq. eapply Renege2.sp_bind; [apply Renege2.sp_lift|]. intros q' Hq'. cbv zeta.
+        eapply Renege2.sp_bind; [apply Renege2.sp_lift|]. intros qn Hqn. cbv beta in Hq, Hq', Hqn.
+        eapply Renege2.sp_bind; [apply spI_put_node|].
+        { apply (NodeOK_perm _ _ _ _ _ nd _ Hnx); try reflexivity. unfold all_individuals. cbn [n_queues set].
+          eapply Permutation_trans; [apply (Renege2.concat_remove _ _ _ _ _ Hq Hq')|]. symmetry. apply Renege2.concat_append. exact Hqn. }
+        intros _ _. destruct (negb (nd_inf nd) && (0 <? numo (n_c nd))); [|apply Renege2.sp_ret; exact Logic.I].
+        eapply Renege2.sp_bind; [apply spI_preempt_victim_nopre; exact Hnp|]. intros v ->. apply Renege2.sp_ret. exact Logic.I. }
+      intros _ _. eapply Renege2.sp_bind; [apply spI_upd_ind; intros y Hy Hyi; destruct Hex as [ -> | [ -> Hd ] ]; indok|]. intros _ _.
+      destruct Hex as [ -> | [ -> Hd ] ]; [apply sp_fromG; apply sp_decide_class_change|eapply sp_toG; apply spI_decide_class_change_nodyn; exact Hd]. }
+    assert (Hix : forall ex, Inv loc TNone ex gc cr s -> IndOK loc TNone ex gc cr x /\ NodeOK loc TNone ex gc cr nd).
+    { intros ex (_ & _ & _ & _ & _ & F & G & _). split; [rewrite Forall_forall in F; apply F; eapply Renege2.find_ind_In; eauto|].
+      destruct (Renege2.nthZ_nat _ _ _ Hn) as [_ Hn']. eapply G; eauto. }
+    destruct a. destruct (Bool.bool_dec (cf_dyn cf) true) as [Hd|Hd]; [|apply Bool.not_true_is_false in Hd].
+    - destruct (HC Hd nd Hn) as [Hfin Hni]. destruct (n_ncci nd) as [i0|] eqn:Ec; rewrite Hni in Hi; [|discriminate Hi]. injection Hi as ->.
+      destruct Hnd as (_ & _ & _ & _ & (_ & T1 & _)). destruct (T1 Hd) as [_ T4]. destruct (T4 Hfin) as [_ T6].
+      destruct (T6 _ Ec) as [Hq|Q]; [|discriminate Q].
+      pose proof (Inv_open_member _ _ _ _ _ _ _ _ _ HI Hj Hn Hq Hx) as HI2. destruct (Hix _ HI2) as [H1 H2].
+      exact (RR _ H1 H2 (or_introl eq_refl) _ _ _ HI2 H).
+    - destruct (Hix _ HI) as [H1 H2]. exact (RR _ H1 H2 (or_intror (conj eq_refl Hd)) _ _ _ HI H).
+  Qed.
+
+  (* ... and in the regions with pre-emption (no class change while waiting there: the function only moves the customer) *)
+  Lemma sp_ccww_pre j : Renege2.nopre cf = false -> sp (InvX TNone) (InvX TNone) (change_customer_class_while_waiting cf j) top.
+  Proof.
+    intros Hp. pose proof (nodyn_of_pre Hp) as Hd. intros s a s' (loc & cr & gc & HI) H.
+    assert (RR : sp (Inv loc TNone None gc cr) (InvX TNone) (change_customer_class_while_waiting cf j) top).
+    { unfold change_customer_class_while_waiting.
+      eapply Renege2.sp_bind; [apply spI_get_node|]. intros nd [Hnd Hj].
+      eapply Renege2.sp_bind; [apply Renege2.sp_lift|]. intros i Hi.
+      eapply Renege2.sp_bind; [apply spI_get_ind|]. intros x [Hx Hxi].
+      eapply Renege2.sp_bind; [apply Renege2.sp_lift|]. intros nc' Hnc.
+      eapply Renege2.sp_bind; [apply Renege2.sp_lift|]. intros p' Hp'.
+      eapply Renege2.sp_bind; [apply spI_put_ind; indok|]. intros _ _.
+      eapply Renege2.sp_bind with (phi := top) (J := InvX TNone).
+      { destruct (negb (p' =? i_pprio x)); [|apply sp_retX].
+        eapply Renege2.sp_bind; [apply Renege2.sp_lift|]. intros q Hq. eapply Renege2.sp_bind; [apply Renege2.sp_lift|]. intros q' Hq'. cbv zeta.
+        eapply Renege2.sp_bind; [apply Renege2.sp_lift|]. intros qn Hqn. cbv beta in Hq, Hq', Hqn.
+        eapply Renege2.sp_bind; [apply spI_put_node|].
+        { apply (NodeOK_perm _ _ _ _ _ nd _ Hnd); try reflexivity. unfold all_individuals. cbn [n_queues set].
+          eapply Permutation_trans; [apply (Renege2.concat_remove _ _ _ _ _ Hq Hq')|]. symmetry. apply Renege2.concat_append. exact Hqn. }
+        intros _ _. destruct (negb (nd_inf nd) && (0 <? numo (n_c nd))); [|apply sp_retX].
+        eapply Renege2.sp_bind; [apply spI_preempt_victim|]. intros v Hv. cbv beta in Hv. destruct v as [vi|]; [|apply sp_retX].
+        destruct (Hv ltac:(discriminate)) as (nc0 & Hc0 & Hne).
+        spb ltac:(apply Renege2.sp_gets). intros fl _. apply sp_fromX. apply sp_preempt; [exact Hd|].
+        intros nc1 Hc1. rewrite Hc0 in Hc1. injection Hc1 as <-. exact Hne. }
+      intros _ _. apply sp_X. intros loc' cr'. apply sp_G. intros gc'.
+      eapply Renege2.sp_bind; [apply spI_upd_ind; intros y Hy Hyi; indok|]. intros _ _. apply spI_decide_class_change_nodyn. exact Hd. }
+    exact (RR _ _ _ HI H).
+  Qed.
+
+  (* what update_next_event_date left on a node whose next event is a class change while waiting *)
+  Definition T3OK (s : sim) : Prop :=
+    cf_dyn cf = true -> forall j nd, nthZ (nodes s) (j - 1) = Some nd -> n_next_type nd = 3 ->
+      nd_inf nd = false /\ n_next_inds nd = match n_ncci nd with Some i => [i] | None => [] end.
+
+  Lemma sp_node_have_event j : sp (fun s => InvX TNone s /\ T3OK s) (InvX TNone) (node_have_event cf j) top.
+  Proof.
+    intros s a s' [(loc & cr & gc & HI) HT] H. unfold node_have_event in H.
+    minv H nd s1 E. apply Renege2.get_node_inv in E as (-> & Hj & Hn). cbv zeta in H.
+    destruct (n_next_type nd =? 0); [exact (sp_finish_service j _ _ _ (InvX_of _ _ _ _ _ HI) H)|].
+    destruct (n_next_type nd =? 1); [exact (sp_change_shift j _ _ _ (InvX_of _ _ _ _ _ HI) H)|].
+    destruct (n_next_type nd =? 2); [exact (sp_renege j _ _ _ (InvX_of _ _ _ _ _ HI) H)|].
+    destruct (n_next_type nd =? 3) eqn:E3.
+    { apply Z.eqb_eq in E3. assert (HC : cf_dyn cf = true -> C3 j s).
+      { intros Hd nd' Hn'. rewrite Hn in Hn'. injection Hn' as <-. eapply HT; eauto. }
+      destruct (Renege2.nopre cf) eqn:Hnp.
+      - destruct (sp_ccww_nopre loc cr j Hnp _ _ _ (conj (InvG_of _ _ _ _ _ _ HI) HC) H) as [HJ Hp]. split; [eapply InvX_ofG; exact HJ|exact Hp].
+      - exact (sp_ccww_pre j Hnp _ _ _ (InvX_of _ _ _ _ _ HI) H). }
+    destruct (n_next_type nd =? 4); [exact (sp_slotted_service j _ _ _ (InvX_of _ _ _ _ _ HI) H)|].
+    apply Renege2.ret_inv in H as [-> ->]. split; [eapply InvX_of; exact HI|exact Logic.I].
   Qed.
 
   Lemma sp_send_individual j k : sp (InvX (TOut k)) (InvX TNone) (send_individual cf j k) top.
   Proof.
-    intros s a s' (loc & cr & HI) H.
-    assert (RR : sp (Inv loc (TOut k) cr) (InvX TNone) (send_individual cf j k) top).
+    intros s a s' (loc & cr & gc & HI) H.
+    assert (RR : sp (Inv loc (TOut k) None gc cr) (InvX TNone) (send_individual cf j k) top).
     { unfold send_individual. spb ltac:(apply spI_same; intros ?; repeat split; reflexivity). intros _ _.
-      spb ltac:(apply R.sp_gets). intros fl _. apply sp_fromX. apply sp_accept. }
+      spb ltac:(apply Renege2.sp_gets). intros fl _. apply sp_fromX. apply sp_accept. }
     exact (RR _ _ _ HI H).
   Qed.
-  Lemma sp_turn_away loc cr j k ty : sp (Inv loc (TOut k) cr) (InvX TNone) (write_br_record j k ty ;;; exit_accept k false) top.
-  Proof. spb ltac:(apply spI_write_br_record). intros _ _. eapply R.sp_post; [apply sp_exit_accept|]. intros s2 H2. eapply InvX_of; exact H2. Qed.
+  Lemma sp_turn_away loc gc cr j k ty : sp (Inv loc (TOut k) None gc cr) (InvX TNone) (write_br_record j k ty ;;; exit_accept k false) top.
+  Proof. spb ltac:(apply spI_write_br_record). intros _ _. eapply sp_toX. apply sp_exit_accept. Qed.
   Lemma sp_release_individual j k : sp (InvX (TOut k)) (InvX TNone) (release_individual cf j k) top.
   Proof.
-    intros s a s' (loc & cr & HI) H.
-    assert (RR : sp (Inv loc (TOut k) cr) (InvX TNone) (release_individual cf j k) top).
+    intros s a s' (loc & cr & gc & HI) H.
+    assert (RR : sp (Inv loc (TOut k) None gc cr) (InvX TNone) (release_individual cf j k) top).
     { unfold release_individual. spb ltac:(apply spI_get_ind). intros x _. spb ltac:(apply spI_get_node). intros nd _.
       spb ltac:(apply spI_ncfg_of). intros nc _. spb ltac:(apply spI_sys_population). intros sp0 _. cbv zeta.
       destruct (_ || _); [apply sp_turn_away|].
-      spb ltac:(apply R.sp_lift). intros tabs _. spb ltac:(apply R.sp_lift). intros tab _.
+      spb ltac:(apply Renege2.sp_lift). intros tabs _. spb ltac:(apply Renege2.sp_lift). intros tab _.
       destruct tab as [tb|]; [|apply sp_fromX; apply sp_send_individual].
       spb ltac:(apply spI_draw_unif). intros u _. cbv zeta.
       destruct (_ <? _); [apply sp_turn_away|apply sp_fromX; apply sp_send_individual]. }
@@ -989,17 +1693,17 @@ Section Clock2.
   Qed.
 
   (* T5: a new customer is created (it is in transit until it is accepted or turned away) *)
-  Lemma Inv_create loc cr s c p r : Inv loc TNone cr s ->
-    Inv loc (TOut (cr + 1)) (cr + 1)
+  Lemma Inv_create loc gc cr s c p r : Inv loc TNone None gc cr s ->
+    Inv loc (TOut (cr + 1)) None gc (cr + 1)
       (s <| arr := arr s <| a_created := a_created (arr s) + 1 |> |> <| inds := put_ind_l (new_ind (cr + 1) c p r) (inds s) |>).
   Proof.
     intros (A & B & C & D0 & E & F & G & H & K & L). unfold Inv. cbn [now arr nodes inds dr set a_created].
-    split; [exact A|]. split; [rewrite B; reflexivity|]. split; [exact C|]. split; [exact D0|]. split; [apply R.NoDup_put_ind; exact E|].
+    split; [exact A|]. split; [rewrite B; reflexivity|]. split; [exact C|]. split; [exact D0|]. split; [apply Renege2.NoDup_put_ind; exact E|].
     rewrite Forall_forall in F.
     split.
-    { apply R.Forall_put_ind; [exact E| |].
-      - intros y Hy _. destruct (F y Hy) as (YA & YB & YC). split; [lia|]. split; [exact YB|]. intros _. apply YC. reflexivity.
-      - split; [cbn; lia|]. split; [cbn; repeat split; apply NN_None|]. cbn. rewrite Z.eqb_refl. discriminate. }
+    { apply Renege2.Forall_put_ind; [exact E| |].
+      - intros y Hy _. destruct (F y Hy) as (YA & YB & YC & YD). split; [lia|]. split; [exact YB|]. split; [|exact YD]. intros _. apply YC. reflexivity.
+      - split; [cbn; lia|]. split; [cbn; split; [apply NN_None|split; [apply NN_None|discriminate]]|]. split; [cbn; rewrite Z.eqb_refl; discriminate|intros j He; discriminate He]. }
     split.
     { intros kk y Hk. destruct (G _ _ Hk) as (M1 & M2 & M3 & M4 & M5). split; [exact M1|]. split; [exact M2|]. split; [|split; [|exact M5]].
       - intros id Hi. destruct (M3 _ Hi) as (I1 & _ & I3). split; [lia|]. split; [cbn; apply Z.eqb_neq; lia|exact I3].
@@ -1009,16 +1713,16 @@ Section Clock2.
 
   Lemma sp_batch_loop : forall n j c p, sp (InvX TNone) (InvX TNone) (batch_loop cf n j c p) top.
   Proof.
-    induction n as [|n IH]; intros j c p; cbn [batch_loop]; [apply sp_X; intros; apply R.sp_ret; exact Logic.I|].
-    intros s a s' (loc & cr & HI) H.
-    minv H u s1 E. apply R.modify_inv in E. subst s1.
-    minv H i s1 E. apply R.gets_inv in E as [-> ->]. cbn [arr set a_created] in H.
-    minv H u0 s1 E. assert (s1 = s <| arr := arr s <| a_created := a_created (arr s) + 1 |> |>) as -> by (destruct (1 <=? j); [apply R.ret_inv in E as [_ ->]; reflexivity|discriminate]). clear E.
-    minv H nd0 s1 E. apply R.get_node_inv in E as (-> & _).
-    minv H r s1 E. apply R.route_of_inv in E as ->.
-    minv H u1 s1 E. unfold put_ind in E. apply R.modify_inv in E. subst s1.
+    induction n as [|n IH]; intros j c p; cbn [batch_loop]; [apply sp_X; intros; apply sp_G; intros; apply Renege2.sp_ret; exact Logic.I|].
+    intros s a s' (loc & cr & gc & HI) H.
+    minv H u s1 E. apply Renege2.modify_inv in E. subst s1.
+    minv H i s1 E. apply Renege2.gets_inv in E as [-> ->]. cbn [arr set a_created] in H.
+    minv H u0 s1 E. assert (s1 = s <| arr := arr s <| a_created := a_created (arr s) + 1 |> |>) as -> by (destruct (1 <=? j); [apply Renege2.ret_inv in E as [_ ->]; reflexivity|discriminate]). clear E.
+    minv H nd0 s1 E. apply Renege2.get_node_inv in E as (-> & _).
+    minv H r s1 E. apply Renege2.route_of_inv in E as ->.
+    minv H u1 s1 E. unfold put_ind in E. apply Renege2.modify_inv in E. subst s1.
     assert (Hcr : a_created (arr s) = cr) by apply HI. rewrite Hcr in H.
-    pose proof (Inv_create loc cr s c p r HI) as HI1. rewrite Hcr in HI1.
+    pose proof (Inv_create loc gc cr s c p r HI) as HI1. rewrite Hcr in HI1.
     match type of H with ?m _ = _ => assert (RR : sp (InvX (TOut (cr + 1))) (InvX TNone) m top) end.
     { spb ltac:(apply sp_release_individual). intros _ _. apply IH. }
     destruct a. refine (RR _ _ _ _ H). eapply InvX_of. exact HI1.
@@ -1027,24 +1731,28 @@ Section Clock2.
   Lemma sp_arrival_have_event : sp (InvX TNone) (InvX TNone) (arrival_have_event cf) top.
   Proof.
     unfold arrival_have_event.
-    spb ltac:(apply R.sp_gets). intros a0 _. cbv zeta.
-    spb ltac:(apply sp_X; intros; apply spI_draw_batch). intros b _.
-    eapply R.sp_bind with (phi := top) (J := InvX TNone); [destruct (b <? 0); [apply R.sp_fail|apply R.sp_ret; exact Logic.I]|]. intros _ _.
-    spb ltac:(apply R.sp_lift). intros p _.
+    spb ltac:(apply Renege2.sp_gets). intros a0 _. cbv zeta.
+    spb ltac:(apply sp_X; intros; apply sp_G; intros; apply spI_draw_batch). intros b _.
+    eapply Renege2.sp_bind with (phi := top) (J := InvX TNone); [destruct (b <? 0); [apply Renege2.sp_fail|apply Renege2.sp_ret; exact Logic.I]|]. intros _ _.
+    spb ltac:(apply Renege2.sp_lift). intros p _.
     spb ltac:(apply sp_batch_loop). intros _ _.
-    apply sp_X. intros loc cr.
+    apply sp_X. intros loc cr. apply sp_G. intros gc.
     spb ltac:(apply spI_draw_arr). intros ia Hia. cbv beta in Hia.
     spb ltac:(apply spI_gets_arr). intros a' Ha'. cbv beta in Ha'.
-    spb ltac:(apply R.sp_lift). intros row Hrow. spb ltac:(apply R.sp_lift). intros old Hold. cbv beta in Hrow, Hold.
-    destruct Ha' as (A1 & _). rewrite Forall_forall in A1. pose proof (A1 _ (R.nthZ_In _ _ _ Hrow)) as Hr.
-    apply spI_set_dates; [exact Hr|]. rewrite Forall_forall in Hr. specialize (Hr _ (R.nthZ_In _ _ _ Hold)).
+    spb ltac:(apply Renege2.sp_lift). intros row Hrow. spb ltac:(apply Renege2.sp_lift). intros old Hold. cbv beta in Hrow, Hold.
+    destruct Ha' as (A1 & _). rewrite Forall_forall in A1. pose proof (A1 _ (Renege2.nthZ_In _ _ _ Hrow)) as Hr.
+    apply spI_set_dates; [exact Hr|]. rewrite Forall_forall in Hr. specialize (Hr _ (Renege2.nthZ_In _ _ _ Hold)).
     destruct old as [o|]; cbn in *; [lia|exact Logic.I].
   Qed.
 
-  Lemma sp_have_event : sp (InvX TNone) (InvX TNone) (R.have_event cf) top.
+  Lemma sp_have_event : sp (fun s => InvX TNone s /\ T3OK s) (InvX TNone) (Renege2.have_event cf) top.
   Proof.
-    unfold R.have_event. spb ltac:(apply sp_X; intros; apply spI_same; intros ?; repeat split; reflexivity). intros _ _.
-    spb ltac:(apply R.sp_gets). intros k _. destruct (k =? 0); [apply sp_arrival_have_event|apply sp_node_have_event].
+    intros s a s' [(loc & cr & gc & HI) HT] H. unfold Renege2.have_event in H.
+    minv H u s1 E. destruct (spI_same loc TNone None gc cr (fun s => s <| log := [] |>) ltac:(intros ?; repeat split; reflexivity) _ _ _ HI E) as [HI1 _].
+    apply Renege2.modify_inv in E. subst s1.
+    minv H k s1 E. apply Renege2.gets_inv in E as [-> ->].
+    destruct (next_active (s <| log := [] |>) =? 0); [exact (sp_arrival_have_event _ _ _ (InvX_of _ _ _ _ _ HI1) H)|].
+    apply (sp_node_have_event _ _ _ _ (conj (InvX_of _ _ _ _ _ HI1) HT) H).
   Qed.
 
   (* ---------- every node recomputes its next date ---------- *)
@@ -1052,14 +1760,14 @@ Section Clock2.
     dle d best /\ Forall (fun sv => dle d (sv_next_end sv)) l /\ (d = best \/ exists sv, In sv l /\ d = sv_next_end sv).
   Proof.
     induction l as [|sv r IH]; intros best acc d cs H; cbn [scan_servers] in H.
-    - inversion H. subst. split; [apply R.dle_refl|split; [constructor|left; reflexivity]].
+    - inversion H. subst. split; [apply Renege2.dle_refl|split; [constructor|left; reflexivity]].
     - destruct (date_lt (sv_next_end sv) best) eqn:E1.
-      + destruct (IH _ _ _ _ H) as (A & B & C). split; [eapply R.dle_trans; [exact A|apply R.date_lt_dle; exact E1]|]. split; [constructor; assumption|].
+      + destruct (IH _ _ _ _ H) as (A & B & C). split; [eapply Renege2.dle_trans; [exact A|apply Renege2.date_lt_dle; exact E1]|]. split; [constructor; assumption|].
         right. destruct C as [->|(sv' & Hin & ->)]; [exists sv; split; [left; reflexivity|reflexivity]|exists sv'; split; [right; exact Hin|reflexivity]].
-      + assert (Hb : dle best (sv_next_end sv)) by (apply R.date_nlt_dle; exact E1).
+      + assert (Hb : dle best (sv_next_end sv)) by (apply Renege2.date_nlt_dle; exact E1).
         assert (G : forall acc', scan_servers r best acc' = (d, cs) ->
                     dle d best /\ Forall (fun sv0 => dle d (sv_next_end sv0)) (sv :: r) /\ (d = best \/ exists sv0, In sv0 (sv :: r) /\ d = sv_next_end sv0)).
-        { intros acc' H'. destruct (IH _ _ _ _ H') as (A & B & C). split; [exact A|]. split; [constructor; [eapply R.dle_trans; eauto|exact B]|].
+        { intros acc' H'. destruct (IH _ _ _ _ H') as (A & B & C). split; [exact A|]. split; [constructor; [eapply Renege2.dle_trans; eauto|exact B]|].
           destruct C as [->|(sv' & Hin & ->)]; [left; reflexivity|right; exists sv'; split; [right; exact Hin|reflexivity]]. }
         destruct (date_eqb (sv_next_end sv) best && match best with Some _ => true | None => false end); eapply G; exact H.
   Qed.
@@ -1087,23 +1795,25 @@ Section Clock2.
       | SSlot sl => dle (n_next_date nd) (Some (slotdate sl (Z.to_nat (n_spos nd))))
       end /\
       (nd_inf nd = false -> nc_reneging nc = true ->
-         forall i z, In i (all_individuals nd) -> R.waiting_at il i z -> dle (n_next_date nd) (Some z)).
+         forall i z, In i (all_individuals nd) -> Renege2.waiting_at il i z -> dle (n_next_date nd) (Some z)) /\
+      (cf_dyn cf = true -> nd_inf nd = false -> dle (n_next_date nd) (n_nccd nd)) /\
+      (n_next_type nd = 3 -> cf_dyn cf = true /\ nd_inf nd = false /\ n_next_inds nd = match n_ncci nd with Some i => [i] | None => [] end).
 
-  Lemma une_spec loc cr j s s' : Inv loc TNone cr s -> update_next_event_date cf j s = Ok (tt, s') ->
+  Lemma une_spec loc gc cr j s s' : Inv loc TNone None gc cr s -> update_next_event_date cf j s = Ok (tt, s') ->
     exists nd d l ty, 1 <= j /\ nthZ (nodes s) (j - 1) = Some nd /\ n_id nd = j /\
       s' = s <| nodes := updZ (nodes s) (n_id nd - 1) (nd <| n_next_date := d |> <| n_next_inds := l |> <| n_next_type := ty |>) |> /\
       Fresh (inds s) (nd <| n_next_date := d |> <| n_next_inds := l |> <| n_next_type := ty |>).
   Proof.
     intros HI H. unfold update_next_event_date in H.
-    minv H nd s1 E1. apply R.get_node_inv in E1 as (-> & Hj & Hn).
-    minv H nc s1 E2. apply R.ncfg_of_inv in E2 as [-> Hc].
-    minv H t0 s1 E3. apply R.tnow_inv in E3 as [-> ->].
-    minv H il s1 E4. apply R.gets_inv in E4 as [-> ->].
+    minv H nd s1 E1. apply Renege2.get_node_inv in E1 as (-> & Hj & Hn).
+    minv H nc s1 E2. apply Renege2.ncfg_of_inv in E2 as [-> Hc].
+    minv H t0 s1 E3. apply Renege2.tnow_inv in E3 as [-> ->].
+    minv H il s1 E4. apply Renege2.gets_inv in E4 as [-> ->].
     cbv zeta in H.
     pose proof HI as (Hnow & _ & _ & HX & HND & HF & HG & _).
-    pose proof (R.Idx_get _ _ _ HX Hj Hn) as Hid. destruct (R.nthZ_nat _ _ _ Hn) as [_ Hn'].
-    pose proof (HG _ _ Hn') as (N1 & N2 & N3 & N4 & N5).
-    unfold NodeT in N5. rewrite Hid in N5. unfold ncf in N5. rewrite Hc in N5. destruct N5 as [T1 T2].
+    pose proof (Renege2.Idx_get _ _ _ HX Hj Hn) as Hid. destruct (Renege2.nthZ_nat _ _ _ Hn) as [_ Hn'].
+    pose proof (HG _ _ Hn') as (N1 & N2 & N3 & N4 & (T0 & TC & N5)).
+    rewrite Hid in N5. unfold ncf in N5. rewrite Hc in N5. destruct N5 as [T1 T2].
     set (es := if nc_slotted nc || nd_inf nd then scan_inds (now s) (all_individuals nd) (inds s) None [] else scan_servers (n_servers nd) None []) in H.
     (* the end-of-service candidate *)
     assert (Hes : dle (Some t) (fst es) /\ (nd_inf nd = false -> nc_slotted nc = false -> Forall (fun sv => dle (fst es) (sv_next_end sv)) (n_servers nd))).
@@ -1116,20 +1826,26 @@ Section Clock2.
     destruct Hes as [Hes1 Hes2].
     minv H rn s1 E5.
     assert (Hrn : s1 = s /\ dle (Some t) (fst rn) /\
-                  (nd_inf nd = false -> nc_reneging nc = true -> forall i z, In i (all_individuals nd) -> R.waiting_at (inds s) i z -> dle (fst rn) (Some z)) /\
+                  (nd_inf nd = false -> nc_reneging nc = true -> forall i z, In i (all_individuals nd) -> Renege2.waiting_at (inds s) i z -> dle (fst rn) (Some z)) /\
                   (nc_reneging nc = false -> fst rn = None)).
     { destruct (negb (nd_inf nd) && nc_reneging nc) eqn:Eb.
-      - apply R.lift_inv in E5 as [E5 ->]. split; [reflexivity|]. apply andb_true_iff in Eb as [Eb1 Eb2]. apply negb_true_iff in Eb1.
-        destruct rn as [rd rl]. destruct (R.scan_ren_min _ _ _ _ E5) as (_ & G2 & G3 & G4 & _). cbn [fst]. split; [|split; [intros _ _; exact G2|intros Hr; rewrite Eb2 in Hr; discriminate]].
+      - apply Renege2.lift_inv in E5 as [E5 ->]. split; [reflexivity|]. apply andb_true_iff in Eb as [Eb1 Eb2]. apply negb_true_iff in Eb1.
+        destruct rn as [rd rl]. destruct (Renege2.scan_ren_min _ _ _ _ E5) as (_ & G2 & G3 & G4 & _). cbn [fst]. split; [|split; [intros _ _; exact G2|intros Hr; rewrite Eb2 in Hr; discriminate]].
         destruct rd as [z0|]; [|exact Logic.I]. destruct rl as [|i rl]; [exfalso; apply G4; [discriminate|reflexivity]|].
         destruct (G3 i (or_introl eq_refl)) as (Hq & z & (x & Hx & Hxr & Hxs) & Hz). injection Hz as <-.
-        destruct (N3 _ Hq) as (_ & _ & Hl). rewrite Forall_forall in HF. destruct (HF x (R.find_ind_In _ _ _ Hx)) as (_ & _ & XC).
-        destruct (XC eq_refl) as [(j' & Hj' & Hl') HP]. rewrite (R.find_ind_id _ _ _ Hx), Hl in Hl'. injection Hl' as <-.
+        destruct (N3 _ Hq) as (_ & _ & Hl). rewrite Forall_forall in HF. destruct (HF x (Renege2.find_ind_In _ _ _ Hx)) as (_ & _ & XC & _).
+        destruct (XC eq_refl) as [(j' & Hj' & Hl') [HP _]]. rewrite (Renege2.find_ind_id _ _ _ Hx), Hl in Hl'. injection Hl' as <-.
         cbn. apply (HP (n_id nd) z0 Hj'); [unfold ren_at, ncf; rewrite Hid, Hc; exact Eb2|rewrite <- N1; exact Eb1|exact Hxr|exact Hxs].
-      - apply R.ret_inv in E5 as [-> ->]. split; [reflexivity|]. split; [exact Logic.I|]. split; [|reflexivity]. intros Hi Hr. rewrite Hi, Hr in Eb. discriminate. }
+      - apply Renege2.ret_inv in E5 as [-> ->]. split; [reflexivity|]. split; [exact Logic.I|]. split; [|reflexivity]. intros Hi Hr. rewrite Hi, Hr in Eb. discriminate. }
     destruct Hrn as (-> & Hrn1 & Hrn2 & Hrn3). clear E5.
     set (cc := if cf_dyn cf && negb (nd_inf nd) then (n_nccd nd, match n_ncci nd with Some i => [i] | None => [] end) else (None, [])) in H.
-    assert (Hcc : fst cc = None) by (unfold cc; rewrite Hdyn; reflexivity).
+    assert (Hcc : dle (Some t) (fst cc) /\ (cf_dyn cf = true -> nd_inf nd = false -> cc = (n_nccd nd, match n_ncci nd with Some i => [i] | None => [] end)) /\
+                  (forall z, fst cc = Some z -> cf_dyn cf = true /\ nd_inf nd = false)).
+    { unfold cc. destruct (cf_dyn cf) eqn:Hd; [destruct (nd_inf nd) eqn:Hi|]; cbn [andb negb fst].
+      - split; [exact Logic.I|]. split; [intros _ Q; discriminate Q|intros z Q; discriminate Q].
+      - split; [destruct (TC eq_refl) as [_ TC2]; destruct (TC2 eq_refl) as [TC3 _]; exact TC3|]. split; [auto|auto].
+      - split; [exact Logic.I|]. split; [intros Q; discriminate Q|intros z Q; discriminate Q]. }
+    destruct Hcc as (Hcc1 & Hcc2 & Hcc3).
     set (sh := match nc_srv nc with
                | SSched _ => [(1, (n_next_shift nd, []))]
                | SSlot sl => [(4, (Some (snd (slot_values sl (Z.to_nat (n_spos nd)))), []))]
@@ -1137,22 +1853,24 @@ Section Clock2.
     assert (Hgen : forall d l ty, dle (Some t) d -> dle d (fst es) -> dle d (fst rn) ->
                      match nc_srv nc with SFixed => True | SSched _ => dle d (n_next_shift nd)
                                      | SSlot sl => dle d (Some (slotdate sl (Z.to_nat (n_spos nd)))) end ->
+                     (cf_dyn cf = true -> nd_inf nd = false -> dle d (n_nccd nd)) ->
+                     (ty = 3 -> cf_dyn cf = true /\ nd_inf nd = false /\ l = match n_ncci nd with Some i => [i] | None => [] end) ->
                      Fresh (inds s) (nd <| n_next_date := d |> <| n_next_inds := l |> <| n_next_type := ty |>)).
-    { intros d l ty G1 G2 G3 G4. unfold Fresh. cbn [n_next_date n_id n_servers n_next_shift n_spos set]. split; [exact G1|].
-      exists nc. split; [unfold ncf; rewrite Hid; exact Hc|]. split; [|split; [exact G4|]].
-      - intros Hi Hs. specialize (Hes2 Hi Hs). eapply Forall_impl; [|exact Hes2]. intros sv Hsv. eapply R.dle_trans; [exact G2|exact Hsv].
-      - intros Hi Hr i z Hq Hw. eapply R.dle_trans; [exact G3|]. exact (Hrn2 Hi Hr i z Hq Hw). }
+    { intros d l ty G1 G2 G3 G4 G5 G6. unfold Fresh. cbn [n_next_date n_next_inds n_next_type n_id n_servers n_next_shift n_spos n_nccd n_ncci set]. split; [exact G1|].
+      exists nc. split; [unfold ncf; rewrite Hid; exact Hc|]. split; [|split; [exact G4|split; [|split; [exact G5|exact G6]]]].
+      - intros Hi Hs. specialize (Hes2 Hi Hs). eapply Forall_impl; [|exact Hes2]. intros sv Hsv. eapply Renege2.dle_trans; [exact G2|exact Hsv].
+      - intros Hi Hr i z Hq Hw. eapply Renege2.dle_trans; [exact G3|]. exact (Hrn2 Hi Hr i z Hq Hw). }
     destruct (nc_reneging nc || cf_dyn cf || nc_sched nc) eqn:Eg.
     - destruct (decide_next_event (sh ++ [(0, es); (3, cc); (2, rn)]) (5, (None, []))) as [ty [d l]] eqn:ED.
-      unfold put_node in H. apply R.modify_inv in H. exists nd, d, l, ty. repeat (split; [assumption|]).
-      pose proof (R.dne_spec (sh ++ [(0, es); (3, cc); (2, rn)]) (5, (None, []))) as DS. cbv zeta in DS. rewrite ED in DS. cbn [fst snd] in DS.
+      unfold put_node in H. apply Renege2.modify_inv in H. exists nd, d, l, ty. repeat (split; [assumption|]).
+      pose proof (Renege2.dne_spec (sh ++ [(0, es); (3, cc); (2, rn)]) (5, (None, []))) as DS. cbv zeta in DS. rewrite ED in DS. cbn [fst snd] in DS.
       destruct DS as (DA & _ & DC). rewrite Forall_forall in DC.
       assert (Hall : forall c, In c (sh ++ [(0, es); (3, cc); (2, rn)]) -> dle (Some t) (fst (snd c))).
       { intros c Hin. apply in_app_or in Hin as [Hin|Hin].
         - unfold sh in Hin. destruct (nc_srv nc) as [|sc|sl]; [destruct Hin| |]; destruct Hin as [<-|[]]; cbn [fst snd].
           + destruct T2 as (_ & -> & T2). exact T2.
           + destruct T2 as (_ & T2). exact T2.
-        - destruct Hin as [<-|[<-|[<-|[]]]]; cbn [fst snd]; [exact Hes1|rewrite Hcc; exact Logic.I|exact Hrn1]. }
+        - destruct Hin as [<-|[<-|[<-|[]]]]; cbn [fst snd]; [exact Hes1|exact Hcc1|exact Hrn1]. }
       apply Hgen.
       + destruct DA as [DA|(DA & _)]; [injection DA as _ -> _; exact Logic.I|]. apply (Hall _ DA).
       + apply (DC (0, es)). apply in_or_app. right. left. reflexivity.
@@ -1160,11 +1878,21 @@ Section Clock2.
       + unfold sh in DC. destruct (nc_srv nc) as [|sc|sl]; [exact Logic.I| |].
         * apply (DC (1, (n_next_shift nd, []))). left. reflexivity.
         * apply (DC (4, (Some (snd (slot_values sl (Z.to_nat (n_spos nd)))), []))). left. reflexivity.
-    - unfold put_node in H. apply R.modify_inv in H. exists nd, (fst es), (snd es), 0. repeat (split; [assumption|]).
+      + intros Hd Hi. specialize (DC (3, cc)). rewrite (Hcc2 Hd Hi) in DC. apply DC. apply in_or_app. right. right. left. reflexivity.
+      + intros ->. destruct DA as [DA|(DA & z & Hz)]; [discriminate DA|].
+        assert (E3 : (d, l) = cc).
+        { apply in_app_or in DA as [DA|DA].
+          - exfalso. unfold sh in DA. destruct (nc_srv nc); [destruct DA|destruct DA as [DA|[]]; discriminate DA|destruct DA as [DA|[]]; discriminate DA].
+          - destruct DA as [DA|[DA|[DA|[]]]]; [discriminate DA|injection DA as <-; reflexivity|discriminate DA]. }
+        assert (Hz' : fst cc = Some z) by (rewrite <- E3; exact Hz). destruct (Hcc3 _ Hz') as [Hd Hi]. split; [exact Hd|]. split; [exact Hi|].
+        rewrite (Hcc2 Hd Hi) in E3. injection E3 as _ ->. reflexivity.
+    - unfold put_node in H. apply Renege2.modify_inv in H. exists nd, (fst es), (snd es), 0. repeat (split; [assumption|]).
       apply orb_false_iff in Eg as [Eg Eg3]. apply orb_false_iff in Eg as [Eg1 Eg2].
-      apply Hgen; [exact Hes1|apply R.dle_refl| |].
+      apply Hgen; [exact Hes1|apply Renege2.dle_refl| | | |].
       + rewrite (Hrn3 Eg1). destruct (fst es); exact Logic.I.
       + unfold nc_sched in Eg3. destruct (nc_srv nc); [exact Logic.I|discriminate|discriminate].
+      + intros Hd. congruence.
+      + intros Q. discriminate Q.
   Qed.
 
   Lemma map_upd_same {A B} (f : A -> B) : forall (l : list A) k x y, nth_error l k = Some y -> f x = f y -> map f (upd l k x) = map f l.
@@ -1172,39 +1900,39 @@ Section Clock2.
 
   Definition U (P : Z -> Prop) (s : sim) : Prop := forall k nd, nth_error (nodes s) k = Some nd -> P (n_id nd) -> Fresh (inds s) nd.
 
-  Lemma une_keeps loc cr j P s s' : Inv loc TNone cr s -> U P s -> update_next_event_date cf j s = Ok (tt, s') ->
-    Inv loc TNone cr s' /\ U (fun x => x = j \/ P x) s' /\ map n_id (nodes s') = map n_id (nodes s).
+  Lemma une_keeps loc gc cr j P s s' : Inv loc TNone None gc cr s -> U P s -> update_next_event_date cf j s = Ok (tt, s') ->
+    Inv loc TNone None gc cr s' /\ U (fun x => x = j \/ P x) s' /\ map n_id (nodes s') = map n_id (nodes s).
   Proof.
-    intros HI HU H. destruct (une_spec _ _ _ _ _ HI H) as (nd & d & l & ty & Hj & Hn & Hid & -> & HF).
+    intros HI HU H. destruct (une_spec _ _ _ _ _ _ HI H) as (nd & d & l & ty & Hj & Hn & Hid & -> & HF).
     set (nd' := nd <| n_next_date := d |> <| n_next_inds := l |> <| n_next_type := ty |>) in *.
-    pose proof HI as (_ & _ & _ & HX & _ & _ & HG & _). destruct (R.nthZ_nat _ _ _ Hn) as [Hj0 Hn'].
-    assert (Hok : NodeOK loc TNone cr nd') by (apply (NodeOK_nrel _ _ _ nd _ (HG _ _ Hn')); try reflexivity; intros HS; exact HS).
+    pose proof HI as (_ & _ & _ & HX & _ & _ & HG & _). destruct (Renege2.nthZ_nat _ _ _ Hn) as [Hj0 Hn'].
+    assert (Hok : NodeOK loc TNone None gc cr nd') by (apply (NodeOK_nrel _ _ _ _ _ nd _ (HG _ _ Hn')); try reflexivity; intros HS; exact HS).
     split; [change (n_id nd) with (n_id nd'); apply Inv_put_node; assumption|]. cbn [nodes inds set].
     rewrite Hid. unfold updZ. destruct (j - 1 <? 0) eqn:Ej; [apply Z.ltb_lt in Ej; lia|]. split.
     - intros k x Hk HPx. cbn [nodes inds set] in Hk |- *.
-      destruct (R.nth_error_upd_cases _ _ _ _ _ Hk) as [[-> ->]|[Hne Hk']]; [exact HF|].
+      destruct (Renege2.nth_error_upd_cases _ _ _ _ _ Hk) as [[-> ->]|[Hne Hk']]; [exact HF|].
       apply (HU k x Hk'). destruct HPx as [HPx|HPx]; [|exact HPx]. exfalso. apply Hne. pose proof (HX _ _ Hk'). lia.
     - eapply map_upd_same; [exact Hn'|reflexivity].
   Qed.
 
-  Lemma update_all_keeps loc cr : forall js P s s', Inv loc TNone cr s -> U P s -> update_all cf js s = Ok (tt, s') ->
-    Inv loc TNone cr s' /\ U (fun x => In x js \/ P x) s' /\ map n_id (nodes s') = map n_id (nodes s).
+  Lemma update_all_keeps loc gc cr : forall js P s s', Inv loc TNone None gc cr s -> U P s -> update_all cf js s = Ok (tt, s') ->
+    Inv loc TNone None gc cr s' /\ U (fun x => In x js \/ P x) s' /\ map n_id (nodes s') = map n_id (nodes s).
   Proof.
     induction js as [|j r IH]; intros P s s' HI HU H; cbn [update_all] in H.
-    - apply R.ret_inv in H as [_ ->]. split; [exact HI|split; [|reflexivity]]. intros k nd Hk [[]|Hp]. eapply HU; eauto.
-    - minv H u s1 E. destruct u. destruct (une_keeps _ _ _ _ _ _ HI HU E) as (K1 & U1 & M1).
+    - apply Renege2.ret_inv in H as [_ ->]. split; [exact HI|split; [|reflexivity]]. intros k nd Hk [[]|Hp]. eapply HU; eauto.
+    - minv H u s1 E. destruct u. destruct (une_keeps _ _ _ _ _ _ _ HI HU E) as (K1 & U1 & M1).
       destruct (IH _ _ _ K1 U1 H) as (K2 & U2 & M2). split; [exact K2|split; [|congruence]].
       intros k nd Hk Hp. apply (U2 k nd Hk). destruct Hp as [[<-|Hp]|Hp]; auto.
   Qed.
 
   (* one event up to the choice of the next active node *)
-  Lemma event_body_keeps s s2 : InvX TNone s -> R.have_event cf s = Ok (tt, s2) ->
+  Lemma event_body_keeps s s2 : InvX TNone s -> T3OK s -> Renege2.have_event cf s = Ok (tt, s2) ->
     forall s3, update_all cf (map n_id (nodes s2)) s2 = Ok (tt, s3) ->
-    exists loc cr, Inv loc TNone cr s3 /\ forall k nd, nth_error (nodes s3) k = Some nd -> Fresh (inds s3) nd.
+    exists loc gc cr, Inv loc TNone None gc cr s3 /\ forall k nd, nth_error (nodes s3) k = Some nd -> Fresh (inds s3) nd.
   Proof.
-    intros HI E1 s3 E2. destruct (sp_have_event _ _ _ HI E1) as [(loc & cr & HI2) _].
-    destruct (update_all_keeps loc cr _ (fun _ => False) _ _ HI2 ltac:(intros k nd _ []) E2) as (K3 & U3 & M3).
-    exists loc, cr. split; [exact K3|]. intros k nd Hk. apply (U3 k nd Hk). left. rewrite <- M3. apply in_map. eapply nth_error_In; eauto.
+    intros HI HT E1 s3 E2. destruct (sp_have_event _ _ _ (conj HI HT) E1) as [(loc & cr & gc & HI2) _].
+    destruct (update_all_keeps loc gc cr _ (fun _ => False) _ _ HI2 ltac:(intros k nd _ []) E2) as (K3 & U3 & M3).
+    exists loc, gc, cr. split; [exact K3|]. intros k nd Hk. apply (U3 k nd Hk). left. rewrite <- M3. apply in_map. eapply nth_error_In; eauto.
   Qed.
 End Clock2.
 
@@ -1230,19 +1958,19 @@ Lemma fnan_spec s s' : find_next_active_node s = Ok (tt, s') ->
   exists d, now s' = (match d with Some e => e | None => now s end) /\ Forall (dle d) (dates_of s) /\
             0 <= next_active s' /\ nth_error (dates_of s) (Z.to_nat (next_active s')) = Some d.
 Proof.
-  intros H. unfold find_next_active_node in H. minv H s0 s1 E. apply R.gets_inv in E as [-> ->]. cbv zeta in H.
+  intros H. unfold find_next_active_node in H. minv H s0 s1 E. apply Renege2.gets_inv in E as [-> ->]. cbv zeta in H.
   fold (dates_of s) in H.
   destruct (scan_active 0 (dates_of s) None []) as [d cands] eqn:ES.
-  destruct (R.scan_active_spec _ _ _ _ _ _ ES) as (_ & SB & SC).
+  destruct (Renege2.scan_active_spec _ _ _ _ _ _ ES) as (_ & SB & SC).
   minv H k s1 E.
   assert (Hk : In k cands /\ nodes s1 = nodes s /\ inds s1 = inds s /\ arr s1 = arr s /\ now s1 = now s /\
                (d_svc (dr s1) = d_svc (dr s) /\ d_arr (dr s1) = d_arr (dr s) /\ d_ren (dr s1) = d_ren (dr s) /\ d_cct (dr s1) = d_cct (dr s))).
   { destruct cands as [|a [|b r]].
     - discriminate.
-    - apply R.ret_inv in E as [-> ->]. split; [left; reflexivity|repeat split; reflexivity].
-    - apply R.choice_uniform_inv in E as (Hin & u & rest & _ & ->). split; [exact Hin|repeat split; reflexivity]. }
+    - apply Renege2.ret_inv in E as [-> ->]. split; [left; reflexivity|repeat split; reflexivity].
+    - apply Renege2.choice_uniform_inv in E as (Hin & u & rest & _ & ->). split; [exact Hin|repeat split; reflexivity]. }
   destruct Hk as (Hk & K1 & K2 & K3 & K4 & K5).
-  apply R.modify_inv in H. subst s'. cbn [nodes inds arr dr now next_active set]. rewrite K1, K2, K3, K4. repeat (split; [first [reflexivity|exact K5]|]).
+  apply Renege2.modify_inv in H. subst s'. cbn [nodes inds arr dr now next_active set]. rewrite K1, K2, K3, K4. repeat (split; [first [reflexivity|exact K5]|]).
   exists d. split; [reflexivity|]. split; [exact SB|].
   destruct (SC k Hk) as [[[] _]|(n & -> & Hn)]. split; [lia|]. replace (Z.to_nat (0 + Z.of_nat n)) with n by lia. exact Hn.
 Qed.
@@ -1250,13 +1978,13 @@ Qed.
 Lemma ArrOK_next t a : ArrOK t a -> dle (Some t) (a_next_date a).
 Proof.
   intros (A & _ & [->|(row & Hr & Hc)]); [exact I|].
-  apply R.nthZ_In in Hr. apply R.nthZ_In in Hc. rewrite Forall_forall in A. specialize (A _ Hr). rewrite Forall_forall in A. apply (A _ Hc).
+  apply Renege2.nthZ_In in Hr. apply Renege2.nthZ_In in Hc. rewrite Forall_forall in A. specialize (A _ Hr). rewrite Forall_forall in A. apply (A _ Hc).
 Qed.
 
-Lemma Inv_now cf inf_at t nn loc cr s2 s' : Inv cf inf_at t nn loc TNone cr s2 ->
+Lemma Inv_now cf inf_at t nn loc gc cr s2 s' : Inv cf inf_at t nn loc TNone None gc cr s2 ->
   (forall k nd, nth_error (nodes s2) k = Some nd -> Fresh cf t (inds s2) nd) ->
   find_next_active_node s2 = Ok (tt, s') ->
-  Inv cf inf_at (now s') nn loc TNone cr s' /\ t <= now s' /\ Nxt s' /\ Act s'.
+  Inv cf inf_at (now s') nn loc TNone None gc cr s' /\ t <= now s' /\ Nxt s' /\ Act s' /\ T3OK cf s'.
 Proof.
   intros (A & B & C & D0 & E & F & G & H & K & L) HU HF.
   destruct (fnan_spec _ _ HF) as (N1 & N2 & N3 & N4 & d & Hnow & Hall & Hact0 & Hnth).
@@ -1279,102 +2007,136 @@ Proof.
     pose proof (D0 _ _ Hk) as Hid. destruct (G _ _ Hk) as (M1 & M2 & M3 & M4 & M5).
     assert (Hidj : n_id nd = j) by lia.
     assert (Hin : In (i_id y) (all_individuals nd)) by (apply M4; [reflexivity|rewrite Hidj; exact Hl]).
-    destruct (HU _ _ Hk) as (_ & nc & Hc & _ & _ & HR). rewrite Hidj in Hc.
+    destruct (HU _ _ Hk) as (_ & nc & Hc & _ & _ & HR & _). rewrite Hidj in Hc.
     unfold ren_at in Hr. rewrite Hc in Hr.
-    assert (Hw : R.waiting_at (inds s2) (i_id y) z) by (exists y; split; [apply R.find_ind_NoDup; assumption|auto]).
+    assert (Hw : Renege2.waiting_at (inds s2) (i_id y) z) by (exists y; split; [apply Renege2.find_ind_NoDup; assumption|auto]).
     assert (Hdz : dle (n_next_date nd) (Some z)) by (apply (HR ltac:(rewrite M1, Hidj; exact Hi) Hr _ _ Hin Hw)).
-    pose proof (R.dle_trans _ _ _ (Gn _ _ Hk) Hdz) as Hfin. exact Hfin. }
-  split; [|split; [exact Ht|split]].
+    pose proof (Renege2.dle_trans _ _ _ (Gn _ _ Hk) Hdz) as Hfin. exact Hfin. }
+  (* ... and so does every waiting customer with a class-change date, through its node's next_class_change_date *)
+  assert (BoundC : cf_dyn cf = true -> forall y j z, In y (inds s2) -> i_node y = Some j -> loc (i_id y) = Some j -> inf_at j = false ->
+                    dle (fst (gc j)) (Some z) -> t' <= z).
+  { intros Hd y j z Hy Hj Hl Hi Hz.
+    destruct (H _ _ Hl) as [Hj1 Hj2].
+    destruct (nth_error (nodes s2) (Z.to_nat (j - 1))) as [nd|] eqn:Hk; [|apply nth_error_None in Hk; lia].
+    pose proof (D0 _ _ Hk) as Hid. destruct (G _ _ Hk) as (M1 & M2 & M3 & M4 & (T0 & T1 & _)).
+    assert (Hidj : n_id nd = j) by lia. destruct (T1 Hd) as [T3 _]. rewrite Hidj in T3. rewrite <- T3 in Hz. cbn [fst] in Hz.
+    destruct (HU _ _ Hk) as (_ & nc & Hc & _ & _ & _ & HCC & _).
+    pose proof (HCC Hd ltac:(rewrite M1, Hidj; exact Hi)) as Hnc.
+    exact (Renege2.dle_trans _ _ _ (Gn _ _ Hk) (Renege2.dle_trans _ _ _ Hnc Hz)). }
+  split; [|split; [exact Ht|split; [|split]]].
   - unfold Inv. split; [reflexivity|]. split; [rewrite N3; exact B|]. split; [rewrite N1; exact C|]. split; [unfold Idx; rewrite N1; exact D0|].
     split; [rewrite N2; exact E|]. split; [|split; [|split; [exact H|split]]].
-    + rewrite N2. apply Forall_forall. intros y Hy. destruct (F y Hy) as (YA & YB & YC). split; [exact YA|]. split; [exact YB|].
-      intros Ho. destruct (YC Ho) as [(j & Hj & Hl) HP]. split; [exists j; auto|].
-      intros j' z Hj' Hr Hi Hz Hs. rewrite Hj in Hj'. injection Hj' as <-. eapply Bound; eauto.
-    + rewrite N1. intros k nd Hk. destruct (G _ _ Hk) as (M1 & M2 & M3 & M4 & M5). repeat (split; [assumption|]).
-      destruct (HU _ _ Hk) as (_ & nc & Hc & HS & HT & _). unfold NodeT in *. rewrite Hc in *. destruct M5 as [T1 T2]. split.
-      * intros Hi Hs. specialize (HS Hi Hs). eapply Forall_impl; [|exact HS]. intros sv Hsv. unfold SvOK. eapply R.dle_trans; [apply (Gn _ _ Hk)|exact Hsv].
+    + rewrite N2. apply Forall_forall. intros y Hy. destruct (F y Hy) as (YA & YB & YC & YD). split; [exact YA|]. split; [exact YB|]. split; [|exact YD].
+      intros Ho. destruct (YC Ho) as [(j & Hj & Hl) [HP HQ]]. split; [exists j; auto|]. split.
+      * intros j' z Hj' Hr Hi Hz Hs. rewrite Hj in Hj'. injection Hj' as <-. eapply Bound; eauto.
+      * intros Hd j' Hj' Hi. destruct (HQ Hd j' Hj' Hi) as [Ca Cb]. split; [|exact Cb].
+        intros Hs z Hz. destruct (Ca Hs z Hz) as [Q|[Q1 Q2]]; [discriminate Q|]. right. split; [|exact Q2].
+        rewrite Hj in Hj'. injection Hj' as <-. eapply BoundC; eauto.
+    + rewrite N1. intros k nd Hk. destruct (G _ _ Hk) as (M1 & M2 & M3 & M4 & (T0 & TC & M5)). split; [exact M1|]. split; [exact M2|]. split; [exact M3|]. split; [exact M4|].
+      destruct (HU _ _ Hk) as (_ & nc & Hc & HS & HT & _ & HCC & _). split; [exact T0|]. split.
+      { intros Hd. destruct (TC Hd) as [TC1 TC2]. split; [exact TC1|]. intros Hi. destruct (TC2 Hi) as [TC3 TC4]. split; [|exact TC4].
+        exact (Renege2.dle_trans _ _ _ (Gn _ _ Hk) (HCC Hd Hi)). }
+      rewrite Hc in *. destruct M5 as [T1 T2]. split.
+      * intros Hi Hs. specialize (HS Hi Hs). eapply Forall_impl; [|exact HS]. intros sv Hsv. unfold SvOK. eapply Renege2.dle_trans; [apply (Gn _ _ Hk)|exact Hsv].
       * destruct (nc_srv nc) as [|sc|sl]; [exact I| |].
-        -- destruct T2 as (T2 & T3 & T4). split; [exact T2|]. split; [exact T3|]. rewrite T3 in HT. exact (R.dle_trans _ _ _ (Gn _ _ Hk) HT).
-        -- destruct T2 as (T2 & T3). split; [exact T2|]. exact (R.dle_trans _ _ _ (Gn _ _ Hk) HT).
+        -- destruct T2 as (T2 & T3 & T4). split; [exact T2|]. split; [exact T3|]. rewrite T3 in HT. exact (Renege2.dle_trans _ _ _ (Gn _ _ Hk) HT).
+        -- destruct T2 as (T2 & T3). split; [exact T2|]. exact (Renege2.dle_trans _ _ _ (Gn _ _ Hk) HT).
     + rewrite N3. destruct K as (K1 & K2 & K3). split; [|split; [exact K2|exact K3]].
       eapply Forall_impl; [|exact K2]. intros row Hrow. eapply Forall_impl; [|exact Hrow]. intros x Hx.
-      eapply R.dle_trans; [|exact Hx]. apply GG. left. reflexivity.
+      eapply Renege2.dle_trans; [|exact Hx]. apply GG. left. reflexivity.
     + destruct L as (L1 & L2 & L3 & L4). destruct N4 as (E1 & E2 & E3 & E4). unfold DrawsOK. rewrite E1, E2, E3, E4. auto.
   - intros nd Hin. rewrite N1 in Hin. apply GG. right. apply in_map. exact Hin.
   - assert (Hdates : dates_of s' = dates_of s2) by (unfold dates_of; rewrite N1, N3; reflexivity).
     unfold Act. rewrite Hdates. split; [exact Hact0|]. exists d. split; [exact Hnth|].
     fold t'. rewrite Hnow. destruct d as [e|]; [left; reflexivity|right; split; [reflexivity|]].
     apply Forall_forall. intros x Hx. apply dle_None. apply Hall. exact Hx.
+  - intros Hd j nd Hn Hty. rewrite N1 in Hn. destruct (Renege2.nthZ_nat _ _ _ Hn) as [_ Hn']. destruct (HU _ _ Hn') as (_ & nc & _ & _ & _ & _ & _ & H3).
+    destruct (H3 Hty) as (_ & Q2 & Q3). auto.
 Qed.
 
 (* ================================================================================================================ *)
 (* the invariant between events, closed form                                                                        *)
 (* ================================================================================================================ *)
-Lemma Inv_ext cf inf_at inf_at' t nn loc loc' tr cr s :
+(* the class-change bookkeeping the nodes hold *)
+Definition gc_q (s : sim) (j : Z) : option Z * option Z :=
+  match nthZ (nodes s) (j - 1) with Some nd => (n_nccd nd, n_ncci nd) | None => (None, None) end.
+
+Lemma Inv_ext cf inf_at inf_at' t nn loc loc' gc gc' tr cr s :
   (forall id, loc' id = loc id) -> (forall j, 1 <= j <= Z.of_nat nn -> inf_at' j = inf_at j) ->
-  Inv cf inf_at t nn loc tr cr s -> Inv cf inf_at' t nn loc' tr cr s.
+  (cf_dyn cf = true -> forall j, 1 <= j <= Z.of_nat nn -> gc' j = gc j) ->
+  Inv cf inf_at t nn loc tr None gc cr s -> Inv cf inf_at' t nn loc' tr None gc' cr s.
 Proof.
-  intros HL HF (A & B & C & D0 & E & F & G & H & K & L). unfold Inv. repeat (split; [assumption|]). split; [|split; [|split; [|auto]]].
-  - eapply Forall_impl; [|exact F]. intros y (YA & YB & YC). split; [exact YA|]. split; [exact YB|].
-    intros Ho. destruct (YC Ho) as [(j & Hj & Hl) HP]. split; [exists j; rewrite HL; auto|].
-    intros j' z Hj' Hr Hi. apply (HP j' z Hj' Hr). rewrite <- HF; [exact Hi|]. rewrite Hj in Hj'. injection Hj' as <-. eapply H; eauto.
-  - intros k nd Hk. destruct (G _ _ Hk) as (M1 & M2 & M3 & M4 & M5). pose proof (D0 _ _ Hk) as Hid.
+  intros HL HF HG (A & B & C & D0 & E & F & G & H & K & L). unfold Inv. repeat (split; [assumption|]). split; [|split; [|split; [|auto]]].
+  - eapply Forall_impl; [|exact F]. intros y (YA & YB & YC & YD). split; [exact YA|]. split; [exact YB|]. split; [|intros j He; discriminate He].
+    intros Ho. destruct (YC Ho) as [(j & Hj & Hl) [HP HQ]]. pose proof (H _ _ Hl) as Hjr. split; [exists j; rewrite HL; auto|]. split.
+    + intros j' z Hj' Hr Hi. apply (HP j' z Hj' Hr). rewrite <- HF; [exact Hi|]. rewrite Hj in Hj'. injection Hj' as <-. exact Hjr.
+    + intros Hd j' Hj' Hi. rewrite Hj in Hj'. injection Hj' as <-. rewrite HF in Hi by exact Hjr. unfold CCI. rewrite (HG Hd j Hjr). exact (HQ Hd j Hj Hi).
+  - intros k nd Hk. destruct (G _ _ Hk) as (M1 & M2 & M3 & M4 & (T0 & T1 & T2)). pose proof (D0 _ _ Hk) as Hid.
     assert (Hlt : (k < length (nodes s))%nat) by (apply nth_error_Some; rewrite Hk; discriminate).
-    split; [rewrite HF; [exact M1|lia]|]. split; [exact M2|]. split; [|split; [|exact M5]].
+    split; [rewrite HF; [exact M1|lia]|]. split; [exact M2|]. split; [|split; [|split; [exact T0|split; [|exact T2]]]].
     + intros id Hi. rewrite HL. apply M3. exact Hi.
     + intros id Ho Hl. rewrite HL in Hl. apply M4; assumption.
+    + intros Hd. rewrite (HG Hd) by lia. exact (T1 Hd).
   - intros id j Hl. rewrite HL in Hl. eapply H; eauto.
 Qed.
 
-Lemma Inv_canon cf inf_at t nn loc cr s : Inv cf inf_at t nn loc TNone cr s ->
+Lemma Inv_canon cf inf_at t nn loc gc cr s : Inv cf inf_at t nn loc TNone None gc cr s ->
   (forall j nc sc, nthZ (cf_nodes cf) (j - 1) = Some nc -> nc_srv nc = SSched sc -> inf_at j = false) ->
-  Inv cf (R.inf_of s) t (length (nodes s)) (R.loc_q s) TNone (a_created (arr s)) s /\ R.sched_fin cf s.
+  Inv cf (Renege2.inf_of s) t (length (nodes s)) (Renege2.loc_q s) TNone None (gc_q s) (a_created (arr s)) s /\ Renege2.sched_fin cf s.
 Proof.
   intros HI Hsch. pose proof HI as (A & B & C & D0 & E & F & G & H & K & L).
-  assert (Hinf : forall j, 1 <= j <= Z.of_nat nn -> R.inf_of s j = inf_at j).
-  { intros j Hj. unfold R.inf_of, nthZ. destruct (j - 1 <? 0) eqn:Ej; [apply Z.ltb_lt in Ej; lia|].
+  assert (Hinf : forall j, 1 <= j <= Z.of_nat nn -> Renege2.inf_of s j = inf_at j).
+  { intros j Hj. unfold Renege2.inf_of, nthZ. destruct (j - 1 <? 0) eqn:Ej; [apply Z.ltb_lt in Ej; lia|].
     destruct (nth_error (nodes s) (Z.to_nat (j - 1))) as [nd|] eqn:Hk; [|apply nth_error_None in Hk; lia].
     destruct (G _ _ Hk) as (M1 & _). rewrite M1. f_equal. rewrite (D0 _ _ Hk). lia. }
   split.
-  - rewrite B, C. apply (Inv_ext cf inf_at (R.inf_of s) t nn loc (R.loc_q s)); [|exact Hinf|exact HI].
-    intros id. unfold R.loc_q. destruct (R.find_q (nodes s) id) as [j|] eqn:Eq.
-    + destruct (R.find_q_Some _ _ _ Eq) as (nd & Hin & Hid & Hi). apply In_nth_error in Hin as [k Hk]. destruct (G _ _ Hk) as (_ & _ & M3 & _).
-      destruct (M3 _ Hi) as (_ & _ & Hl). rewrite Hl, Hid. reflexivity.
-    + destruct (loc id) as [j|] eqn:El; [|reflexivity]. exfalso. destruct (H _ _ El) as [Hj1 Hj2].
+  - rewrite B, C. apply (Inv_ext cf inf_at (Renege2.inf_of s) t nn loc (Renege2.loc_q s) gc (gc_q s)); [|exact Hinf| |exact HI].
+    + intros id. unfold Renege2.loc_q. destruct (Renege2.find_q (nodes s) id) as [j|] eqn:Eq.
+      * destruct (Renege2.find_q_Some _ _ _ Eq) as (nd & Hin & Hid & Hi). apply In_nth_error in Hin as [k Hk]. destruct (G _ _ Hk) as (_ & _ & M3 & _).
+        destruct (M3 _ Hi) as (_ & _ & Hl). rewrite Hl, Hid. reflexivity.
+      * destruct (loc id) as [j|] eqn:El; [|reflexivity]. exfalso. destruct (H _ _ El) as [Hj1 Hj2].
+        destruct (nth_error (nodes s) (Z.to_nat (j - 1))) as [nd|] eqn:Hk; [|apply nth_error_None in Hk; lia].
+        destruct (G _ _ Hk) as (_ & _ & _ & M4 & _). apply (Renege2.find_q_None _ _ Eq nd (nth_error_In _ _ Hk)). apply M4; [reflexivity|]. rewrite El, (D0 _ _ Hk). f_equal. lia.
+    + intros Hd j Hj. unfold gc_q, nthZ. destruct (j - 1 <? 0) eqn:Ej; [apply Z.ltb_lt in Ej; lia|].
       destruct (nth_error (nodes s) (Z.to_nat (j - 1))) as [nd|] eqn:Hk; [|apply nth_error_None in Hk; lia].
-      destruct (G _ _ Hk) as (_ & _ & _ & M4 & _). apply (R.find_q_None _ _ Eq nd (nth_error_In _ _ Hk)). apply M4; [reflexivity|]. rewrite El, (D0 _ _ Hk). f_equal. lia.
+      destruct (G _ _ Hk) as (_ & _ & _ & _ & (_ & T1 & _)). destruct (T1 Hd) as [T3 _]. rewrite T3. f_equal. rewrite (D0 _ _ Hk). lia.
   - intros j nc sc Hc Hs. destruct (Z_le_dec 1 j) as [Hj1|Hj1]; [destruct (Z_le_dec j (Z.of_nat nn)) as [Hj2|Hj2]|].
     + rewrite Hinf by lia. eapply Hsch; eauto.
-    + unfold R.inf_of, nthZ. destruct (j - 1 <? 0); [reflexivity|]. destruct (nth_error (nodes s) (Z.to_nat (j - 1))) eqn:Hk; [|reflexivity].
+    + unfold Renege2.inf_of, nthZ. destruct (j - 1 <? 0); [reflexivity|]. destruct (nth_error (nodes s) (Z.to_nat (j - 1))) eqn:Hk; [|reflexivity].
       assert (Hlt : (Z.to_nat (j - 1) < length (nodes s))%nat) by (apply nth_error_Some; rewrite Hk; discriminate). lia.
-    + unfold R.inf_of, nthZ. destruct (j - 1 <? 0) eqn:Ej; [reflexivity|apply Z.ltb_ge in Ej; lia].
+    + unfold Renege2.inf_of, nthZ. destruct (j - 1 <? 0) eqn:Ej; [reflexivity|apply Z.ltb_ge in Ej; lia].
 Qed.
 
-(* the scope of the theorems: no pre-emption of any kind (no priority pre-emption, no pre-emptive schedule, no pre-emptive
-   capacitated slot), no class change while waiting, and timetables whose dates increase *)
-Definition scope (c : config) : bool := R.nopre c && negb (cf_dyn c) && wf_times c.
+(* the scope of the theorems: one of the two regions (no pre-emption of any kind; or pre-emption without 'resume', without class
+   change while waiting, priority pre-emption rerouting its victims unless nobody reneges anywhere), timetables whose dates
+   increase, and class change while waiting not together with slotted services *)
+Definition dyn_ok (c : config) : bool := negb (cf_dyn c) || forallb (fun nc => negb (nc_slotted nc)) (cf_nodes c).
+Definition scope (c : config) : bool := region c && wf_times c && dyn_ok c.
+Lemma dyn_ok_spec c : dyn_ok c = true -> cf_dyn c = true -> forall nc, In nc (cf_nodes c) -> nc_slotted nc = false.
+Proof.
+  unfold dyn_ok. intros H Hd nc Hin. rewrite Hd in H. cbn in H. rewrite forallb_forall in H. apply negb_true_iff. apply H. exact Hin.
+Qed.
 
 (* the invariant: every date the state carries is at or after the clock, every customer is in the queue of its node, and the
    node that acts next does so at the clock *)
 Definition Clk2 (cf : config) (s : sim) : Prop :=
-  Inv cf (R.inf_of s) (now s) (length (nodes s)) (R.loc_q s) TNone (a_created (arr s)) (s <| dr := R.nodraws |>) /\
-  R.sched_fin cf s /\ Nxt s /\ Act s.
+  Inv cf (Renege2.inf_of s) (now s) (length (nodes s)) (Renege2.loc_q s) TNone None (gc_q s) (a_created (arr s)) (s <| dr := Renege2.nodraws |>) /\
+  Renege2.sched_fin cf s /\ Nxt s /\ Act s /\ T3OK cf s.
 
-Lemma DrawsOK_nodraws : DrawsOK R.nodraws.
+Lemma DrawsOK_nodraws : DrawsOK Renege2.nodraws.
 Proof. unfold DrawsOK, nonneg. cbn. repeat split; constructor. Qed.
 
 (* ---------- T2 for C02: one event ---------- *)
 Theorem event_step_clk2 cf s d s' : scope cf = true -> Clk2 cf s -> DrawsOK d ->
   event_step cf (s <| dr := d |>) = Ok (tt, s') -> Clk2 cf s' /\ now s <= now s'.
 Proof.
-  intros Hsc (HI & HS & _ & _) Hd H. unfold scope in Hsc. apply andb_true_iff in Hsc as [Hsc Hwf]. apply andb_true_iff in Hsc as [Hpre Hdyn].
-  apply negb_true_iff in Hdyn.
-  pose proof (Inv_dr_tail _ _ _ _ _ _ _ _ d HI Hd) as HI0. change (s <| dr := R.nodraws |> <| dr := d |>) with (s <| dr := d |>) in HI0.
-  destruct (R.event_step_inv _ _ _ H) as (s1 & s2 & E1 & E2 & E3).
-  destruct (event_body_keeps cf (R.inf_of s) (now s) (length (nodes s)) Hpre Hdyn Hwf HS _ _ (InvX_of _ _ _ _ _ _ _ _ HI0) E1 _ E2) as (loc & cr & HI2 & HU).
-  destruct (Inv_now _ _ _ _ _ _ _ _ HI2 HU E3) as (HI3 & Hle & HN & HA).
+  intros Hsc (HI & HS & _ & _ & HT) Hd H. unfold scope in Hsc. apply andb_true_iff in Hsc as [Hsc Hdo]. apply andb_true_iff in Hsc as [Hpre Hwf].
+  pose proof (Inv_dr_tail _ _ _ _ _ _ _ _ _ _ d HI Hd) as HI0. change (s <| dr := Renege2.nodraws |> <| dr := d |>) with (s <| dr := d |>) in HI0.
+  destruct (Renege2.event_step_inv _ _ _ H) as (s1 & s2 & E1 & E2 & E3).
+  destruct (event_body_keeps cf (Renege2.inf_of s) (now s) (length (nodes s)) Hpre (dyn_ok_spec _ Hdo) Hwf HS _ _ (InvX_of _ _ _ _ _ _ _ _ _ HI0) HT E1 _ E2) as (loc & gc & cr & HI2 & HU).
+  destruct (Inv_now _ _ _ _ _ _ _ _ _ HI2 HU E3) as (HI3 & Hle & HN & HA & HT3).
   split; [|exact Hle].
-  destruct (Inv_canon _ _ _ _ _ _ _ HI3 HS) as [HI4 HS4]. split; [|split; [exact HS4|split; [exact HN|exact HA]]].
+  destruct (Inv_canon _ _ _ _ _ _ _ _ HI3 HS) as [HI4 HS4]. split; [|split; [exact HS4|split; [exact HN|split; [exact HA|exact HT3]]]].
   apply Inv_dr_tail; [exact HI4|apply DrawsOK_nodraws].
 Qed.
 
@@ -1417,31 +2179,48 @@ Theorem Clk2_means cf s : Clk2 cf s ->
   (* no waiting customer of a node with servers and reneging has a reneging date in the past *)
   (forall nd nc i x z, In nd (nodes s) -> nthZ (cf_nodes cf) (n_id nd - 1) = Some nc -> nc_reneging nc = true -> nd_inf nd = false ->
      In i (all_individuals nd) -> find_ind i (inds s) = Some x -> i_server x = None -> i_ren x = XV z -> now s <= z) /\
+  (* class change while waiting (nodes with servers): the node's next class-change date is not in the past, it belongs to a customer
+     of the node, no waiting customer has an earlier one, and an event of that type carries exactly that customer *)
+  (forall nd, In nd (nodes s) -> cf_dyn cf = true -> nd_inf nd = false ->
+     dle (Some (now s)) (n_nccd nd) /\ forall i, n_ncci nd = Some i -> In i (all_individuals nd)) /\
+  (forall nd i x z, In nd (nodes s) -> cf_dyn cf = true -> nd_inf nd = false -> In i (all_individuals nd) -> find_ind i (inds s) = Some x ->
+     i_server x = None -> i_ccd x = XV z -> now s <= z /\ dle (n_nccd nd) (Some z)) /\
+  (forall nd, In nd (nodes s) -> cf_dyn cf = true -> n_next_type nd = 3 ->
+     nd_inf nd = false /\ n_next_inds nd = match n_ncci nd with Some i => [i] | None => [] end) /\
   (* the event that is executed next is scheduled exactly at the current time (unless nothing at all is scheduled) *)
   (next_active s = 0 -> a_next_date (arr s) = Some (now s) \/ nothing_scheduled s) /\
   (next_active s <> 0 -> exists nd, nth_error (nodes s) (Z.to_nat (next_active s - 1)) = Some nd /\ n_id nd = next_active s /\
                                    (n_next_date nd = Some (now s) \/ nothing_scheduled s)).
 Proof.
-  intros ((A & B & C & D0 & E & F & G & H & (A1 & A2 & A3) & L) & HS & HN & (H0 & d & Hd & Hact)).
+  intros ((A & B & C & D0 & E & F & G & H & (A1 & A2 & A3) & L) & HS & HN & (H0 & d & Hd & Hact) & HT3).
   cbn [now arr nodes inds dr set] in *.
   assert (Hno : Forall (fun x => x = None) (dates_of s) -> nothing_scheduled s).
   { intros HF. unfold dates_of in HF. inversion HF as [|? ? Ha Hr]; subst. split; [exact Ha|]. intros nd Hin. rewrite Forall_forall in Hr. apply Hr. apply in_map. exact Hin. }
-  assert (HT : forall nd, In nd (nodes s) -> NodeT cf (now s) nd /\ nd_inf nd = R.inf_of s (n_id nd) /\
-                 forall id, In id (all_individuals nd) -> R.loc_q s id = Some (n_id nd)).
+  assert (HT : forall nd, In nd (nodes s) -> NodeT cf (now s) None (gc_q s) nd /\ nd_inf nd = Renege2.inf_of s (n_id nd) /\
+                 forall id, In id (all_individuals nd) -> Renege2.loc_q s id = Some (n_id nd)).
   { intros nd Hin. apply In_nth_error in Hin as [k Hk]. destruct (G _ _ Hk) as (M1 & _ & M3 & _ & M5). split; [exact M5|]. split; [exact M1|].
     intros id Hi. apply (M3 id Hi). }
-  split; [|split; [|split; [exact A3|split; [|split; [|split; [|split; [|split; [|split]]]]]]]].
+  split; [|split; [|split; [exact A3|split; [|split; [|split; [|split; [|split; [|split; [|split; [|split; [|split]]]]]]]]]]].
   - intros row e Hr He. rewrite Forall_forall in A1. specialize (A1 _ Hr). rewrite Forall_forall in A1. apply (A1 _ He).
   - intros row x Hr Hx. rewrite Forall_forall in A2. specialize (A2 _ Hr). rewrite Forall_forall in A2. apply (A2 _ Hx).
   - intros nd e Hin He. specialize (HN nd Hin). rewrite He in HN. exact HN.
-  - intros nd nc sv e Hin Hc Hi Hs Hsv He. destruct (HT nd Hin) as (T & _). unfold NodeT, ncf in T. rewrite Hc in T. destruct T as [T _].
+  - intros nd nc sv e Hin Hc Hi Hs Hsv He. destruct (HT nd Hin) as (T & _). destruct T as (_ & _ & T). unfold ncf in T. rewrite Hc in T. destruct T as [T _].
     specialize (T Hi Hs). rewrite Forall_forall in T. specialize (T sv Hsv). unfold SvOK in T. rewrite He in T. exact T.
-  - intros nd nc sc Hin Hc Hs. destruct (HT nd Hin) as (T & _). unfold NodeT, ncf in T. rewrite Hc in T. destruct T as [_ T]. rewrite Hs in T. tauto.
-  - intros nd nc sl Hin Hc Hs. destruct (HT nd Hin) as (T & _). unfold NodeT, ncf in T. rewrite Hc in T. destruct T as [_ T]. rewrite Hs in T. tauto.
+  - intros nd nc sc Hin Hc Hs. destruct (HT nd Hin) as (T & _). destruct T as (_ & _ & T). unfold ncf in T. rewrite Hc in T. destruct T as [_ T]. rewrite Hs in T. tauto.
+  - intros nd nc sl Hin Hc Hs. destruct (HT nd Hin) as (T & _). destruct T as (_ & _ & T). unfold ncf in T. rewrite Hc in T. destruct T as [_ T]. rewrite Hs in T. tauto.
   - intros nd nc i x z Hin Hc Hr Hi Hq Hx Hsv Hz. destruct (HT nd Hin) as (_ & Hinf & Hl).
-    rewrite Forall_forall in F. destruct (F x (R.find_ind_In _ _ _ Hx)) as (_ & _ & XC). destruct (XC eq_refl) as [(j & Hj & Hlj) HP].
-    rewrite (R.find_ind_id _ _ _ Hx), (Hl i Hq) in Hlj. injection Hlj as <-.
+    rewrite Forall_forall in F. destruct (F x (Renege2.find_ind_In _ _ _ Hx)) as (_ & _ & XC & _). destruct (XC eq_refl) as [(j & Hj & Hlj) [HP _]].
+    rewrite (Renege2.find_ind_id _ _ _ Hx), (Hl i Hq) in Hlj. injection Hlj as <-.
     apply (HP (n_id nd) z Hj); [unfold ren_at, ncf; rewrite Hc; exact Hr|rewrite <- Hinf; exact Hi|exact Hz|exact Hsv].
+  - intros nd Hin Hdy Hi. destruct (HT nd Hin) as ((_ & T1 & _) & _). destruct (T1 Hdy) as [_ T2]. destruct (T2 Hi) as [T3 T4]. split; [exact T3|].
+    intros i Hc. destruct (T4 i Hc) as [Q|Q]; [exact Q|discriminate Q].
+  - intros nd i x z Hin Hdy Hi Hq Hx Hsv Hz. destruct (HT nd Hin) as ((_ & T1 & _) & Hinf & Hl). destruct (T1 Hdy) as [T3 _].
+    rewrite Forall_forall in F. destruct (F x (Renege2.find_ind_In _ _ _ Hx)) as (_ & _ & XC & _). destruct (XC eq_refl) as [(j & Hj & Hlj) [_ HQ]].
+    rewrite (Renege2.find_ind_id _ _ _ Hx), (Hl i Hq) in Hlj. injection Hlj as <-.
+    destruct (HQ Hdy _ Hj ltac:(rewrite <- Hinf; exact Hi)) as [Ca _]. destruct (Ca Hsv z Hz) as [Q|[Q1 Q2]]; [discriminate Q|].
+    rewrite <- T3 in Q2. cbn [fst] in Q2. auto.
+  - intros nd Hin Hdy Hty. apply In_nth_error in Hin as [k Hk]. apply (HT3 Hdy (Z.of_nat k + 1) nd); [|exact Hty].
+    replace (Z.of_nat k + 1 - 1) with (Z.of_nat k) by lia. rewrite Renege2.nthZ_of_nat. exact Hk.
   - intros Hz. rewrite Hz in Hd. cbn in Hd. injection Hd as <-. destruct Hact as [Hx|[Hx Hall]]; [left; exact Hx|right; apply Hno; exact Hall].
   - intros Hnz. unfold dates_of in Hd. replace (Z.to_nat (next_active s)) with (S (Z.to_nat (next_active s - 1))) in Hd by lia.
     change (nth_error (a_next_date (arr s) :: map n_next_date (nodes s)) (S (Z.to_nat (next_active s - 1)))) with (nth_error (map n_next_date (nodes s)) (Z.to_nat (next_active s - 1))) in Hd.
@@ -1462,14 +2241,21 @@ Definition dnoneb (d : option Z) : bool := match d with None => true | Some _ =>
 
 Definition ren_ok_b (t : Z) (x : ind) : bool :=
   match i_ren x with XV z => (match i_server x with None => t <=? z | Some _ => true end) | _ => true end.
+Definition cc_ok_b (s : sim) (j : Z) (x : ind) : bool :=
+  (match i_server x, i_ccd x with None, XV z => (now s <=? z) && dleb (fst (gc_q s j)) (Some z) | _, _ => true end) &&
+  (match snd (gc_q s j) with Some i => if i =? i_id x then dnoneb (i_server x) else true | None => true end).
 Definition ind_ok_b (cf : config) (s : sim) (x : ind) : bool :=
-  (i_id x <=? a_created (arr s)) && nnb (i_stime x) && nnb (i_ost x) && nnb (i_tleft x) &&
+  (i_id x <=? a_created (arr s)) && nnb (i_stime x) && nnb (i_ost x) && negb (i_smark x =? 1) &&
   match i_node x with
-  | Some j => (match R.loc_q s (i_id x) with Some j' => j' =? j | None => false end) &&
-              (if ren_at cf j && negb (R.inf_of s j) then ren_ok_b (now s) x else true)
+  | Some j => (match Renege2.loc_q s (i_id x) with Some j' => j' =? j | None => false end) &&
+              (if ren_at cf j && negb (Renege2.inf_of s j) then ren_ok_b (now s) x else true) &&
+              (if cf_dyn cf && negb (Renege2.inf_of s j) then cc_ok_b s j x else true)
   | None => false
   end.
 Definition node_t_b (cf : config) (t : Z) (nd : node) : bool :=
+  (negb (Renege2.nopre cf) || (n_nint nd <=? 0)) &&
+  (if cf_dyn cf && negb (nd_inf nd)
+   then dleb (Some t) (n_nccd nd) && (match n_ncci nd with Some i => memZ i (all_individuals nd) | None => true end) else true) &&
   match nthZ (cf_nodes cf) (n_id nd - 1) with
   | None => true
   | Some nc =>
@@ -1482,8 +2268,8 @@ Definition node_t_b (cf : config) (t : Z) (nd : node) : bool :=
     end
   end.
 Definition node_ok_b (cf : config) (s : sim) (nd : node) : bool :=
-  R.nodup_b (all_individuals nd) &&
-  forallb (fun id => (id <=? a_created (arr s)) && (match R.loc_q s id with Some j => j =? n_id nd | None => false end)) (all_individuals nd) &&
+  Renege2.nodup_b (all_individuals nd) &&
+  forallb (fun id => (id <=? a_created (arr s)) && (match Renege2.loc_q s id with Some j => j =? n_id nd | None => false end)) (all_individuals nd) &&
   node_t_b cf (now s) nd.
 Definition loc_b (a : arrst) : bool :=
   match a_next_date a with
@@ -1501,9 +2287,14 @@ Definition act_b (s : sim) : bool :=
   | Some d => date_eqb d (Some (now s)) || (dnoneb d && forallb dnoneb (dates_of s))
   | None => false
   end.
+Definition t3_b (cf : config) (s : sim) : bool :=
+  negb (cf_dyn cf) ||
+  forallb (fun nd => if n_next_type nd =? 3
+                     then negb (nd_inf nd) && match n_next_inds nd, n_ncci nd with [i], Some i' => i =? i' | [], None => true | _, _ => false end
+                     else true) (nodes s).
 Definition clk2_b (cf : config) (s : sim) : bool :=
-  R.idx_b (nodes s) 1 && R.nodup_b (map i_id (inds s)) && forallb (ind_ok_b cf s) (inds s) && forallb (node_ok_b cf s) (nodes s) &&
-  arr_b s && R.sched_fin_b (cf_nodes cf) s 1 && nxt_b s && act_b s.
+  Renege2.idx_b (nodes s) 1 && Renege2.nodup_b (map i_id (inds s)) && forallb (ind_ok_b cf s) (inds s) && forallb (node_ok_b cf s) (nodes s) &&
+  arr_b s && Renege2.sched_fin_b (cf_nodes cf) s 1 && nxt_b s && act_b s && t3_b cf s.
 
 Lemma forallb2_dle a (l : list (list (option Z))) : forallb (forallb (dleb a)) l = true -> Forall (Forall (dle a)) l.
 Proof.
@@ -1513,53 +2304,66 @@ Qed.
 
 Theorem clk2_b_sound cf s : clk2_b cf s = true -> Clk2 cf s.
 Proof.
-  unfold clk2_b. intros H.
+  unfold clk2_b. intros H. apply andb_true_iff in H as [H HT3].
   apply andb_true_iff in H as [H HAct]. apply andb_true_iff in H as [H HNx]. apply andb_true_iff in H as [H HS].
   apply andb_true_iff in H as [H HA]. apply andb_true_iff in H as [H HN]. apply andb_true_iff in H as [H HF]. apply andb_true_iff in H as [HX HE].
-  assert (HI : Idx s) by (intros k nd Hk; rewrite (R.idx_b_sound _ _ HX _ _ Hk); lia).
-  assert (Hlocq : forall id k nd, nth_error (nodes s) k = Some nd -> R.loc_q s id = Some (n_id nd) -> In id (all_individuals nd)).
-  { intros id k nd Hk Hl. destruct (R.find_q_Some _ _ _ Hl) as (nd' & Hin & Hid & Hi). apply In_nth_error in Hin as [k' Hk'].
+  assert (HI : Idx s) by (intros k nd Hk; rewrite (Renege2.idx_b_sound _ _ HX _ _ Hk); lia).
+  assert (Hlocq : forall id k nd, nth_error (nodes s) k = Some nd -> Renege2.loc_q s id = Some (n_id nd) -> In id (all_individuals nd)).
+  { intros id k nd Hk Hl. destruct (Renege2.find_q_Some _ _ _ Hl) as (nd' & Hin & Hid & Hi). apply In_nth_error in Hin as [k' Hk'].
     assert (k' = k) by (pose proof (HI _ _ Hk); pose proof (HI _ _ Hk'); lia). subst k'. rewrite Hk in Hk'. injection Hk' as <-. exact Hi. }
-  split; [|split; [|split]].
+  assert (Hgc : forall k nd, nth_error (nodes s) k = Some nd -> gc_q s (n_id nd) = (n_nccd nd, n_ncci nd)).
+  { intros k nd Hk. unfold gc_q. rewrite (HI _ _ Hk). replace (Z.of_nat k + 1 - 1) with (Z.of_nat k) by lia. rewrite Renege2.nthZ_of_nat, Hk. reflexivity. }
+  split; [|split; [|split; [|split]]].
   - unfold Inv. cbn [now arr nodes inds dr set]. split; [reflexivity|]. split; [reflexivity|]. split; [reflexivity|]. split; [exact HI|].
-    split; [apply R.nodup_b_sound; exact HE|]. split; [|split; [|split; [|split; [|apply DrawsOK_nodraws]]]].
+    split; [apply Renege2.nodup_b_sound; exact HE|]. split; [|split; [|split; [|split; [|apply DrawsOK_nodraws]]]].
     + apply Forall_forall. intros x Hx. rewrite forallb_forall in HF. specialize (HF x Hx). unfold ind_ok_b in HF.
       apply andb_true_iff in HF as [HF F5]. apply andb_true_iff in HF as [HF F4]. apply andb_true_iff in HF as [HF F3]. apply andb_true_iff in HF as [F1 F2].
-      apply Z.leb_le in F1. split; [exact F1|]. split; [split; [apply nnb_NN; exact F2|split; [apply nnb_NN; exact F3|apply nnb_NN; exact F4]]|].
-      intros _. destruct (i_node x) as [j|] eqn:Ej; [|discriminate]. apply andb_true_iff in F5 as [F5 F6].
-      change (R.loc_q (s <| dr := R.nodraws |>)) with (R.loc_q s).
-      destruct (R.loc_q s (i_id x)) as [j'|] eqn:El; [|discriminate]. apply Z.eqb_eq in F5. subst j'. split; [exists j; auto|].
-      intros j0 z Hj0 Hr Hi Hz Hs. rewrite Ej in Hj0. injection Hj0 as <-. change (R.inf_of (s <| dr := R.nodraws |>) j) with (R.inf_of s j) in Hi. rewrite Hr, Hi in F6. cbn in F6.
-      unfold ren_ok_b in F6. rewrite Hz, Hs in F6. apply Z.leb_le. exact F6.
+      apply Z.leb_le in F1. split; [exact F1|]. split; [split; [apply nnb_NN; exact F2|split; [apply nnb_NN; exact F3|apply negb_true_iff in F4; apply Z.eqb_neq; exact F4]]|]. split; [|intros j He; discriminate He].
+      intros _. destruct (i_node x) as [j|] eqn:Ej; [|discriminate]. apply andb_true_iff in F5 as [F5 F7]. apply andb_true_iff in F5 as [F5 F6].
+      change (Renege2.loc_q (s <| dr := Renege2.nodraws |>)) with (Renege2.loc_q s).
+      destruct (Renege2.loc_q s (i_id x)) as [j'|] eqn:El; [|discriminate]. apply Z.eqb_eq in F5. subst j'. split; [exists j; auto|]. split.
+      * intros j0 z Hj0 Hr Hi Hz Hs. rewrite Ej in Hj0. injection Hj0 as <-. change (Renege2.inf_of (s <| dr := Renege2.nodraws |>) j) with (Renege2.inf_of s j) in Hi. rewrite Hr, Hi in F6. cbn in F6.
+        unfold ren_ok_b in F6. rewrite Hz, Hs in F6. apply Z.leb_le. exact F6.
+      * intros Hd j0 Hj0 Hi. injection Hj0 as <-. change (Renege2.inf_of (s <| dr := Renege2.nodraws |>) j) with (Renege2.inf_of s j) in Hi. rewrite Hd, Hi in F7. cbn in F7.
+        change (gc_q (s <| dr := Renege2.nodraws |>)) with (gc_q s). unfold cc_ok_b in F7. apply andb_true_iff in F7 as [F8 F9]. split.
+        -- intros Hs z Hz. rewrite Hs, Hz in F8. apply andb_true_iff in F8 as [F8 F10]. right. split; [apply Z.leb_le; exact F8|apply dleb_dle; exact F10].
+        -- intros Hg. rewrite Hg, Z.eqb_refl in F9. left. destruct (i_server x); [discriminate|reflexivity].
     + intros k nd Hk. rewrite forallb_forall in HN. pose proof (HN nd (nth_error_In _ _ Hk)) as Hnd. unfold node_ok_b in Hnd.
       apply andb_true_iff in Hnd as [Hnd N3]. apply andb_true_iff in Hnd as [N1 N2]. rewrite forallb_forall in N2.
-      split; [|split; [apply R.nodup_b_sound; exact N1|split; [|split]]].
-      * change (R.inf_of (s <| dr := R.nodraws |>)) with (R.inf_of s). unfold R.inf_of. rewrite (HI _ _ Hk). replace (Z.of_nat k + 1 - 1) with (Z.of_nat k) by lia. rewrite R.nthZ_of_nat, Hk. reflexivity.
+      split; [|split; [apply Renege2.nodup_b_sound; exact N1|split; [|split]]].
+      * change (Renege2.inf_of (s <| dr := Renege2.nodraws |>)) with (Renege2.inf_of s). unfold Renege2.inf_of. rewrite (HI _ _ Hk). replace (Z.of_nat k + 1 - 1) with (Z.of_nat k) by lia. rewrite Renege2.nthZ_of_nat, Hk. reflexivity.
       * intros id Hi. specialize (N2 id Hi). apply andb_true_iff in N2 as [N4 N5]. apply Z.leb_le in N4. split; [exact N4|]. split; [reflexivity|].
-        change (R.loc_q (s <| dr := R.nodraws |>)) with (R.loc_q s). destruct (R.loc_q s id) as [j|]; [|discriminate]. apply Z.eqb_eq in N5. rewrite N5. reflexivity.
+        change (Renege2.loc_q (s <| dr := Renege2.nodraws |>)) with (Renege2.loc_q s). destruct (Renege2.loc_q s id) as [j|]; [|discriminate]. apply Z.eqb_eq in N5. rewrite N5. reflexivity.
       * intros id _ Hl. eapply Hlocq; eauto.
-      * unfold NodeT, ncf. unfold node_t_b in N3. destruct (nthZ (cf_nodes cf) (n_id nd - 1)) as [nc|]; [|exact I].
+      * unfold NodeT, ncf. unfold node_t_b in N3. apply andb_true_iff in N3 as [N3 N3c]. apply andb_true_iff in N3 as [N3a N3b].
+        split; [intros Hp; rewrite Hp in N3a; cbn in N3a; apply Z.leb_le; exact N3a|]. split.
+        { intros Hd. change (gc_q (s <| dr := Renege2.nodraws |>)) with (gc_q s). split; [symmetry; eapply Hgc; eauto|]. intros Hi. rewrite Hd, Hi in N3b. cbn in N3b.
+          apply andb_true_iff in N3b as [N3d N3e]. split; [apply dleb_dle; exact N3d|]. intros i Hc. rewrite Hc in N3e. left. apply memZ_In. exact N3e. }
+        rename N3c into N3. destruct (nthZ (cf_nodes cf) (n_id nd - 1)) as [nc|]; [|exact I].
         apply andb_true_iff in N3 as [N6 N7]. split.
         -- intros Hi Hs. rewrite Hi, Hs in N6. cbn in N6. apply Forall_forall. intros sv Hsv. rewrite forallb_forall in N6. apply dleb_dle. apply (N6 sv Hsv).
         -- destruct (nc_srv nc) as [|sc|sl]; [exact I| |].
            ++ apply andb_true_iff in N7 as [N7 N9]. apply andb_true_iff in N7 as [N7 N8]. apply Z.leb_le in N7, N9.
               destruct (n_next_shift nd) as [e|]; [|discriminate]. apply Z.eqb_eq in N8. subst e. auto.
            ++ apply andb_true_iff in N7 as [N7 N8]. apply Z.leb_le in N7, N8. auto.
-    + intros id j Hl. change (R.loc_q (s <| dr := R.nodraws |>)) with (R.loc_q s) in Hl. destruct (R.find_q_Some _ _ _ Hl) as (nd' & Hin & Hid & _). apply In_nth_error in Hin as [k' Hk'].
+    + intros id j Hl. change (Renege2.loc_q (s <| dr := Renege2.nodraws |>)) with (Renege2.loc_q s) in Hl. destruct (Renege2.find_q_Some _ _ _ Hl) as (nd' & Hin & Hid & _). apply In_nth_error in Hin as [k' Hk'].
       pose proof (HI _ _ Hk'). assert (Hlt : (k' < length (nodes s))%nat) by (apply nth_error_Some; rewrite Hk'; discriminate). lia.
     + unfold arr_b in HA. apply andb_true_iff in HA as [HA A3]. apply andb_true_iff in HA as [A1 A2].
       split; [apply forallb2_dle; exact A1|split; [apply forallb2_dle; exact A2|]].
       unfold Loc. unfold loc_b in A3. destruct (a_next_date (arr s)) as [e|]; [right|left; reflexivity].
       destruct (nthZ (a_dates (arr s)) (a_next_node (arr s) - 1)) as [row|]; [|discriminate]. exists row. split; [reflexivity|].
-      destruct (nthZ row (a_next_cls (arr s))) as [d|]; [|discriminate]. apply R.date_eqb_eq in A3. rewrite A3. reflexivity.
-  - intros j nc sc Hc Hs. destruct (R.nthZ_nat _ _ _ Hc) as [Hj0 Hk]. pose proof (R.sched_fin_b_sound _ _ _ HS _ _ _ Hk Hs) as RR.
+      destruct (nthZ row (a_next_cls (arr s))) as [d|]; [|discriminate]. apply Renege2.date_eqb_eq in A3. rewrite A3. reflexivity.
+  - intros j nc sc Hc Hs. destruct (Renege2.nthZ_nat _ _ _ Hc) as [Hj0 Hk]. pose proof (Renege2.sched_fin_b_sound _ _ _ HS _ _ _ Hk Hs) as RR.
     replace (1 + Z.of_nat (Z.to_nat (j - 1))) with j in RR by lia. exact RR.
   - intros nd Hin. unfold nxt_b in HNx. rewrite forallb_forall in HNx. apply dleb_dle. apply (HNx nd Hin).
   - unfold act_b in HAct. apply andb_true_iff in HAct as [H6 H7]. unfold Act. split; [apply Z.leb_le; exact H6|].
     destruct (nth_error (dates_of s) (Z.to_nat (next_active s))) as [d|]; [|discriminate]. exists d. split; [reflexivity|].
-    apply orb_true_iff in H7 as [H7|H7]; [left; apply R.date_eqb_eq; exact H7|right].
+    apply orb_true_iff in H7 as [H7|H7]; [left; apply Renege2.date_eqb_eq; exact H7|right].
     apply andb_true_iff in H7 as [Ha Hb]. split; [destruct d; [discriminate|reflexivity]|].
     apply Forall_forall. intros x Hx. rewrite forallb_forall in Hb. specialize (Hb x Hx). destruct x; [discriminate|reflexivity].
+  - intros Hd j nd Hn Hty. unfold t3_b in HT3. rewrite Hd in HT3. cbn in HT3. rewrite forallb_forall in HT3. specialize (HT3 nd (Renege2.nthZ_In _ _ _ Hn)).
+    rewrite Hty in HT3. cbn in HT3. apply andb_true_iff in HT3 as [T1 T2]. apply negb_true_iff in T1. split; [exact T1|].
+    destruct (n_next_inds nd) as [|i [|i2 l]], (n_ncci nd) as [i'|]; try discriminate; [reflexivity|apply Z.eqb_eq in T2; subst; reflexivity].
 Qed.
 
 (* ================================================================================================================ *)
@@ -1576,7 +2380,7 @@ Definition ex_nd1 : node :=
 Definition ex_nd2 : node := mkNode 2 0 0 [[]] [] [] 0 (Some 0) [] (Some 0) 0 [] 0 [] [] [] 1 (Some 0) 0 None None.
 Definition ex_nd3 : node := mkNode 3 0 0 [[]] [] [] 0 (Some 0) [] (Some 0) 0 [] 0 [] [] [] 4 None 0 None None.
 Definition ex_s0 : sim :=
-  mkSim 0 2 (mkArr 0 0 [[Some 1]; [None]; [None]] 1 0 (Some 1)) [ex_nd1; ex_nd2; ex_nd3] [] 0 0 [] R.nodraws [] [[0; 0; 0]].
+  mkSim 0 2 (mkArr 0 0 [[Some 1]; [None]; [None]] 1 0 (Some 1)) [ex_nd1; ex_nd2; ex_nd3] [] 0 0 [] Renege2.nodraws [] [[0; 0; 0]].
 (* every event: inter-arrival 2, batch 1, service 4, patience 3 *)
 Definition ex_d : draws := mkDraws [2; 2] [1; 1] [4; 4; 4] [0; 0; 0] [3; 3] [].
 
@@ -1596,6 +2400,71 @@ Example ex_run_events : match run_many ex_cf ex_s0 (repeat ex_d 30) with
                         | Ok s => (map n_next_type (nodes s), exit_ids s) = ([2; 0; 4], [3; 5; 7; 1; 9]) | _ => False end.
 Proof. vm_compute. reflexivity. Qed.
 
+(* class change while waiting: one server, reneging, two classes; class 1 (low priority) turns into class 0 after waiting 3.
+   Fifteen events: arrivals every 2, services of 9, class-change events at 5 7 9 11 13 ... each executed at its date *)
+Definition dx_n1 : ncfg := mkNcfg None None 0 SFixed 0 true [true; true] 0.
+Definition dx_cf : config :=
+  mkCfg 2 [dx_n1] [0; 1] 2 None [RtNR [RLeave]; RtNR [RLeave]] [[None]; [None]] true [[false; false]; [true; false]].
+Definition dx_nd1 : node :=
+  mkNode 1 0 0 [[]; []] [mkServer 1 None false None 0 None 0 false 0 None] [] 0 None [] (Some 1) 1 [] 0 [] [] [] 5 None 0 None None.
+Definition dx_s0 : sim := mkSim 0 0 (mkArr 0 0 [[None; Some 0]] 1 1 (Some 0)) [dx_nd1] [] 0 0 [] Renege2.nodraws [] [[0]; [0]].
+Definition dx_d : draws := mkDraws [2; 2] [1; 1] [9; 9; 9] [0; 0; 0] [20; 20] [3; 3; 3].
+Example dx_scope : scope dx_cf = true /\ cf_dyn dx_cf = true. Proof. vm_compute. auto. Qed.
+Example dx_clk2 : Clk2 dx_cf dx_s0. Proof. apply clk2_b_sound. vm_compute. reflexivity. Qed.
+Definition dx_trace (n : nat) : option (Z * bool * list Z * list (Z * Z)) :=
+  match run_many dx_cf dx_s0 (repeat dx_d n) with
+  | Ok s => Some (now s, clk2_b dx_cf s, map n_next_type (nodes s), map (fun x => (i_id x, i_cls x)) (inds s)) | _ => None end.
+Example dx_run : map dx_trace [2; 4; 6; 15]%nat =
+  [Some (4, true, [3], [(1, 1); (2, 1)]); Some (6, true, [3], [(1, 1); (2, 0); (3, 1)]);
+   Some (8, true, [0], [(1, 1); (2, 0); (3, 0); (4, 1)]);
+   Some (16, true, [3], [(2, 0); (3, 0); (4, 0); (5, 0); (6, 0); (7, 0); (8, 1)])].
+Proof. vm_compute. reflexivity. Qed.
+
+(* priority pre-emption that REROUTES its victims, at a node with reneging (two classes, class 0 pre-empts class 1; the victim goes
+   on to node 2): twenty events, with renege events and pre-emptions *)
+Definition px_n1 : ncfg := mkNcfg None None 0 SFixed 4 true [true; true] 0.
+Definition px_n2 : ncfg := mkNcfg (Some 2) None 0 SFixed 0 false [false; false] 0.
+Definition px_cf : config :=
+  mkCfg 2 [px_n1; px_n2] [0; 1] 2 None [RtNR [RDirect 2; RLeave]; RtNR [RDirect 2; RLeave]] [[None; None]; [None; None]] false [[false; false]; [false; false]].
+Definition px_nd (j : Z) : node :=
+  mkNode j 0 0 [[]; []] [mkServer 1 None false None 0 None 0 false 0 None] [] 0 None [] (Some 1) 1 [] 0 [] [] [] 5 None 0 None None.
+Definition px_s0 : sim :=
+  mkSim 0 0 (mkArr 0 0 [[Some 3; Some 0]; [None; None]] 1 1 (Some 0)) [px_nd 1; px_nd 2] [] 0 0 [] Renege2.nodraws [] [[0; 0]; [0; 0]].
+Definition px_d : draws := mkDraws [4; 4] [1; 1] [7; 7; 7] [0; 0; 0] [5; 5] [].
+Example px_scope : scope px_cf = true /\ Renege2.nopre px_cf = false. Proof. vm_compute. auto. Qed.
+Example px_clk2 : Clk2 px_cf px_s0. Proof. apply clk2_b_sound. vm_compute. reflexivity. Qed.
+Definition px_trace (n : nat) : option (Z * bool) :=
+  match run_many px_cf px_s0 (repeat px_d n) with Ok s => Some (now s, clk2_b px_cf s) | _ => None end.
+Example px_run : map px_trace [1; 2; 3; 4; 5; 6; 8; 10; 14; 20]%nat =
+  [Some (3, true); Some (4, true); Some (7, true); Some (8, true); Some (9, true); Some (10, true); Some (11, true); Some (13, true);
+   Some (17, true); Some (23, true)].
+Proof. vm_compute. reflexivity. Qed.
+
+(* priority pre-emption with RESTART at node 1, a pre-emptive schedule with RESAMPLE at node 2, capacitated pre-emptive slots with
+   RESTART at node 3, queue capacities (blocking, rejections), no reneging: thirty events *)
+Definition qx_n1 : ncfg := mkNcfg (Some 3) None 0 SFixed 2 false [false; false] 0.
+Definition qx_n2 : ncfg := mkNcfg (Some 2) None 0 (SSched (mkSched [6; 12] [1; 2] 0 3)) 0 false [false; false] 0.
+Definition qx_n3 : ncfg := mkNcfg None None 0 (SSlot (mkSlot [5; 9] [1; 2] 0 true 2)) 0 false [false; false] 0.
+Definition qx_cf : config :=
+  mkCfg 2 [qx_n1; qx_n2; qx_n3] [0; 1] 2 None [RtNR [RDirect 2; RDirect 3; RLeave]; RtNR [RDirect 2; RDirect 3; RLeave]]
+        [[None; None; None]; [None; None; None]] false [[false; false]; [false; false]].
+Definition qx_nd1 : node :=
+  mkNode 1 0 0 [[]; []] [mkServer 1 None false None 0 None 0 false 0 None] [] 0 None [] (Some 1) 1 [] 0 [] [] [] 5 None 0 None None.
+Definition qx_nd2 : node := mkNode 2 0 0 [[]; []] [] [] 0 (Some 0) [] (Some 0) 0 [] 0 [] [] [] 1 (Some 0) 0 None None.
+Definition qx_nd3 : node := mkNode 3 0 0 [[]; []] [] [] 0 (Some 0) [] (Some 0) 0 [] 0 [] [] [] 4 None 0 None None.
+Definition qx_s0 : sim :=
+  mkSim 0 2 (mkArr 0 0 [[Some 4; Some 1]; [None; None]; [None; None]] 1 1 (Some 1)) [qx_nd1; qx_nd2; qx_nd3] [] 0 0 [] Renege2.nodraws [] [[0; 0; 0]; [0; 0; 0]].
+Definition qx_d : draws := mkDraws [3; 3] [1; 1] [5; 5; 5; 5] [0; 0; 0] [] [].
+Example qx_scope : scope qx_cf = true /\ Renege2.nopre qx_cf = false. Proof. vm_compute. auto. Qed.
+Example qx_clk2 : Clk2 qx_cf qx_s0. Proof. apply clk2_b_sound. vm_compute. reflexivity. Qed.
+Definition qx_trace (n : nat) : option (Z * bool) :=
+  match run_many qx_cf qx_s0 (repeat qx_d n) with Ok s => Some (now s, clk2_b qx_cf s) | _ => None end.
+Example qx_run : map qx_trace [1; 2; 3; 4; 5; 6; 7; 8; 9; 10; 12; 14; 16; 18; 20; 25; 30]%nat =
+  [Some (0, true); Some (1, true); Some (4, true); Some (4, true); Some (5, true); Some (6, true); Some (7, true); Some (7, true);
+   Some (9, true); Some (9, true); Some (10, true); Some (13, true); Some (14, true); Some (16, true); Some (17, true); Some (21, true);
+   Some (23, true)].
+Proof. vm_compute. reflexivity. Qed.
+
 (* ================================================================================================================ *)
 (* outside the scope the statement is false: closed witnesses                                                       *)
 (* ================================================================================================================ *)
@@ -1603,34 +2472,34 @@ Proof. vm_compute. reflexivity. Qed.
    customer goes back to waiting with the reneging date 2 it got at arrival, which passed while it was served: the clock
    goes from 5 back to 2 *)
 Theorem clock_monotone_refuted_F02c : exists cf s d s',
-  R.nopre cf = false /\ cf_dyn cf = false /\ wf_times cf = true /\ clk2_b cf s = true /\ DrawsOK d /\
+  region cf = false /\ wf_times cf = true /\ dyn_ok cf = true /\ clk2_b cf s = true /\ DrawsOK d /\
   event_step cf (s <| dr := d |>) = Ok (tt, s') /\ now s' < now s.
 Proof.
-  exists R.rf_cf, R.rf_s1, R.rf_d2, R.rf_s2. split; [vm_compute; reflexivity|]. split; [reflexivity|]. split; [vm_compute; reflexivity|].
+  exists Renege2.rf_cf, Renege2.rf_s1, Renege2.rf_d2, Renege2.rf_s2. split; [vm_compute; reflexivity|]. split; [vm_compute; reflexivity|]. split; [vm_compute; reflexivity|].
   split; [vm_compute; reflexivity|]. split; [unfold DrawsOK, nonneg; cbn; repeat split; repeat constructor; lia|].
   split; [vm_compute; reflexivity|vm_compute; reflexivity].
 Qed.
 
 (* F-02a (Preempt2.clock_monotone_refuted): priority pre-emption (resume) of a customer that is BLOCKED: its time left is
    5 - 10 = -5, and when it is resumed at 14 its service ends at 9 *)
-Definition f02a_s : sim := match run_many P.cfB P.sB (firstn 4 P.dsB) with Ok s => s | _ => P.sB end.
+Definition f02a_s : sim := match run_many Preempt2.cfB Preempt2.sB (firstn 4 Preempt2.dsB) with Ok s => s | _ => Preempt2.sB end.
 Definition f02a_check : bool :=
-  negb (R.nopre P.cfB) && negb (cf_dyn P.cfB) && wf_times P.cfB && clk2_b P.cfB f02a_s && (now f02a_s =? 10) &&
-  match run_many P.cfB f02a_s [P.ex_draws [1] [4] [1000]] with
-  | Ok s1 => (now s1 =? 14) && match event_step P.cfB (s1 <| dr := P.ex_draws [] [] [] |>) with Ok (_, s2) => now s2 =? 9 | _ => false end
+  negb (region Preempt2.cfB) && wf_times Preempt2.cfB && dyn_ok Preempt2.cfB && clk2_b Preempt2.cfB f02a_s && (now f02a_s =? 10) &&
+  match run_many Preempt2.cfB f02a_s [Preempt2.ex_draws [1] [4] [1000]] with
+  | Ok s1 => (now s1 =? 14) && match event_step Preempt2.cfB (s1 <| dr := Preempt2.ex_draws [] [] [] |>) with Ok (_, s2) => now s2 =? 9 | _ => false end
   | _ => false
   end.
 Theorem clock_monotone_refuted_F02a : exists cf s ds s1 d s2,
-  R.nopre cf = false /\ cf_dyn cf = false /\ wf_times cf = true /\ clk2_b cf s = true /\ Forall DrawsOK (ds ++ [d]) /\
+  region cf = false /\ wf_times cf = true /\ dyn_ok cf = true /\ clk2_b cf s = true /\ Forall DrawsOK (ds ++ [d]) /\
   run_many cf s ds = Ok s1 /\ event_step cf (s1 <| dr := d |>) = Ok (tt, s2) /\ now s <= now s1 /\ now s2 < now s1.
 Proof.
   assert (E : f02a_check = true) by (vm_compute; reflexivity). unfold f02a_check in E.
   apply andb_true_iff in E as [E E6]. apply andb_true_iff in E as [E E5]. apply andb_true_iff in E as [E E4]. apply andb_true_iff in E as [E E3].
-  apply andb_true_iff in E as [E1 E2]. apply negb_true_iff in E1, E2. apply Z.eqb_eq in E5.
-  destruct (run_many P.cfB f02a_s [P.ex_draws [1] [4] [1000]]) as [s1| |] eqn:Er; [|discriminate E6|discriminate E6].
+  apply andb_true_iff in E as [E1 E2]. apply negb_true_iff in E1. apply Z.eqb_eq in E5.
+  destruct (run_many Preempt2.cfB f02a_s [Preempt2.ex_draws [1] [4] [1000]]) as [s1| |] eqn:Er; [|discriminate E6|discriminate E6].
   apply andb_true_iff in E6 as [E6 E7]. apply Z.eqb_eq in E6.
-  destruct (event_step P.cfB (s1 <| dr := P.ex_draws [] [] [] |>)) as [[[] s2]| |] eqn:Ee; [|discriminate E7|discriminate E7]. apply Z.eqb_eq in E7.
-  exists P.cfB, f02a_s, [P.ex_draws [1] [4] [1000]], s1, (P.ex_draws [] [] []), s2.
+  destruct (event_step Preempt2.cfB (s1 <| dr := Preempt2.ex_draws [] [] [] |>)) as [[[] s2]| |] eqn:Ee; [|discriminate E7|discriminate E7]. apply Z.eqb_eq in E7.
+  exists Preempt2.cfB, f02a_s, [Preempt2.ex_draws [1] [4] [1000]], s1, (Preempt2.ex_draws [] [] []), s2.
   split; [exact E1|]. split; [exact E2|]. split; [exact E3|]. split; [exact E4|]. split; [|split; [exact Er|split; [exact Ee|lia]]].
   unfold DrawsOK, nonneg. cbn. repeat constructor; lia.
 Qed.
@@ -1645,22 +2514,22 @@ Definition b_cf : config := mkCfg 1 [b_n1; b_n2] [0] 1 None [RtNR [RDirect 2; RL
 Definition b_nd1 : node := mkNode 1 0 0 [[]] [] [] 0 (Some 0) [] (Some 0) 0 [] 0 [] [] [] 1 (Some 0) 0 None None.
 Definition b_nd2 : node :=
   mkNode 2 0 0 [[]] [mkServer 1 None false None 0 None 0 false 0 None] [] 0 None [] (Some 1) 1 [] 0 [] [] [] 5 None 0 None None.
-Definition b_s0 : sim := mkSim 0 1 (mkArr 0 0 [[Some 1]; [None]] 1 0 (Some 1)) [b_nd1; b_nd2] [] 0 0 [] R.nodraws [] [[0; 0]].
+Definition b_s0 : sim := mkSim 0 1 (mkArr 0 0 [[Some 1]; [None]] 1 0 (Some 1)) [b_nd1; b_nd2] [] 0 0 [] Renege2.nodraws [] [[0; 0]].
 Definition b_ds : list draws :=
-  [R.nodraws; mkDraws [3] [1] [2] [] [] []; mkDraws [] [] [100] [] [] []; mkDraws [100] [1] [2] [] [] []; R.nodraws].
+  [Renege2.nodraws; mkDraws [3] [1] [2] [] [] []; mkDraws [] [] [100] [] [] []; mkDraws [100] [1] [2] [] [] []; Renege2.nodraws].
 Definition f02b_s : sim := match run_many b_cf b_s0 b_ds with Ok s => s | _ => b_s0 end.
 Definition f02b_check : bool :=
-  negb (R.nopre b_cf) && negb (cf_dyn b_cf) && wf_times b_cf && clk2_b b_cf b_s0 && clk2_b b_cf f02b_s && (now f02b_s =? 10) &&
-  match event_step b_cf (f02b_s <| dr := R.nodraws |>) with Ok (_, s2) => now s2 =? 6 | _ => false end.
+  negb (region b_cf) && wf_times b_cf && dyn_ok b_cf && clk2_b b_cf b_s0 && clk2_b b_cf f02b_s && (now f02b_s =? 10) &&
+  match event_step b_cf (f02b_s <| dr := Renege2.nodraws |>) with Ok (_, s2) => now s2 =? 6 | _ => false end.
 Theorem clock_monotone_refuted_F02b : exists cf s d s',
-  R.nopre cf = false /\ cf_dyn cf = false /\ wf_times cf = true /\ clk2_b cf s = true /\ DrawsOK d /\
+  region cf = false /\ wf_times cf = true /\ dyn_ok cf = true /\ clk2_b cf s = true /\ DrawsOK d /\
   event_step cf (s <| dr := d |>) = Ok (tt, s') /\ now s' < now s.
 Proof.
   assert (E : f02b_check = true) by (vm_compute; reflexivity). unfold f02b_check in E.
   apply andb_true_iff in E as [E E7]. apply andb_true_iff in E as [E E6]. apply andb_true_iff in E as [E E5]. apply andb_true_iff in E as [E _].
-  apply andb_true_iff in E as [E E3]. apply andb_true_iff in E as [E1 E2]. apply negb_true_iff in E1, E2. apply Z.eqb_eq in E6.
-  destruct (event_step b_cf (f02b_s <| dr := R.nodraws |>)) as [[[] s2]| |] eqn:Ee; [|discriminate E7|discriminate E7]. apply Z.eqb_eq in E7.
-  exists b_cf, f02b_s, R.nodraws, s2. split; [exact E1|]. split; [exact E2|]. split; [exact E3|]. split; [exact E5|].
+  apply andb_true_iff in E as [E E3]. apply andb_true_iff in E as [E1 E2]. apply negb_true_iff in E1. apply Z.eqb_eq in E6.
+  destruct (event_step b_cf (f02b_s <| dr := Renege2.nodraws |>)) as [[[] s2]| |] eqn:Ee; [|discriminate E7|discriminate E7]. apply Z.eqb_eq in E7.
+  exists b_cf, f02b_s, Renege2.nodraws, s2. split; [exact E1|]. split; [exact E2|]. split; [exact E3|]. split; [exact E5|].
   split; [apply DrawsOK_nodraws|]. split; [exact Ee|lia].
 Qed.
 
@@ -1671,6 +2540,12 @@ Print Assumptions Clk2_means.
 Print Assumptions clk2_b_sound.
 Print Assumptions ex_clk2.
 Print Assumptions ex_run.
+Print Assumptions dx_clk2.
+Print Assumptions dx_run.
+Print Assumptions px_clk2.
+Print Assumptions px_run.
+Print Assumptions qx_clk2.
+Print Assumptions qx_run.
 Print Assumptions clock_monotone_refuted_F02a.
 Print Assumptions clock_monotone_refuted_F02b.
 Print Assumptions clock_monotone_refuted_F02c.
